@@ -1220,6 +1220,36 @@ module Coq_Pos =
              | XH -> true
              | _ -> false)
 
+  (** val coq_Nsucc_double : n -> n **)
+
+  let coq_Nsucc_double = function
+  | N0 -> Npos XH
+  | Npos p0 -> Npos (XI p0)
+
+  (** val coq_Ndouble : n -> n **)
+
+  let coq_Ndouble = function
+  | N0 -> N0
+  | Npos p0 -> Npos (XO p0)
+
+  (** val coq_land : positive -> positive -> n **)
+
+  let rec coq_land p0 q =
+    match p0 with
+    | XI p1 ->
+      (match q with
+       | XI q0 -> coq_Nsucc_double (coq_land p1 q0)
+       | XO q0 -> coq_Ndouble (coq_land p1 q0)
+       | XH -> Npos XH)
+    | XO p1 ->
+      (match q with
+       | XI q0 -> coq_Ndouble (coq_land p1 q0)
+       | XO q0 -> coq_Ndouble (coq_land p1 q0)
+       | XH -> N0)
+    | XH -> (match q with
+             | XO _ -> N0
+             | _ -> Npos XH)
+
   (** val iter_op : ('a1 -> 'a1 -> 'a1) -> positive -> 'a1 -> 'a1 **)
 
   let rec iter_op op p0 a =
@@ -1359,6 +1389,15 @@ module N =
     | Gt -> n0
     | _ -> n'
 
+  (** val div2 : n -> n **)
+
+  let div2 = function
+  | N0 -> N0
+  | Npos p0 -> (match p0 with
+                | XI p1 -> Npos p1
+                | XO p1 -> Npos p1
+                | XH -> N0)
+
   (** val pow : n -> n -> n **)
 
   let pow n0 = function
@@ -1405,6 +1444,21 @@ module N =
 
   let modulo a b =
     snd (div_eucl a b)
+
+  (** val coq_land : n -> n -> n **)
+
+  let coq_land n0 m =
+    match n0 with
+    | N0 -> N0
+    | Npos p0 -> (match m with
+                  | N0 -> N0
+                  | Npos q -> Coq_Pos.coq_land p0 q)
+
+  (** val shiftr : n -> n -> n **)
+
+  let shiftr a = function
+  | N0 -> a
+  | Npos p0 -> Coq_Pos.iter div2 a p0
 
   (** val to_nat : n -> nat **)
 
@@ -2898,6 +2952,11 @@ let be_u24 =
 let be_u32 =
   BeU (S (S (S (S O))))
 
+(** val be_u64 : n p **)
+
+let be_u64 =
+  BeU (S (S (S (S (S (S (S (S O))))))))
+
 (** val count_u8 : nat -> n list p **)
 
 let rec count_u8 = function
@@ -2965,6 +3024,94 @@ type tlsPlaintext = { p_hdr : tlsRecordHeader; p_msg : tlsMessage list }
 type tlsEncrypted = { e_hdr : tlsRecordHeader; e_blob : slice }
 
 type tlsRawRecord = { r_hdr : tlsRecordHeader; r_data : slice }
+
+type tlsExtension =
+| ESNI of (n * slice) list
+| EMaxFragmentLength of n
+| EStatusRequest of (n * slice) option
+| EEllipticCurves of n list
+| EEcPointFormats of slice
+| ESignatureAlgorithms of n list
+| ERecordSizeLimit of n
+| ESessionTicket of slice
+| EKeyShareOld of slice
+| EKeyShare of slice
+| EPreSharedKey of slice
+| EEarlyData of n option
+| ESupportedVersions of n list
+| ECookie of slice
+| EPskExchangeModes of byte list
+| EHeartbeat of n
+| EALPN of slice list
+| ESignedCertificateTimestamp of slice option
+| EPadding of slice
+| EEncryptThenMac
+| EExtendedMasterSecret
+| EOidFilters of (slice * slice) list
+| EPostHandshakeAuth
+| ENextProtocolNegotiation
+| ERenegotiationInfo of slice
+| EEncryptedServerName of n * n * slice * slice * slice
+| EGrease of n * slice
+| EUnknown of n * slice
+
+type serverDHParams = { dh_p : slice; dh_g : slice; dh_ys : slice }
+
+type explicitPrimeC = { ep_prime_p : slice; ep_a : slice; ep_b : slice;
+                        ep_base : slice; ep_order : slice; ep_cofactor : 
+                        slice }
+
+type eCParametersContent =
+| EcExplicitPrime of explicitPrimeC
+| EcNamedGroup of n
+
+type eCParameters = { ec_curve_type : n; ec_content : eCParametersContent }
+
+type serverECDHParams = { ecdh_params : eCParameters; ecdh_public : slice }
+
+type digitallySigned = { ds_alg : (n * n) option; ds_data : slice }
+
+type sCT = { sct_version : n; sct_id : slice; sct_timestamp : n;
+             sct_ext : slice; sct_sig : digitallySigned }
+
+type dTLSRecordHeader = { d_type : n; d_version : n; d_epoch : n; d_seq : 
+                          n; d_len : n }
+
+type dTLSClientHelloC = { dch_version : n; dch_random : slice;
+                          dch_sid : slice option; dch_cookie : slice;
+                          dch_ciphers : n list; dch_comp : n list;
+                          dch_ext : slice option }
+
+type dTLSBody =
+| DHelloRequest
+| DClientHello of dTLSClientHelloC
+| DHelloVerifyRequest of n * slice
+| DServerHello of serverHelloC
+| DNewSessionTicket of n * slice
+| DHelloRetryRequest of helloRetryC
+| DCertificate of slice list
+| DServerKeyExchange of slice
+| DCertificateRequest of certRequestC
+| DServerDone of slice
+| DCertificateVerify of slice
+| DClientKeyExchange of clientKeyExchangeC
+| DFinished of slice
+| DCertificateStatus of n * slice
+| DNextProtocol of slice * slice
+| DFragment of slice
+
+type dTLSMessageHandshake = { dhs_type : n; dhs_length : n; dhs_seq : 
+                              n; dhs_frag_off : n; dhs_frag_len : n;
+                              dhs_body : dTLSBody }
+
+type dTLSMessage =
+| DMHandshake of dTLSMessageHandshake
+| DMChangeCipherSpec
+| DMAlert of n * n
+| DMApplicationData of slice
+| DMHeartbeat of n * n * slice
+
+type dTLSPlaintext = { dp_hdr : dTLSRecordHeader; dp_msgs : dTLSMessage list }
 
 (** val str : string -> byte list **)
 
@@ -3691,6 +3838,842 @@ let sx_raw p0 =
     (String ((Ascii (true, true, true, false, true, true, true, false)),
     EmptyString)))))) ((sx_hdr p0.r_hdr) :: ((SS p0.r_data) :: []))
 
+(** val sx_ext : tlsExtension -> sx **)
+
+let sx_ext = function
+| ESNI l ->
+  c (String ((Ascii (true, true, false, false, true, false, true, false)),
+    (String ((Ascii (false, true, true, true, false, false, true, false)),
+    (String ((Ascii (true, false, false, true, false, false, true, false)),
+    EmptyString))))))
+    ((slist (fun p0 ->
+       c EmptyString ((SN (fst p0)) :: ((SS (snd p0)) :: []))) l) :: [])
+| EMaxFragmentLength v ->
+  c (String ((Ascii (true, false, true, true, false, false, true, false)),
+    (String ((Ascii (true, false, false, false, false, true, true, false)),
+    (String ((Ascii (false, false, false, true, true, true, true, false)),
+    (String ((Ascii (false, true, true, false, false, false, true, false)),
+    (String ((Ascii (false, true, false, false, true, true, true, false)),
+    (String ((Ascii (true, false, false, false, false, true, true, false)),
+    (String ((Ascii (true, true, true, false, false, true, true, false)),
+    (String ((Ascii (true, false, true, true, false, true, true, false)),
+    (String ((Ascii (true, false, true, false, false, true, true, false)),
+    (String ((Ascii (false, true, true, true, false, true, true, false)),
+    (String ((Ascii (false, false, true, false, true, true, true, false)),
+    (String ((Ascii (false, false, true, true, false, false, true, false)),
+    (String ((Ascii (true, false, true, false, false, true, true, false)),
+    (String ((Ascii (false, true, true, true, false, true, true, false)),
+    (String ((Ascii (true, true, true, false, false, true, true, false)),
+    (String ((Ascii (false, false, true, false, true, true, true, false)),
+    (String ((Ascii (false, false, false, true, false, true, true, false)),
+    EmptyString)))))))))))))))))))))))))))))))))) ((SN v) :: [])
+| EStatusRequest v ->
+  c (String ((Ascii (true, true, false, false, true, false, true, false)),
+    (String ((Ascii (false, false, true, false, true, true, true, false)),
+    (String ((Ascii (true, false, false, false, false, true, true, false)),
+    (String ((Ascii (false, false, true, false, true, true, true, false)),
+    (String ((Ascii (true, false, true, false, true, true, true, false)),
+    (String ((Ascii (true, true, false, false, true, true, true, false)),
+    (String ((Ascii (false, true, false, false, true, false, true, false)),
+    (String ((Ascii (true, false, true, false, false, true, true, false)),
+    (String ((Ascii (true, false, false, false, true, true, true, false)),
+    (String ((Ascii (true, false, true, false, true, true, true, false)),
+    (String ((Ascii (true, false, true, false, false, true, true, false)),
+    (String ((Ascii (true, true, false, false, true, true, true, false)),
+    (String ((Ascii (false, false, true, false, true, true, true, false)),
+    EmptyString))))))))))))))))))))))))))
+    ((sopt (fun p0 -> c EmptyString ((SN (fst p0)) :: ((SS (snd p0)) :: [])))
+       v) :: [])
+| EEllipticCurves l ->
+  c (String ((Ascii (true, false, true, false, false, false, true, false)),
+    (String ((Ascii (false, false, true, true, false, true, true, false)),
+    (String ((Ascii (false, false, true, true, false, true, true, false)),
+    (String ((Ascii (true, false, false, true, false, true, true, false)),
+    (String ((Ascii (false, false, false, false, true, true, true, false)),
+    (String ((Ascii (false, false, true, false, true, true, true, false)),
+    (String ((Ascii (true, false, false, true, false, true, true, false)),
+    (String ((Ascii (true, true, false, false, false, true, true, false)),
+    (String ((Ascii (true, true, false, false, false, false, true, false)),
+    (String ((Ascii (true, false, true, false, true, true, true, false)),
+    (String ((Ascii (false, true, false, false, true, true, true, false)),
+    (String ((Ascii (false, true, true, false, true, true, true, false)),
+    (String ((Ascii (true, false, true, false, false, true, true, false)),
+    (String ((Ascii (true, true, false, false, true, true, true, false)),
+    EmptyString)))))))))))))))))))))))))))) ((slist (fun x -> SN x) l) :: [])
+| EEcPointFormats s ->
+  c (String ((Ascii (true, false, true, false, false, false, true, false)),
+    (String ((Ascii (true, true, false, false, false, true, true, false)),
+    (String ((Ascii (false, false, false, false, true, false, true, false)),
+    (String ((Ascii (true, true, true, true, false, true, true, false)),
+    (String ((Ascii (true, false, false, true, false, true, true, false)),
+    (String ((Ascii (false, true, true, true, false, true, true, false)),
+    (String ((Ascii (false, false, true, false, true, true, true, false)),
+    (String ((Ascii (false, true, true, false, false, false, true, false)),
+    (String ((Ascii (true, true, true, true, false, true, true, false)),
+    (String ((Ascii (false, true, false, false, true, true, true, false)),
+    (String ((Ascii (true, false, true, true, false, true, true, false)),
+    (String ((Ascii (true, false, false, false, false, true, true, false)),
+    (String ((Ascii (false, false, true, false, true, true, true, false)),
+    (String ((Ascii (true, true, false, false, true, true, true, false)),
+    EmptyString)))))))))))))))))))))))))))) ((SS s) :: [])
+| ESignatureAlgorithms l ->
+  c (String ((Ascii (true, true, false, false, true, false, true, false)),
+    (String ((Ascii (true, false, false, true, false, true, true, false)),
+    (String ((Ascii (true, true, true, false, false, true, true, false)),
+    (String ((Ascii (false, true, true, true, false, true, true, false)),
+    (String ((Ascii (true, false, false, false, false, true, true, false)),
+    (String ((Ascii (false, false, true, false, true, true, true, false)),
+    (String ((Ascii (true, false, true, false, true, true, true, false)),
+    (String ((Ascii (false, true, false, false, true, true, true, false)),
+    (String ((Ascii (true, false, true, false, false, true, true, false)),
+    (String ((Ascii (true, false, false, false, false, false, true, false)),
+    (String ((Ascii (false, false, true, true, false, true, true, false)),
+    (String ((Ascii (true, true, true, false, false, true, true, false)),
+    (String ((Ascii (true, true, true, true, false, true, true, false)),
+    (String ((Ascii (false, true, false, false, true, true, true, false)),
+    (String ((Ascii (true, false, false, true, false, true, true, false)),
+    (String ((Ascii (false, false, true, false, true, true, true, false)),
+    (String ((Ascii (false, false, false, true, false, true, true, false)),
+    (String ((Ascii (true, false, true, true, false, true, true, false)),
+    (String ((Ascii (true, true, false, false, true, true, true, false)),
+    EmptyString))))))))))))))))))))))))))))))))))))))
+    ((slist (fun x -> SN x) l) :: [])
+| ERecordSizeLimit v ->
+  c (String ((Ascii (false, true, false, false, true, false, true, false)),
+    (String ((Ascii (true, false, true, false, false, true, true, false)),
+    (String ((Ascii (true, true, false, false, false, true, true, false)),
+    (String ((Ascii (true, true, true, true, false, true, true, false)),
+    (String ((Ascii (false, true, false, false, true, true, true, false)),
+    (String ((Ascii (false, false, true, false, false, true, true, false)),
+    (String ((Ascii (true, true, false, false, true, false, true, false)),
+    (String ((Ascii (true, false, false, true, false, true, true, false)),
+    (String ((Ascii (false, true, false, true, true, true, true, false)),
+    (String ((Ascii (true, false, true, false, false, true, true, false)),
+    (String ((Ascii (false, false, true, true, false, false, true, false)),
+    (String ((Ascii (true, false, false, true, false, true, true, false)),
+    (String ((Ascii (true, false, true, true, false, true, true, false)),
+    (String ((Ascii (true, false, false, true, false, true, true, false)),
+    (String ((Ascii (false, false, true, false, true, true, true, false)),
+    EmptyString)))))))))))))))))))))))))))))) ((SN v) :: [])
+| ESessionTicket s ->
+  c (String ((Ascii (true, true, false, false, true, false, true, false)),
+    (String ((Ascii (true, false, true, false, false, true, true, false)),
+    (String ((Ascii (true, true, false, false, true, true, true, false)),
+    (String ((Ascii (true, true, false, false, true, true, true, false)),
+    (String ((Ascii (true, false, false, true, false, true, true, false)),
+    (String ((Ascii (true, true, true, true, false, true, true, false)),
+    (String ((Ascii (false, true, true, true, false, true, true, false)),
+    (String ((Ascii (false, false, true, false, true, false, true, false)),
+    (String ((Ascii (true, false, false, true, false, true, true, false)),
+    (String ((Ascii (true, true, false, false, false, true, true, false)),
+    (String ((Ascii (true, true, false, true, false, true, true, false)),
+    (String ((Ascii (true, false, true, false, false, true, true, false)),
+    (String ((Ascii (false, false, true, false, true, true, true, false)),
+    EmptyString)))))))))))))))))))))))))) ((SS s) :: [])
+| EKeyShareOld s ->
+  c (String ((Ascii (true, true, false, true, false, false, true, false)),
+    (String ((Ascii (true, false, true, false, false, true, true, false)),
+    (String ((Ascii (true, false, false, true, true, true, true, false)),
+    (String ((Ascii (true, true, false, false, true, false, true, false)),
+    (String ((Ascii (false, false, false, true, false, true, true, false)),
+    (String ((Ascii (true, false, false, false, false, true, true, false)),
+    (String ((Ascii (false, true, false, false, true, true, true, false)),
+    (String ((Ascii (true, false, true, false, false, true, true, false)),
+    (String ((Ascii (true, true, true, true, false, false, true, false)),
+    (String ((Ascii (false, false, true, true, false, true, true, false)),
+    (String ((Ascii (false, false, true, false, false, true, true, false)),
+    EmptyString)))))))))))))))))))))) ((SS s) :: [])
+| EKeyShare s ->
+  c (String ((Ascii (true, true, false, true, false, false, true, false)),
+    (String ((Ascii (true, false, true, false, false, true, true, false)),
+    (String ((Ascii (true, false, false, true, true, true, true, false)),
+    (String ((Ascii (true, true, false, false, true, false, true, false)),
+    (String ((Ascii (false, false, false, true, false, true, true, false)),
+    (String ((Ascii (true, false, false, false, false, true, true, false)),
+    (String ((Ascii (false, true, false, false, true, true, true, false)),
+    (String ((Ascii (true, false, true, false, false, true, true, false)),
+    EmptyString)))))))))))))))) ((SS s) :: [])
+| EPreSharedKey s ->
+  c (String ((Ascii (false, false, false, false, true, false, true, false)),
+    (String ((Ascii (false, true, false, false, true, true, true, false)),
+    (String ((Ascii (true, false, true, false, false, true, true, false)),
+    (String ((Ascii (true, true, false, false, true, false, true, false)),
+    (String ((Ascii (false, false, false, true, false, true, true, false)),
+    (String ((Ascii (true, false, false, false, false, true, true, false)),
+    (String ((Ascii (false, true, false, false, true, true, true, false)),
+    (String ((Ascii (true, false, true, false, false, true, true, false)),
+    (String ((Ascii (false, false, true, false, false, true, true, false)),
+    (String ((Ascii (true, true, false, true, false, false, true, false)),
+    (String ((Ascii (true, false, true, false, false, true, true, false)),
+    (String ((Ascii (true, false, false, true, true, true, true, false)),
+    EmptyString)))))))))))))))))))))))) ((SS s) :: [])
+| EEarlyData v ->
+  c (String ((Ascii (true, false, true, false, false, false, true, false)),
+    (String ((Ascii (true, false, false, false, false, true, true, false)),
+    (String ((Ascii (false, true, false, false, true, true, true, false)),
+    (String ((Ascii (false, false, true, true, false, true, true, false)),
+    (String ((Ascii (true, false, false, true, true, true, true, false)),
+    (String ((Ascii (false, false, true, false, false, false, true, false)),
+    (String ((Ascii (true, false, false, false, false, true, true, false)),
+    (String ((Ascii (false, false, true, false, true, true, true, false)),
+    (String ((Ascii (true, false, false, false, false, true, true, false)),
+    EmptyString)))))))))))))))))) ((sopt (fun x -> SN x) v) :: [])
+| ESupportedVersions l ->
+  c (String ((Ascii (true, true, false, false, true, false, true, false)),
+    (String ((Ascii (true, false, true, false, true, true, true, false)),
+    (String ((Ascii (false, false, false, false, true, true, true, false)),
+    (String ((Ascii (false, false, false, false, true, true, true, false)),
+    (String ((Ascii (true, true, true, true, false, true, true, false)),
+    (String ((Ascii (false, true, false, false, true, true, true, false)),
+    (String ((Ascii (false, false, true, false, true, true, true, false)),
+    (String ((Ascii (true, false, true, false, false, true, true, false)),
+    (String ((Ascii (false, false, true, false, false, true, true, false)),
+    (String ((Ascii (false, true, true, false, true, false, true, false)),
+    (String ((Ascii (true, false, true, false, false, true, true, false)),
+    (String ((Ascii (false, true, false, false, true, true, true, false)),
+    (String ((Ascii (true, true, false, false, true, true, true, false)),
+    (String ((Ascii (true, false, false, true, false, true, true, false)),
+    (String ((Ascii (true, true, true, true, false, true, true, false)),
+    (String ((Ascii (false, true, true, true, false, true, true, false)),
+    (String ((Ascii (true, true, false, false, true, true, true, false)),
+    EmptyString))))))))))))))))))))))))))))))))))
+    ((slist (fun x -> SN x) l) :: [])
+| ECookie s ->
+  c (String ((Ascii (true, true, false, false, false, false, true, false)),
+    (String ((Ascii (true, true, true, true, false, true, true, false)),
+    (String ((Ascii (true, true, true, true, false, true, true, false)),
+    (String ((Ascii (true, true, false, true, false, true, true, false)),
+    (String ((Ascii (true, false, false, true, false, true, true, false)),
+    (String ((Ascii (true, false, true, false, false, true, true, false)),
+    EmptyString)))))))))))) ((SS s) :: [])
+| EPskExchangeModes l ->
+  c (String ((Ascii (false, false, false, false, true, false, true, false)),
+    (String ((Ascii (true, true, false, false, true, true, true, false)),
+    (String ((Ascii (true, true, false, true, false, true, true, false)),
+    (String ((Ascii (true, false, true, false, false, false, true, false)),
+    (String ((Ascii (false, false, false, true, true, true, true, false)),
+    (String ((Ascii (true, true, false, false, false, true, true, false)),
+    (String ((Ascii (false, false, false, true, false, true, true, false)),
+    (String ((Ascii (true, false, false, false, false, true, true, false)),
+    (String ((Ascii (false, true, true, true, false, true, true, false)),
+    (String ((Ascii (true, true, true, false, false, true, true, false)),
+    (String ((Ascii (true, false, true, false, false, true, true, false)),
+    (String ((Ascii (true, false, true, true, false, false, true, false)),
+    (String ((Ascii (true, true, true, true, false, true, true, false)),
+    (String ((Ascii (false, false, true, false, false, true, true, false)),
+    (String ((Ascii (true, false, true, false, false, true, true, false)),
+    (String ((Ascii (true, true, false, false, true, true, true, false)),
+    EmptyString)))))))))))))))))))))))))))))))) ((SB l) :: [])
+| EHeartbeat v ->
+  c (String ((Ascii (false, false, false, true, false, false, true, false)),
+    (String ((Ascii (true, false, true, false, false, true, true, false)),
+    (String ((Ascii (true, false, false, false, false, true, true, false)),
+    (String ((Ascii (false, true, false, false, true, true, true, false)),
+    (String ((Ascii (false, false, true, false, true, true, true, false)),
+    (String ((Ascii (false, true, false, false, false, true, true, false)),
+    (String ((Ascii (true, false, true, false, false, true, true, false)),
+    (String ((Ascii (true, false, false, false, false, true, true, false)),
+    (String ((Ascii (false, false, true, false, true, true, true, false)),
+    EmptyString)))))))))))))))))) ((SN v) :: [])
+| EALPN l ->
+  c (String ((Ascii (true, false, false, false, false, false, true, false)),
+    (String ((Ascii (false, false, true, true, false, false, true, false)),
+    (String ((Ascii (false, false, false, false, true, false, true, false)),
+    (String ((Ascii (false, true, true, true, false, false, true, false)),
+    EmptyString)))))))) ((slist (fun x -> SS x) l) :: [])
+| ESignedCertificateTimestamp v ->
+  c (String ((Ascii (true, true, false, false, true, false, true, false)),
+    (String ((Ascii (true, false, false, true, false, true, true, false)),
+    (String ((Ascii (true, true, true, false, false, true, true, false)),
+    (String ((Ascii (false, true, true, true, false, true, true, false)),
+    (String ((Ascii (true, false, true, false, false, true, true, false)),
+    (String ((Ascii (false, false, true, false, false, true, true, false)),
+    (String ((Ascii (true, true, false, false, false, false, true, false)),
+    (String ((Ascii (true, false, true, false, false, true, true, false)),
+    (String ((Ascii (false, true, false, false, true, true, true, false)),
+    (String ((Ascii (false, false, true, false, true, true, true, false)),
+    (String ((Ascii (true, false, false, true, false, true, true, false)),
+    (String ((Ascii (false, true, true, false, false, true, true, false)),
+    (String ((Ascii (true, false, false, true, false, true, true, false)),
+    (String ((Ascii (true, true, false, false, false, true, true, false)),
+    (String ((Ascii (true, false, false, false, false, true, true, false)),
+    (String ((Ascii (false, false, true, false, true, true, true, false)),
+    (String ((Ascii (true, false, true, false, false, true, true, false)),
+    (String ((Ascii (false, false, true, false, true, false, true, false)),
+    (String ((Ascii (true, false, false, true, false, true, true, false)),
+    (String ((Ascii (true, false, true, true, false, true, true, false)),
+    (String ((Ascii (true, false, true, false, false, true, true, false)),
+    (String ((Ascii (true, true, false, false, true, true, true, false)),
+    (String ((Ascii (false, false, true, false, true, true, true, false)),
+    (String ((Ascii (true, false, false, false, false, true, true, false)),
+    (String ((Ascii (true, false, true, true, false, true, true, false)),
+    (String ((Ascii (false, false, false, false, true, true, true, false)),
+    EmptyString))))))))))))))))))))))))))))))))))))))))))))))))))))
+    ((sopt (fun x -> SS x) v) :: [])
+| EPadding s ->
+  c (String ((Ascii (false, false, false, false, true, false, true, false)),
+    (String ((Ascii (true, false, false, false, false, true, true, false)),
+    (String ((Ascii (false, false, true, false, false, true, true, false)),
+    (String ((Ascii (false, false, true, false, false, true, true, false)),
+    (String ((Ascii (true, false, false, true, false, true, true, false)),
+    (String ((Ascii (false, true, true, true, false, true, true, false)),
+    (String ((Ascii (true, true, true, false, false, true, true, false)),
+    EmptyString)))))))))))))) ((SS s) :: [])
+| EEncryptThenMac ->
+  c (String ((Ascii (true, false, true, false, false, false, true, false)),
+    (String ((Ascii (false, true, true, true, false, true, true, false)),
+    (String ((Ascii (true, true, false, false, false, true, true, false)),
+    (String ((Ascii (false, true, false, false, true, true, true, false)),
+    (String ((Ascii (true, false, false, true, true, true, true, false)),
+    (String ((Ascii (false, false, false, false, true, true, true, false)),
+    (String ((Ascii (false, false, true, false, true, true, true, false)),
+    (String ((Ascii (false, false, true, false, true, false, true, false)),
+    (String ((Ascii (false, false, false, true, false, true, true, false)),
+    (String ((Ascii (true, false, true, false, false, true, true, false)),
+    (String ((Ascii (false, true, true, true, false, true, true, false)),
+    (String ((Ascii (true, false, true, true, false, false, true, false)),
+    (String ((Ascii (true, false, false, false, false, true, true, false)),
+    (String ((Ascii (true, true, false, false, false, true, true, false)),
+    EmptyString)))))))))))))))))))))))))))) []
+| EExtendedMasterSecret ->
+  c (String ((Ascii (true, false, true, false, false, false, true, false)),
+    (String ((Ascii (false, false, false, true, true, true, true, false)),
+    (String ((Ascii (false, false, true, false, true, true, true, false)),
+    (String ((Ascii (true, false, true, false, false, true, true, false)),
+    (String ((Ascii (false, true, true, true, false, true, true, false)),
+    (String ((Ascii (false, false, true, false, false, true, true, false)),
+    (String ((Ascii (true, false, true, false, false, true, true, false)),
+    (String ((Ascii (false, false, true, false, false, true, true, false)),
+    (String ((Ascii (true, false, true, true, false, false, true, false)),
+    (String ((Ascii (true, false, false, false, false, true, true, false)),
+    (String ((Ascii (true, true, false, false, true, true, true, false)),
+    (String ((Ascii (false, false, true, false, true, true, true, false)),
+    (String ((Ascii (true, false, true, false, false, true, true, false)),
+    (String ((Ascii (false, true, false, false, true, true, true, false)),
+    (String ((Ascii (true, true, false, false, true, false, true, false)),
+    (String ((Ascii (true, false, true, false, false, true, true, false)),
+    (String ((Ascii (true, true, false, false, false, true, true, false)),
+    (String ((Ascii (false, true, false, false, true, true, true, false)),
+    (String ((Ascii (true, false, true, false, false, true, true, false)),
+    (String ((Ascii (false, false, true, false, true, true, true, false)),
+    EmptyString)))))))))))))))))))))))))))))))))))))))) []
+| EOidFilters l ->
+  c (String ((Ascii (true, true, true, true, false, false, true, false)),
+    (String ((Ascii (true, false, false, true, false, true, true, false)),
+    (String ((Ascii (false, false, true, false, false, true, true, false)),
+    (String ((Ascii (false, true, true, false, false, false, true, false)),
+    (String ((Ascii (true, false, false, true, false, true, true, false)),
+    (String ((Ascii (false, false, true, true, false, true, true, false)),
+    (String ((Ascii (false, false, true, false, true, true, true, false)),
+    (String ((Ascii (true, false, true, false, false, true, true, false)),
+    (String ((Ascii (false, true, false, false, true, true, true, false)),
+    (String ((Ascii (true, true, false, false, true, true, true, false)),
+    EmptyString))))))))))))))))))))
+    ((slist (fun p0 ->
+       c EmptyString ((SS (fst p0)) :: ((SS (snd p0)) :: []))) l) :: [])
+| EPostHandshakeAuth ->
+  c (String ((Ascii (false, false, false, false, true, false, true, false)),
+    (String ((Ascii (true, true, true, true, false, true, true, false)),
+    (String ((Ascii (true, true, false, false, true, true, true, false)),
+    (String ((Ascii (false, false, true, false, true, true, true, false)),
+    (String ((Ascii (false, false, false, true, false, false, true, false)),
+    (String ((Ascii (true, false, false, false, false, true, true, false)),
+    (String ((Ascii (false, true, true, true, false, true, true, false)),
+    (String ((Ascii (false, false, true, false, false, true, true, false)),
+    (String ((Ascii (true, true, false, false, true, true, true, false)),
+    (String ((Ascii (false, false, false, true, false, true, true, false)),
+    (String ((Ascii (true, false, false, false, false, true, true, false)),
+    (String ((Ascii (true, true, false, true, false, true, true, false)),
+    (String ((Ascii (true, false, true, false, false, true, true, false)),
+    (String ((Ascii (true, false, false, false, false, false, true, false)),
+    (String ((Ascii (true, false, true, false, true, true, true, false)),
+    (String ((Ascii (false, false, true, false, true, true, true, false)),
+    (String ((Ascii (false, false, false, true, false, true, true, false)),
+    EmptyString)))))))))))))))))))))))))))))))))) []
+| ENextProtocolNegotiation ->
+  c (String ((Ascii (false, true, true, true, false, false, true, false)),
+    (String ((Ascii (true, false, true, false, false, true, true, false)),
+    (String ((Ascii (false, false, false, true, true, true, true, false)),
+    (String ((Ascii (false, false, true, false, true, true, true, false)),
+    (String ((Ascii (false, false, false, false, true, false, true, false)),
+    (String ((Ascii (false, true, false, false, true, true, true, false)),
+    (String ((Ascii (true, true, true, true, false, true, true, false)),
+    (String ((Ascii (false, false, true, false, true, true, true, false)),
+    (String ((Ascii (true, true, true, true, false, true, true, false)),
+    (String ((Ascii (true, true, false, false, false, true, true, false)),
+    (String ((Ascii (true, true, true, true, false, true, true, false)),
+    (String ((Ascii (false, false, true, true, false, true, true, false)),
+    (String ((Ascii (false, true, true, true, false, false, true, false)),
+    (String ((Ascii (true, false, true, false, false, true, true, false)),
+    (String ((Ascii (true, true, true, false, false, true, true, false)),
+    (String ((Ascii (true, true, true, true, false, true, true, false)),
+    (String ((Ascii (false, false, true, false, true, true, true, false)),
+    (String ((Ascii (true, false, false, true, false, true, true, false)),
+    (String ((Ascii (true, false, false, false, false, true, true, false)),
+    (String ((Ascii (false, false, true, false, true, true, true, false)),
+    (String ((Ascii (true, false, false, true, false, true, true, false)),
+    (String ((Ascii (true, true, true, true, false, true, true, false)),
+    (String ((Ascii (false, true, true, true, false, true, true, false)),
+    EmptyString)))))))))))))))))))))))))))))))))))))))))))))) []
+| ERenegotiationInfo s ->
+  c (String ((Ascii (false, true, false, false, true, false, true, false)),
+    (String ((Ascii (true, false, true, false, false, true, true, false)),
+    (String ((Ascii (false, true, true, true, false, true, true, false)),
+    (String ((Ascii (true, false, true, false, false, true, true, false)),
+    (String ((Ascii (true, true, true, false, false, true, true, false)),
+    (String ((Ascii (true, true, true, true, false, true, true, false)),
+    (String ((Ascii (false, false, true, false, true, true, true, false)),
+    (String ((Ascii (true, false, false, true, false, true, true, false)),
+    (String ((Ascii (true, false, false, false, false, true, true, false)),
+    (String ((Ascii (false, false, true, false, true, true, true, false)),
+    (String ((Ascii (true, false, false, true, false, true, true, false)),
+    (String ((Ascii (true, true, true, true, false, true, true, false)),
+    (String ((Ascii (false, true, true, true, false, true, true, false)),
+    (String ((Ascii (true, false, false, true, false, false, true, false)),
+    (String ((Ascii (false, true, true, true, false, true, true, false)),
+    (String ((Ascii (false, true, true, false, false, true, true, false)),
+    (String ((Ascii (true, true, true, true, false, true, true, false)),
+    EmptyString)))))))))))))))))))))))))))))))))) ((SS s) :: [])
+| EEncryptedServerName (c0, g0, k, r, e2) ->
+  c (String ((Ascii (true, false, true, false, false, false, true, false)),
+    (String ((Ascii (false, true, true, true, false, true, true, false)),
+    (String ((Ascii (true, true, false, false, false, true, true, false)),
+    (String ((Ascii (false, true, false, false, true, true, true, false)),
+    (String ((Ascii (true, false, false, true, true, true, true, false)),
+    (String ((Ascii (false, false, false, false, true, true, true, false)),
+    (String ((Ascii (false, false, true, false, true, true, true, false)),
+    (String ((Ascii (true, false, true, false, false, true, true, false)),
+    (String ((Ascii (false, false, true, false, false, true, true, false)),
+    (String ((Ascii (true, true, false, false, true, false, true, false)),
+    (String ((Ascii (true, false, true, false, false, true, true, false)),
+    (String ((Ascii (false, true, false, false, true, true, true, false)),
+    (String ((Ascii (false, true, true, false, true, true, true, false)),
+    (String ((Ascii (true, false, true, false, false, true, true, false)),
+    (String ((Ascii (false, true, false, false, true, true, true, false)),
+    (String ((Ascii (false, true, true, true, false, false, true, false)),
+    (String ((Ascii (true, false, false, false, false, true, true, false)),
+    (String ((Ascii (true, false, true, true, false, true, true, false)),
+    (String ((Ascii (true, false, true, false, false, true, true, false)),
+    EmptyString)))))))))))))))))))))))))))))))))))))) ((SN c0) :: ((SN
+    g0) :: ((SS k) :: ((SS r) :: ((SS e2) :: [])))))
+| EGrease (t, s) ->
+  c (String ((Ascii (true, true, true, false, false, false, true, false)),
+    (String ((Ascii (false, true, false, false, true, true, true, false)),
+    (String ((Ascii (true, false, true, false, false, true, true, false)),
+    (String ((Ascii (true, false, false, false, false, true, true, false)),
+    (String ((Ascii (true, true, false, false, true, true, true, false)),
+    (String ((Ascii (true, false, true, false, false, true, true, false)),
+    EmptyString)))))))))))) ((SN t) :: ((SS s) :: []))
+| EUnknown (t, s) ->
+  c (String ((Ascii (true, false, true, false, true, false, true, false)),
+    (String ((Ascii (false, true, true, true, false, true, true, false)),
+    (String ((Ascii (true, true, false, true, false, true, true, false)),
+    (String ((Ascii (false, true, true, true, false, true, true, false)),
+    (String ((Ascii (true, true, true, true, false, true, true, false)),
+    (String ((Ascii (true, true, true, false, true, true, true, false)),
+    (String ((Ascii (false, true, true, true, false, true, true, false)),
+    EmptyString)))))))))))))) ((SN t) :: ((SS s) :: []))
+
+(** val sx_dh : serverDHParams -> sx **)
+
+let sx_dh d =
+  c (String ((Ascii (false, false, true, false, false, false, true, false)),
+    (String ((Ascii (false, false, false, true, false, false, true, false)),
+    EmptyString)))) ((SS d.dh_p) :: ((SS d.dh_g) :: ((SS d.dh_ys) :: [])))
+
+(** val sx_ecc : eCParametersContent -> sx **)
+
+let sx_ecc = function
+| EcExplicitPrime c1 ->
+  c (String ((Ascii (true, false, true, false, false, false, true, false)),
+    (String ((Ascii (false, false, false, true, true, true, true, false)),
+    (String ((Ascii (false, false, false, false, true, true, true, false)),
+    (String ((Ascii (false, false, true, true, false, true, true, false)),
+    (String ((Ascii (true, false, false, true, false, true, true, false)),
+    (String ((Ascii (true, true, false, false, false, true, true, false)),
+    (String ((Ascii (true, false, false, true, false, true, true, false)),
+    (String ((Ascii (false, false, true, false, true, true, true, false)),
+    (String ((Ascii (false, false, false, false, true, false, true, false)),
+    (String ((Ascii (false, true, false, false, true, true, true, false)),
+    (String ((Ascii (true, false, false, true, false, true, true, false)),
+    (String ((Ascii (true, false, true, true, false, true, true, false)),
+    (String ((Ascii (true, false, true, false, false, true, true, false)),
+    EmptyString)))))))))))))))))))))))))) ((SS c1.ep_prime_p) :: ((SS
+    c1.ep_a) :: ((SS c1.ep_b) :: ((SS c1.ep_base) :: ((SS
+    c1.ep_order) :: ((SS c1.ep_cofactor) :: []))))))
+| EcNamedGroup g0 ->
+  c (String ((Ascii (false, true, true, true, false, false, true, false)),
+    (String ((Ascii (true, false, false, false, false, true, true, false)),
+    (String ((Ascii (true, false, true, true, false, true, true, false)),
+    (String ((Ascii (true, false, true, false, false, true, true, false)),
+    (String ((Ascii (false, false, true, false, false, true, true, false)),
+    (String ((Ascii (true, true, true, false, false, false, true, false)),
+    (String ((Ascii (false, true, false, false, true, true, true, false)),
+    (String ((Ascii (true, true, true, true, false, true, true, false)),
+    (String ((Ascii (true, false, true, false, true, true, true, false)),
+    (String ((Ascii (false, false, false, false, true, true, true, false)),
+    EmptyString)))))))))))))))))))) ((SN g0) :: [])
+
+(** val sx_ecp : eCParameters -> sx **)
+
+let sx_ecp p0 =
+  c (String ((Ascii (true, false, true, false, false, false, true, false)),
+    (String ((Ascii (true, true, false, false, false, false, true, false)),
+    (String ((Ascii (false, false, false, false, true, false, true, false)),
+    (String ((Ascii (true, false, false, false, false, true, true, false)),
+    (String ((Ascii (false, true, false, false, true, true, true, false)),
+    (String ((Ascii (true, false, false, false, false, true, true, false)),
+    (String ((Ascii (true, false, true, true, false, true, true, false)),
+    (String ((Ascii (true, false, true, false, false, true, true, false)),
+    (String ((Ascii (false, false, true, false, true, true, true, false)),
+    (String ((Ascii (true, false, true, false, false, true, true, false)),
+    (String ((Ascii (false, true, false, false, true, true, true, false)),
+    (String ((Ascii (true, true, false, false, true, true, true, false)),
+    EmptyString)))))))))))))))))))))))) ((SN
+    p0.ec_curve_type) :: ((sx_ecc p0.ec_content) :: []))
+
+(** val sx_ecdh : serverECDHParams -> sx **)
+
+let sx_ecdh p0 =
+  c (String ((Ascii (true, false, true, false, false, false, true, false)),
+    (String ((Ascii (true, true, false, false, false, false, true, false)),
+    (String ((Ascii (false, false, true, false, false, false, true, false)),
+    (String ((Ascii (false, false, false, true, false, false, true, false)),
+    EmptyString)))))))) ((sx_ecp p0.ecdh_params) :: ((SS
+    p0.ecdh_public) :: []))
+
+(** val sx_ds : digitallySigned -> sx **)
+
+let sx_ds d =
+  c (String ((Ascii (true, true, false, false, true, false, true, false)),
+    (String ((Ascii (true, false, false, true, false, true, true, false)),
+    (String ((Ascii (true, true, true, false, false, true, true, false)),
+    (String ((Ascii (false, true, true, true, false, true, true, false)),
+    (String ((Ascii (true, false, true, false, false, true, true, false)),
+    (String ((Ascii (false, false, true, false, false, true, true, false)),
+    EmptyString))))))))))))
+    ((sopt (fun p0 -> c EmptyString ((SN (fst p0)) :: ((SN (snd p0)) :: [])))
+       d.ds_alg) :: ((SS d.ds_data) :: []))
+
+(** val sx_sct : sCT -> sx **)
+
+let sx_sct s =
+  c (String ((Ascii (true, true, false, false, true, false, true, false)),
+    (String ((Ascii (true, true, false, false, false, false, true, false)),
+    (String ((Ascii (false, false, true, false, true, false, true, false)),
+    EmptyString)))))) ((SN s.sct_version) :: ((SS s.sct_id) :: ((SN
+    s.sct_timestamp) :: ((SS s.sct_ext) :: ((sx_ds s.sct_sig) :: [])))))
+
+(** val sx_dhdr : dTLSRecordHeader -> sx **)
+
+let sx_dhdr h =
+  c (String ((Ascii (false, false, true, false, false, false, true, false)),
+    (String ((Ascii (false, false, false, true, false, false, true, false)),
+    (String ((Ascii (false, false, true, false, false, true, true, false)),
+    (String ((Ascii (false, true, false, false, true, true, true, false)),
+    EmptyString)))))))) ((SN h.d_type) :: ((SN h.d_version) :: ((SN
+    h.d_epoch) :: ((SN h.d_seq) :: ((SN h.d_len) :: [])))))
+
+(** val sx_dbody : dTLSBody -> sx **)
+
+let sx_dbody = function
+| DHelloRequest ->
+  c (String ((Ascii (false, false, false, true, false, false, true, false)),
+    (String ((Ascii (true, false, true, false, false, true, true, false)),
+    (String ((Ascii (false, false, true, true, false, true, true, false)),
+    (String ((Ascii (false, false, true, true, false, true, true, false)),
+    (String ((Ascii (true, true, true, true, false, true, true, false)),
+    (String ((Ascii (false, true, false, false, true, false, true, false)),
+    (String ((Ascii (true, false, true, false, false, true, true, false)),
+    (String ((Ascii (true, false, false, false, true, true, true, false)),
+    (String ((Ascii (true, false, true, false, true, true, true, false)),
+    (String ((Ascii (true, false, true, false, false, true, true, false)),
+    (String ((Ascii (true, true, false, false, true, true, true, false)),
+    (String ((Ascii (false, false, true, false, true, true, true, false)),
+    EmptyString)))))))))))))))))))))))) []
+| DClientHello c0 ->
+  c (String ((Ascii (true, true, false, false, false, false, true, false)),
+    (String ((Ascii (false, false, true, true, false, true, true, false)),
+    (String ((Ascii (true, false, false, true, false, true, true, false)),
+    (String ((Ascii (true, false, true, false, false, true, true, false)),
+    (String ((Ascii (false, true, true, true, false, true, true, false)),
+    (String ((Ascii (false, false, true, false, true, true, true, false)),
+    (String ((Ascii (false, false, false, true, false, false, true, false)),
+    (String ((Ascii (true, false, true, false, false, true, true, false)),
+    (String ((Ascii (false, false, true, true, false, true, true, false)),
+    (String ((Ascii (false, false, true, true, false, true, true, false)),
+    (String ((Ascii (true, true, true, true, false, true, true, false)),
+    EmptyString)))))))))))))))))))))) ((SN c0.dch_version) :: ((SS
+    c0.dch_random) :: ((sopt (fun x -> SS x) c0.dch_sid) :: ((SS
+    c0.dch_cookie) :: ((slist (fun x -> SN x) c0.dch_ciphers) :: ((slist
+                                                                    (fun x ->
+                                                                    SN x)
+                                                                    c0.dch_comp) :: (
+    (sopt (fun x -> SS x) c0.dch_ext) :: [])))))))
+| DHelloVerifyRequest (v, c0) ->
+  c (String ((Ascii (false, false, false, true, false, false, true, false)),
+    (String ((Ascii (true, false, true, false, false, true, true, false)),
+    (String ((Ascii (false, false, true, true, false, true, true, false)),
+    (String ((Ascii (false, false, true, true, false, true, true, false)),
+    (String ((Ascii (true, true, true, true, false, true, true, false)),
+    (String ((Ascii (false, true, true, false, true, false, true, false)),
+    (String ((Ascii (true, false, true, false, false, true, true, false)),
+    (String ((Ascii (false, true, false, false, true, true, true, false)),
+    (String ((Ascii (true, false, false, true, false, true, true, false)),
+    (String ((Ascii (false, true, true, false, false, true, true, false)),
+    (String ((Ascii (true, false, false, true, true, true, true, false)),
+    (String ((Ascii (false, true, false, false, true, false, true, false)),
+    (String ((Ascii (true, false, true, false, false, true, true, false)),
+    (String ((Ascii (true, false, false, false, true, true, true, false)),
+    (String ((Ascii (true, false, true, false, true, true, true, false)),
+    (String ((Ascii (true, false, true, false, false, true, true, false)),
+    (String ((Ascii (true, true, false, false, true, true, true, false)),
+    (String ((Ascii (false, false, true, false, true, true, true, false)),
+    EmptyString)))))))))))))))))))))))))))))))))))) ((SN v) :: ((SS
+    c0) :: []))
+| DServerHello c0 -> sx_sh c0
+| DNewSessionTicket (h, t) ->
+  c (String ((Ascii (false, true, true, true, false, false, true, false)),
+    (String ((Ascii (true, false, true, false, false, true, true, false)),
+    (String ((Ascii (true, true, true, false, true, true, true, false)),
+    (String ((Ascii (true, true, false, false, true, false, true, false)),
+    (String ((Ascii (true, false, true, false, false, true, true, false)),
+    (String ((Ascii (true, true, false, false, true, true, true, false)),
+    (String ((Ascii (true, true, false, false, true, true, true, false)),
+    (String ((Ascii (true, false, false, true, false, true, true, false)),
+    (String ((Ascii (true, true, true, true, false, true, true, false)),
+    (String ((Ascii (false, true, true, true, false, true, true, false)),
+    (String ((Ascii (false, false, true, false, true, false, true, false)),
+    (String ((Ascii (true, false, false, true, false, true, true, false)),
+    (String ((Ascii (true, true, false, false, false, true, true, false)),
+    (String ((Ascii (true, true, false, true, false, true, true, false)),
+    (String ((Ascii (true, false, true, false, false, true, true, false)),
+    (String ((Ascii (false, false, true, false, true, true, true, false)),
+    EmptyString)))))))))))))))))))))))))))))))) ((SN h) :: ((SS t) :: []))
+| DHelloRetryRequest c0 -> sx_hrr c0
+| DCertificate l ->
+  c (String ((Ascii (true, true, false, false, false, false, true, false)),
+    (String ((Ascii (true, false, true, false, false, true, true, false)),
+    (String ((Ascii (false, true, false, false, true, true, true, false)),
+    (String ((Ascii (false, false, true, false, true, true, true, false)),
+    (String ((Ascii (true, false, false, true, false, true, true, false)),
+    (String ((Ascii (false, true, true, false, false, true, true, false)),
+    (String ((Ascii (true, false, false, true, false, true, true, false)),
+    (String ((Ascii (true, true, false, false, false, true, true, false)),
+    (String ((Ascii (true, false, false, false, false, true, true, false)),
+    (String ((Ascii (false, false, true, false, true, true, true, false)),
+    (String ((Ascii (true, false, true, false, false, true, true, false)),
+    EmptyString)))))))))))))))))))))) ((slist (fun x -> SS x) l) :: [])
+| DServerKeyExchange s ->
+  c (String ((Ascii (true, true, false, false, true, false, true, false)),
+    (String ((Ascii (true, false, true, false, false, true, true, false)),
+    (String ((Ascii (false, true, false, false, true, true, true, false)),
+    (String ((Ascii (false, true, true, false, true, true, true, false)),
+    (String ((Ascii (true, false, true, false, false, true, true, false)),
+    (String ((Ascii (false, true, false, false, true, true, true, false)),
+    (String ((Ascii (true, true, false, true, false, false, true, false)),
+    (String ((Ascii (true, false, true, false, false, true, true, false)),
+    (String ((Ascii (true, false, false, true, true, true, true, false)),
+    (String ((Ascii (true, false, true, false, false, false, true, false)),
+    (String ((Ascii (false, false, false, true, true, true, true, false)),
+    (String ((Ascii (true, true, false, false, false, true, true, false)),
+    (String ((Ascii (false, false, false, true, false, true, true, false)),
+    (String ((Ascii (true, false, false, false, false, true, true, false)),
+    (String ((Ascii (false, true, true, true, false, true, true, false)),
+    (String ((Ascii (true, true, true, false, false, true, true, false)),
+    (String ((Ascii (true, false, true, false, false, true, true, false)),
+    EmptyString)))))))))))))))))))))))))))))))))) ((SS s) :: [])
+| DCertificateRequest c0 -> sx_cr c0
+| DServerDone s ->
+  c (String ((Ascii (true, true, false, false, true, false, true, false)),
+    (String ((Ascii (true, false, true, false, false, true, true, false)),
+    (String ((Ascii (false, true, false, false, true, true, true, false)),
+    (String ((Ascii (false, true, true, false, true, true, true, false)),
+    (String ((Ascii (true, false, true, false, false, true, true, false)),
+    (String ((Ascii (false, true, false, false, true, true, true, false)),
+    (String ((Ascii (false, false, true, false, false, false, true, false)),
+    (String ((Ascii (true, true, true, true, false, true, true, false)),
+    (String ((Ascii (false, true, true, true, false, true, true, false)),
+    (String ((Ascii (true, false, true, false, false, true, true, false)),
+    EmptyString)))))))))))))))))))) ((SS s) :: [])
+| DCertificateVerify s ->
+  c (String ((Ascii (true, true, false, false, false, false, true, false)),
+    (String ((Ascii (true, false, true, false, false, true, true, false)),
+    (String ((Ascii (false, true, false, false, true, true, true, false)),
+    (String ((Ascii (false, false, true, false, true, true, true, false)),
+    (String ((Ascii (true, false, false, true, false, true, true, false)),
+    (String ((Ascii (false, true, true, false, false, true, true, false)),
+    (String ((Ascii (true, false, false, true, false, true, true, false)),
+    (String ((Ascii (true, true, false, false, false, true, true, false)),
+    (String ((Ascii (true, false, false, false, false, true, true, false)),
+    (String ((Ascii (false, false, true, false, true, true, true, false)),
+    (String ((Ascii (true, false, true, false, false, true, true, false)),
+    (String ((Ascii (false, true, true, false, true, false, true, false)),
+    (String ((Ascii (true, false, true, false, false, true, true, false)),
+    (String ((Ascii (false, true, false, false, true, true, true, false)),
+    (String ((Ascii (true, false, false, true, false, true, true, false)),
+    (String ((Ascii (false, true, true, false, false, true, true, false)),
+    (String ((Ascii (true, false, false, true, true, true, true, false)),
+    EmptyString)))))))))))))))))))))))))))))))))) ((SS s) :: [])
+| DClientKeyExchange c0 ->
+  c (String ((Ascii (true, true, false, false, false, false, true, false)),
+    (String ((Ascii (false, false, true, true, false, true, true, false)),
+    (String ((Ascii (true, false, false, true, false, true, true, false)),
+    (String ((Ascii (true, false, true, false, false, true, true, false)),
+    (String ((Ascii (false, true, true, true, false, true, true, false)),
+    (String ((Ascii (false, false, true, false, true, true, true, false)),
+    (String ((Ascii (true, true, false, true, false, false, true, false)),
+    (String ((Ascii (true, false, true, false, false, true, true, false)),
+    (String ((Ascii (true, false, false, true, true, true, true, false)),
+    (String ((Ascii (true, false, true, false, false, false, true, false)),
+    (String ((Ascii (false, false, false, true, true, true, true, false)),
+    (String ((Ascii (true, true, false, false, false, true, true, false)),
+    (String ((Ascii (false, false, false, true, false, true, true, false)),
+    (String ((Ascii (true, false, false, false, false, true, true, false)),
+    (String ((Ascii (false, true, true, true, false, true, true, false)),
+    (String ((Ascii (true, true, true, false, false, true, true, false)),
+    (String ((Ascii (true, false, true, false, false, true, true, false)),
+    EmptyString)))))))))))))))))))))))))))))))))) ((sx_cke c0) :: [])
+| DFinished s ->
+  c (String ((Ascii (false, true, true, false, false, false, true, false)),
+    (String ((Ascii (true, false, false, true, false, true, true, false)),
+    (String ((Ascii (false, true, true, true, false, true, true, false)),
+    (String ((Ascii (true, false, false, true, false, true, true, false)),
+    (String ((Ascii (true, true, false, false, true, true, true, false)),
+    (String ((Ascii (false, false, false, true, false, true, true, false)),
+    (String ((Ascii (true, false, true, false, false, true, true, false)),
+    (String ((Ascii (false, false, true, false, false, true, true, false)),
+    EmptyString)))))))))))))))) ((SS s) :: [])
+| DCertificateStatus (t, b0) ->
+  c (String ((Ascii (true, true, false, false, false, false, true, false)),
+    (String ((Ascii (true, false, true, false, false, true, true, false)),
+    (String ((Ascii (false, true, false, false, true, true, true, false)),
+    (String ((Ascii (false, false, true, false, true, true, true, false)),
+    (String ((Ascii (true, false, false, true, false, true, true, false)),
+    (String ((Ascii (false, true, true, false, false, true, true, false)),
+    (String ((Ascii (true, false, false, true, false, true, true, false)),
+    (String ((Ascii (true, true, false, false, false, true, true, false)),
+    (String ((Ascii (true, false, false, false, false, true, true, false)),
+    (String ((Ascii (false, false, true, false, true, true, true, false)),
+    (String ((Ascii (true, false, true, false, false, true, true, false)),
+    (String ((Ascii (true, true, false, false, true, false, true, false)),
+    (String ((Ascii (false, false, true, false, true, true, true, false)),
+    (String ((Ascii (true, false, false, false, false, true, true, false)),
+    (String ((Ascii (false, false, true, false, true, true, true, false)),
+    (String ((Ascii (true, false, true, false, true, true, true, false)),
+    (String ((Ascii (true, true, false, false, true, true, true, false)),
+    EmptyString)))))))))))))))))))))))))))))))))) ((SN t) :: ((SS b0) :: []))
+| DNextProtocol (a, b0) ->
+  c (String ((Ascii (false, true, true, true, false, false, true, false)),
+    (String ((Ascii (true, false, true, false, false, true, true, false)),
+    (String ((Ascii (false, false, false, true, true, true, true, false)),
+    (String ((Ascii (false, false, true, false, true, true, true, false)),
+    (String ((Ascii (false, false, false, false, true, false, true, false)),
+    (String ((Ascii (false, true, false, false, true, true, true, false)),
+    (String ((Ascii (true, true, true, true, false, true, true, false)),
+    (String ((Ascii (false, false, true, false, true, true, true, false)),
+    (String ((Ascii (true, true, true, true, false, true, true, false)),
+    (String ((Ascii (true, true, false, false, false, true, true, false)),
+    (String ((Ascii (true, true, true, true, false, true, true, false)),
+    (String ((Ascii (false, false, true, true, false, true, true, false)),
+    EmptyString)))))))))))))))))))))))) ((SS a) :: ((SS b0) :: []))
+| DFragment s ->
+  c (String ((Ascii (false, true, true, false, false, false, true, false)),
+    (String ((Ascii (false, true, false, false, true, true, true, false)),
+    (String ((Ascii (true, false, false, false, false, true, true, false)),
+    (String ((Ascii (true, true, true, false, false, true, true, false)),
+    (String ((Ascii (true, false, true, true, false, true, true, false)),
+    (String ((Ascii (true, false, true, false, false, true, true, false)),
+    (String ((Ascii (false, true, true, true, false, true, true, false)),
+    (String ((Ascii (false, false, true, false, true, true, true, false)),
+    EmptyString)))))))))))))))) ((SS s) :: [])
+
+(** val sx_dmsg : dTLSMessage -> sx **)
+
+let sx_dmsg = function
+| DMHandshake h ->
+  c (String ((Ascii (false, false, false, true, false, false, true, false)),
+    (String ((Ascii (true, false, false, false, false, true, true, false)),
+    (String ((Ascii (false, true, true, true, false, true, true, false)),
+    (String ((Ascii (false, false, true, false, false, true, true, false)),
+    (String ((Ascii (true, true, false, false, true, true, true, false)),
+    (String ((Ascii (false, false, false, true, false, true, true, false)),
+    (String ((Ascii (true, false, false, false, false, true, true, false)),
+    (String ((Ascii (true, true, false, true, false, true, true, false)),
+    (String ((Ascii (true, false, true, false, false, true, true, false)),
+    EmptyString)))))))))))))))))) ((SN h.dhs_type) :: ((SN
+    h.dhs_length) :: ((SN h.dhs_seq) :: ((SN h.dhs_frag_off) :: ((SN
+    h.dhs_frag_len) :: ((sx_dbody h.dhs_body) :: []))))))
+| DMChangeCipherSpec ->
+  c (String ((Ascii (true, true, false, false, false, false, true, false)),
+    (String ((Ascii (false, false, false, true, false, true, true, false)),
+    (String ((Ascii (true, false, false, false, false, true, true, false)),
+    (String ((Ascii (false, true, true, true, false, true, true, false)),
+    (String ((Ascii (true, true, true, false, false, true, true, false)),
+    (String ((Ascii (true, false, true, false, false, true, true, false)),
+    (String ((Ascii (true, true, false, false, false, false, true, false)),
+    (String ((Ascii (true, false, false, true, false, true, true, false)),
+    (String ((Ascii (false, false, false, false, true, true, true, false)),
+    (String ((Ascii (false, false, false, true, false, true, true, false)),
+    (String ((Ascii (true, false, true, false, false, true, true, false)),
+    (String ((Ascii (false, true, false, false, true, true, true, false)),
+    (String ((Ascii (true, true, false, false, true, false, true, false)),
+    (String ((Ascii (false, false, false, false, true, true, true, false)),
+    (String ((Ascii (true, false, true, false, false, true, true, false)),
+    (String ((Ascii (true, true, false, false, false, true, true, false)),
+    EmptyString)))))))))))))))))))))))))))))))) []
+| DMAlert (s, c0) ->
+  c (String ((Ascii (true, false, false, false, false, false, true, false)),
+    (String ((Ascii (false, false, true, true, false, true, true, false)),
+    (String ((Ascii (true, false, true, false, false, true, true, false)),
+    (String ((Ascii (false, true, false, false, true, true, true, false)),
+    (String ((Ascii (false, false, true, false, true, true, true, false)),
+    EmptyString)))))))))) ((SN s) :: ((SN c0) :: []))
+| DMApplicationData b ->
+  c (String ((Ascii (true, false, false, false, false, false, true, false)),
+    (String ((Ascii (false, false, false, false, true, true, true, false)),
+    (String ((Ascii (false, false, false, false, true, true, true, false)),
+    (String ((Ascii (false, false, true, true, false, true, true, false)),
+    (String ((Ascii (true, false, false, true, false, true, true, false)),
+    (String ((Ascii (true, true, false, false, false, true, true, false)),
+    (String ((Ascii (true, false, false, false, false, true, true, false)),
+    (String ((Ascii (false, false, true, false, true, true, true, false)),
+    (String ((Ascii (true, false, false, true, false, true, true, false)),
+    (String ((Ascii (true, true, true, true, false, true, true, false)),
+    (String ((Ascii (false, true, true, true, false, true, true, false)),
+    (String ((Ascii (false, false, true, false, false, false, true, false)),
+    (String ((Ascii (true, false, false, false, false, true, true, false)),
+    (String ((Ascii (false, false, true, false, true, true, true, false)),
+    (String ((Ascii (true, false, false, false, false, true, true, false)),
+    EmptyString)))))))))))))))))))))))))))))) ((SS b) :: [])
+| DMHeartbeat (t, l, p0) ->
+  c (String ((Ascii (false, false, false, true, false, false, true, false)),
+    (String ((Ascii (true, false, true, false, false, true, true, false)),
+    (String ((Ascii (true, false, false, false, false, true, true, false)),
+    (String ((Ascii (false, true, false, false, true, true, true, false)),
+    (String ((Ascii (false, false, true, false, true, true, true, false)),
+    (String ((Ascii (false, true, false, false, false, true, true, false)),
+    (String ((Ascii (true, false, true, false, false, true, true, false)),
+    (String ((Ascii (true, false, false, false, false, true, true, false)),
+    (String ((Ascii (false, false, true, false, true, true, true, false)),
+    EmptyString)))))))))))))))))) ((SN t) :: ((SN l) :: ((SS p0) :: [])))
+
+(** val sx_dplain : dTLSPlaintext -> sx **)
+
+let sx_dplain p0 =
+  c (String ((Ascii (false, false, true, false, false, false, true, false)),
+    (String ((Ascii (false, false, false, false, true, false, true, false)),
+    (String ((Ascii (false, false, true, true, false, true, true, false)),
+    (String ((Ascii (true, false, false, false, false, true, true, false)),
+    (String ((Ascii (true, false, false, true, false, true, true, false)),
+    (String ((Ascii (false, true, true, true, false, true, true, false)),
+    (String ((Ascii (false, false, true, false, true, true, true, false)),
+    (String ((Ascii (true, false, true, false, false, true, true, false)),
+    (String ((Ascii (false, false, false, true, true, true, true, false)),
+    (String ((Ascii (false, false, true, false, true, true, true, false)),
+    EmptyString))))))))))))))))))))
+    ((sx_dhdr p0.dp_hdr) :: ((slist sx_dmsg p0.dp_msgs) :: []))
+
 (** val assoc_N : n -> (n * 'a1) list -> 'a1 option **)
 
 let rec assoc_N k = function
@@ -3727,6 +4710,47 @@ type rec_body_id =
 | RB_heartbeat
 | RB_once_appdata
 | RB_complete_heartbeat
+
+type dtls_rec_body_id =
+| DRB_many1_ccs
+| DRB_many1_alert
+| DRB_many1_handshake
+
+type dtls_hs_body_id =
+| DHB_client_hello
+| DHB_hello_verify_request
+| DHB_server_hello
+| DHB_serverdone
+| DHB_clientkeyexchange
+| DHB_certificate
+
+type ext_content_id =
+| XC_sni
+| XC_max_fragment_length
+| XC_status_request
+| XC_elliptic_curves
+| XC_ec_point_formats
+| XC_signature_algorithms
+| XC_heartbeat
+| XC_alpn
+| XC_signed_certificate_timestamp
+| XC_padding
+| XC_encrypt_then_mac
+| XC_extended_master_secret
+| XC_record_size_limit
+| XC_session_ticket
+| XC_key_share_old
+| XC_pre_shared_key
+| XC_early_data
+| XC_supported_versions
+| XC_cookie
+| XC_psk_key_exchange_modes
+| XC_oid_filters
+| XC_post_handshake_auth
+| XC_key_share
+| XC_npn
+| XC_renegotiation_info
+| XC_encrypted_server_name
 
 (** val hs_table : (n * hs_body_id) list **)
 
@@ -3775,6 +4799,194 @@ let rec_table =
     RB_once_appdata) :: (((Npos (XO (XO (XO (XI XH))))),
     RB_complete_heartbeat) :: []))))
 
+(** val dtls_rec_table : (n * dtls_rec_body_id) list **)
+
+let dtls_rec_table =
+  ((Npos (XO (XO (XI (XO XH))))), DRB_many1_ccs) :: (((Npos (XI (XO (XI (XO
+    XH))))), DRB_many1_alert) :: (((Npos (XO (XI (XI (XO XH))))),
+    DRB_many1_handshake) :: []))
+
+(** val dtls_hs_table : (n * dtls_hs_body_id) list **)
+
+let dtls_hs_table =
+  ((Npos XH), DHB_client_hello) :: (((Npos (XI XH)),
+    DHB_hello_verify_request) :: (((Npos (XO XH)),
+    DHB_server_hello) :: (((Npos (XO (XI (XI XH)))),
+    DHB_serverdone) :: (((Npos (XO (XO (XO (XO XH))))),
+    DHB_clientkeyexchange) :: (((Npos (XI (XI (XO XH)))),
+    DHB_certificate) :: [])))))
+
+(** val generic_table : (n * ext_content_id) list **)
+
+let generic_table =
+  (N0, XC_sni) :: (((Npos XH), XC_max_fragment_length) :: (((Npos (XI (XO
+    XH))), XC_status_request) :: (((Npos (XO (XI (XO XH)))),
+    XC_elliptic_curves) :: (((Npos (XI (XI (XO XH)))),
+    XC_ec_point_formats) :: (((Npos (XI (XO (XI XH)))),
+    XC_signature_algorithms) :: (((Npos (XI (XI (XI XH)))),
+    XC_heartbeat) :: (((Npos (XO (XO (XO (XO XH))))), XC_alpn) :: (((Npos (XO
+    (XI (XO (XO XH))))), XC_signed_certificate_timestamp) :: (((Npos (XI (XO
+    (XI (XO XH))))), XC_padding) :: (((Npos (XO (XI (XI (XO XH))))),
+    XC_encrypt_then_mac) :: (((Npos (XI (XI (XI (XO XH))))),
+    XC_extended_master_secret) :: (((Npos (XO (XO (XI (XI XH))))),
+    XC_record_size_limit) :: (((Npos (XI (XI (XO (XO (XO XH)))))),
+    XC_session_ticket) :: (((Npos (XO (XO (XO (XI (XO XH)))))),
+    XC_key_share_old) :: (((Npos (XI (XO (XO (XI (XO XH)))))),
+    XC_pre_shared_key) :: (((Npos (XO (XI (XO (XI (XO XH)))))),
+    XC_early_data) :: (((Npos (XI (XI (XO (XI (XO XH)))))),
+    XC_supported_versions) :: (((Npos (XO (XO (XI (XI (XO XH)))))),
+    XC_cookie) :: (((Npos (XI (XO (XI (XI (XO XH)))))),
+    XC_psk_key_exchange_modes) :: (((Npos (XO (XO (XO (XO (XI XH)))))),
+    XC_oid_filters) :: (((Npos (XI (XO (XO (XO (XI XH)))))),
+    XC_post_handshake_auth) :: (((Npos (XI (XI (XO (XO (XI XH)))))),
+    XC_key_share) :: (((Npos (XO (XO (XI (XO (XI (XI (XI (XO (XI (XI (XO (XO
+    (XI XH)))))))))))))), XC_npn) :: (((Npos (XI (XO (XO (XO (XO (XO (XO (XO
+    (XI (XI (XI (XI (XI (XI (XI XH)))))))))))))))),
+    XC_renegotiation_info) :: (((Npos (XO (XI (XI (XI (XO (XO (XI (XI (XI (XI
+    (XI (XI (XI (XI (XI XH)))))))))))))))),
+    XC_encrypted_server_name) :: [])))))))))))))))))))))))))
+
+(** val client_table : (n * ext_content_id) list **)
+
+let client_table =
+  (N0, XC_sni) :: (((Npos XH), XC_max_fragment_length) :: (((Npos (XI (XO
+    XH))), XC_status_request) :: (((Npos (XO (XI (XO XH)))),
+    XC_elliptic_curves) :: (((Npos (XI (XI (XO XH)))),
+    XC_ec_point_formats) :: (((Npos (XI (XO (XI XH)))),
+    XC_signature_algorithms) :: (((Npos (XI (XI (XI XH)))),
+    XC_heartbeat) :: (((Npos (XO (XO (XO (XO XH))))), XC_alpn) :: (((Npos (XO
+    (XI (XO (XO XH))))), XC_signed_certificate_timestamp) :: (((Npos (XI (XO
+    (XI (XO XH))))), XC_padding) :: (((Npos (XO (XI (XI (XO XH))))),
+    XC_encrypt_then_mac) :: (((Npos (XI (XI (XI (XO XH))))),
+    XC_extended_master_secret) :: (((Npos (XO (XO (XI (XI XH))))),
+    XC_record_size_limit) :: (((Npos (XI (XI (XO (XO (XO XH)))))),
+    XC_session_ticket) :: (((Npos (XI (XO (XO (XI (XO XH)))))),
+    XC_pre_shared_key) :: (((Npos (XO (XI (XO (XI (XO XH)))))),
+    XC_early_data) :: (((Npos (XI (XI (XO (XI (XO XH)))))),
+    XC_supported_versions) :: (((Npos (XO (XO (XI (XI (XO XH)))))),
+    XC_cookie) :: (((Npos (XI (XO (XI (XI (XO XH)))))),
+    XC_psk_key_exchange_modes) :: (((Npos (XO (XO (XO (XO (XI XH)))))),
+    XC_oid_filters) :: (((Npos (XI (XO (XO (XO (XI XH)))))),
+    XC_post_handshake_auth) :: (((Npos (XI (XI (XO (XO (XI XH)))))),
+    XC_key_share) :: (((Npos (XO (XO (XI (XO (XI (XI (XI (XO (XI (XI (XO (XO
+    (XI XH)))))))))))))), XC_npn) :: (((Npos (XI (XO (XO (XO (XO (XO (XO (XO
+    (XI (XI (XI (XI (XI (XI (XI XH)))))))))))))))),
+    XC_renegotiation_info) :: (((Npos (XO (XI (XI (XI (XO (XO (XI (XI (XI (XI
+    (XI (XI (XI (XI (XI XH)))))))))))))))),
+    XC_encrypted_server_name) :: []))))))))))))))))))))))))
+
+(** val server_table : (n * ext_content_id) list **)
+
+let server_table =
+  (N0, XC_sni) :: (((Npos XH), XC_max_fragment_length) :: (((Npos (XI (XO
+    XH))), XC_status_request) :: (((Npos (XI (XI (XO XH)))),
+    XC_ec_point_formats) :: (((Npos (XI (XO (XI XH)))),
+    XC_signature_algorithms) :: (((Npos (XI (XI (XI XH)))),
+    XC_heartbeat) :: (((Npos (XO (XO (XO (XO XH))))), XC_alpn) :: (((Npos (XO
+    (XI (XO (XO XH))))), XC_signed_certificate_timestamp) :: (((Npos (XI (XO
+    (XI (XO XH))))), XC_encrypt_then_mac) :: (((Npos (XI (XI (XI (XO XH))))),
+    XC_extended_master_secret) :: (((Npos (XO (XO (XI (XI XH))))),
+    XC_record_size_limit) :: (((Npos (XI (XI (XO (XO (XO XH)))))),
+    XC_session_ticket) :: (((Npos (XI (XO (XO (XI (XO XH)))))),
+    XC_pre_shared_key) :: (((Npos (XO (XI (XO (XI (XO XH)))))),
+    XC_early_data) :: (((Npos (XI (XI (XO (XI (XO XH)))))),
+    XC_supported_versions) :: (((Npos (XO (XO (XI (XI (XO XH)))))),
+    XC_cookie) :: (((Npos (XI (XI (XO (XO (XI XH)))))),
+    XC_key_share) :: (((Npos (XO (XO (XI (XO (XI (XI (XI (XO (XI (XI (XO (XO
+    (XI XH)))))))))))))), XC_npn) :: (((Npos (XI (XO (XO (XO (XO (XO (XO (XO
+    (XI (XI (XI (XI (XI (XI (XI XH)))))))))))))))),
+    XC_renegotiation_info) :: []))))))))))))))))))
+
+(** val grease_mask : n **)
+
+let grease_mask =
+  Npos (XI (XI (XI (XI (XO (XO (XO (XO (XI (XI (XI XH)))))))))))
+
+(** val grease_val : n **)
+
+let grease_val =
+  Npos (XO (XI (XO (XI (XO (XO (XO (XO (XO (XI (XO XH)))))))))))
+
+(** val tag_sni : n **)
+
+let tag_sni =
+  N0
+
+(** val tag_max_fragment_length : n **)
+
+let tag_max_fragment_length =
+  Npos XH
+
+(** val tag_status_request : n **)
+
+let tag_status_request =
+  Npos (XI (XO XH))
+
+(** val tag_elliptic_curves : n **)
+
+let tag_elliptic_curves =
+  Npos (XO (XI (XO XH)))
+
+(** val tag_ec_point_formats : n **)
+
+let tag_ec_point_formats =
+  Npos (XO (XI (XO XH)))
+
+(** val tag_signature_algorithms : n **)
+
+let tag_signature_algorithms =
+  Npos (XI (XO (XI XH)))
+
+(** val tag_heartbeat : n **)
+
+let tag_heartbeat =
+  Npos (XI (XO (XI XH)))
+
+(** val tag_encrypt_then_mac : n **)
+
+let tag_encrypt_then_mac =
+  Npos (XO (XI (XI (XO XH))))
+
+(** val tag_extended_master_secret : n **)
+
+let tag_extended_master_secret =
+  Npos (XI (XI (XI (XO XH))))
+
+(** val tag_session_ticket : n **)
+
+let tag_session_ticket =
+  Npos (XI (XI (XO (XO (XO XH)))))
+
+(** val tag_key_share : n **)
+
+let tag_key_share =
+  Npos (XI (XI (XO (XO (XI XH)))))
+
+(** val tag_pre_shared_key : n **)
+
+let tag_pre_shared_key =
+  Npos (XO (XO (XO (XI (XO XH)))))
+
+(** val tag_early_data : n **)
+
+let tag_early_data =
+  Npos (XO (XI (XO (XI (XO XH)))))
+
+(** val tag_supported_versions : n **)
+
+let tag_supported_versions =
+  Npos (XI (XI (XO (XI (XO XH)))))
+
+(** val tag_cookie : n **)
+
+let tag_cookie =
+  Npos (XO (XO (XI (XI (XO XH)))))
+
+(** val tag_psk_key_exchange_modes : n **)
+
+let tag_psk_key_exchange_modes =
+  Npos (XI (XO (XI (XI (XO XH)))))
+
 (** val parse_cipher_suites : n -> n list p **)
 
 let parse_cipher_suites len =
@@ -3798,6 +5010,26 @@ let parse_compressions_algs len =
          if negb (has_len (Obj.magic i).bytes len)
          then ErrK KLengthValue
          else Bind ((Idx len), (fun s -> Ret (map b2n (Obj.magic s).bytes)))))
+
+(** val parse_u16_all : n list p **)
+
+let parse_u16_all =
+  Bind (GetI, (fun i ->
+    let len = slen (Obj.magic i) in
+    if N.eqb len N0
+    then Ret []
+    else if (||) (N.eqb (N.modulo len (Npos (XO XH))) (Npos XH))
+              (N.ltb (slen (Obj.magic i)) len)
+         then ErrK KLengthValue
+         else Bind ((Idx len), (fun s ->
+                match pairs16 (Obj.magic s).bytes with
+                | Some l -> Ret l
+                | None -> PanicP))))
+
+(** val parse_tls_versions : n list p **)
+
+let parse_tls_versions =
+  parse_u16_all
 
 (** val opt_ext : slice option p **)
 
@@ -4157,6 +5389,655 @@ let tls_parser =
 let tls_parser_many =
   Many1 (Cmpl (Obj.magic parse_tls_plaintext))
 
+(** val parse_tls_extension_sni_hostname : (n * slice) p **)
+
+let parse_tls_extension_sni_hostname =
+  Bind ((Obj.magic be_u8), (fun t -> Bind ((Obj.magic length_data be_u16),
+    (fun v -> Ret ((Obj.magic t), (Obj.magic v))))))
+
+(** val parse_tls_extension_sni_content : tlsExtension p **)
+
+let parse_tls_extension_sni_content =
+  Bind (GetI, (fun i ->
+    if N.eqb (slen (Obj.magic i)) N0
+    then Ret (ESNI [])
+    else Bind ((Obj.magic be_u16), (fun list_len -> Bind
+           ((map_parser (Take (Obj.magic list_len)) (Many0 (Cmpl
+              (Obj.magic parse_tls_extension_sni_hostname)))), (fun v -> Ret
+           (ESNI (Obj.magic v))))))))
+
+(** val parse_tls_extension_max_fragment_length_content : tlsExtension p **)
+
+let parse_tls_extension_max_fragment_length_content =
+  pmap be_u8 (fun x -> EMaxFragmentLength x)
+
+(** val parse_tls_extension_status_request_content : n -> tlsExtension p **)
+
+let parse_tls_extension_status_request_content ext_len =
+  if N.eqb ext_len N0
+  then Ret (EStatusRequest None)
+  else Bind ((Obj.magic be_u8), (fun status_type -> Bind ((Take
+         (N.sub ext_len (Npos XH))), (fun request -> Ret (EStatusRequest
+         (Some ((Obj.magic status_type), (Obj.magic request))))))))
+
+(** val parse_named_groups : n list p **)
+
+let parse_named_groups =
+  parse_u16_all
+
+(** val parse_tls_extension_elliptic_curves_content : tlsExtension p **)
+
+let parse_tls_extension_elliptic_curves_content =
+  map_parser (length_data be_u16)
+    (pmap parse_named_groups (fun x -> EEllipticCurves x))
+
+(** val parse_tls_extension_ec_point_formats_content : tlsExtension p **)
+
+let parse_tls_extension_ec_point_formats_content =
+  pmap (length_data be_u8) (fun x -> EEcPointFormats x)
+
+(** val parse_tls_extension_signature_algorithms_content : tlsExtension p **)
+
+let parse_tls_extension_signature_algorithms_content =
+  Bind ((map_parser (length_data be_u16) (Many0 (Cmpl (Obj.magic be_u16)))),
+    (fun l -> Ret (ESignatureAlgorithms (Obj.magic l))))
+
+(** val parse_tls_extension_heartbeat_content : tlsExtension p **)
+
+let parse_tls_extension_heartbeat_content =
+  pmap be_u8 (fun x -> EHeartbeat x)
+
+(** val parse_protocol_name : slice p **)
+
+let parse_protocol_name =
+  length_data be_u8
+
+(** val parse_tls_extension_alpn_content : tlsExtension p **)
+
+let parse_tls_extension_alpn_content =
+  Bind
+    ((map_parser (length_data be_u16) (Many0 (Cmpl
+       (Obj.magic parse_protocol_name)))), (fun v -> Ret (EALPN
+    (Obj.magic v))))
+
+(** val parse_tls_extension_padding_content : n -> tlsExtension p **)
+
+let parse_tls_extension_padding_content ext_len =
+  pmap (Take ext_len) (fun x -> EPadding x)
+
+(** val parse_tls_extension_signed_certificate_timestamp_content :
+    tlsExtension p **)
+
+let parse_tls_extension_signed_certificate_timestamp_content =
+  pmap (Opt (Cmpl (Obj.magic length_data be_u16))) (fun x ->
+    ESignedCertificateTimestamp x)
+
+(** val empty_only : n -> tlsExtension -> tlsExtension p **)
+
+let empty_only ext_len v =
+  if negb (N.eqb ext_len N0) then ErrK KVerify else Ret v
+
+(** val parse_tls_extension_encrypt_then_mac_content : n -> tlsExtension p **)
+
+let parse_tls_extension_encrypt_then_mac_content ext_len =
+  empty_only ext_len EEncryptThenMac
+
+(** val parse_tls_extension_extended_master_secret_content :
+    n -> tlsExtension p **)
+
+let parse_tls_extension_extended_master_secret_content ext_len =
+  empty_only ext_len EExtendedMasterSecret
+
+(** val parse_tls_extension_post_handshake_auth_content :
+    n -> tlsExtension p **)
+
+let parse_tls_extension_post_handshake_auth_content ext_len =
+  empty_only ext_len EPostHandshakeAuth
+
+(** val parse_tls_extension_npn_content : n -> tlsExtension p **)
+
+let parse_tls_extension_npn_content ext_len =
+  empty_only ext_len ENextProtocolNegotiation
+
+(** val parse_tls_extension_record_size_limit : tlsExtension p **)
+
+let parse_tls_extension_record_size_limit =
+  pmap be_u16 (fun x -> ERecordSizeLimit x)
+
+(** val parse_tls_extension_session_ticket_content : n -> tlsExtension p **)
+
+let parse_tls_extension_session_ticket_content ext_len =
+  pmap (Take ext_len) (fun x -> ESessionTicket x)
+
+(** val parse_tls_extension_key_share_old_content : n -> tlsExtension p **)
+
+let parse_tls_extension_key_share_old_content ext_len =
+  pmap (Take ext_len) (fun x -> EKeyShareOld x)
+
+(** val parse_tls_extension_key_share_content : n -> tlsExtension p **)
+
+let parse_tls_extension_key_share_content ext_len =
+  pmap (Take ext_len) (fun x -> EKeyShare x)
+
+(** val parse_tls_extension_pre_shared_key_content : n -> tlsExtension p **)
+
+let parse_tls_extension_pre_shared_key_content ext_len =
+  pmap (Take ext_len) (fun x -> EPreSharedKey x)
+
+(** val parse_tls_extension_early_data_content : n -> tlsExtension p **)
+
+let parse_tls_extension_early_data_content ext_len =
+  pmap (cond (N.ltb N0 ext_len) be_u32) (fun x -> EEarlyData x)
+
+(** val parse_tls_extension_supported_versions_content :
+    n -> tlsExtension p **)
+
+let parse_tls_extension_supported_versions_content ext_len =
+  if N.eqb ext_len (Npos (XO XH))
+  then pmap be_u16 (fun x -> ESupportedVersions (x :: []))
+  else Bind ((Obj.magic be_u8), (fun _ ->
+         if N.eqb ext_len N0
+         then ErrK KVerify
+         else Bind
+                ((map_parser (Take (N.sub ext_len (Npos XH)))
+                   (Obj.magic parse_tls_versions)), (fun l -> Ret
+                (ESupportedVersions (Obj.magic l))))))
+
+(** val parse_tls_extension_cookie_content : n -> tlsExtension p **)
+
+let parse_tls_extension_cookie_content ext_len =
+  pmap (Take ext_len) (fun x -> ECookie x)
+
+(** val parse_tls_extension_psk_key_exchange_modes_content :
+    tlsExtension p **)
+
+let parse_tls_extension_psk_key_exchange_modes_content =
+  Bind ((Obj.magic length_data be_u8), (fun v -> Ret (EPskExchangeModes
+    (Obj.magic v).bytes)))
+
+(** val parse_tls_extension_renegotiation_info_content : tlsExtension p **)
+
+let parse_tls_extension_renegotiation_info_content =
+  pmap (length_data be_u8) (fun x -> ERenegotiationInfo x)
+
+(** val parse_tls_extension_encrypted_server_name : tlsExtension p **)
+
+let parse_tls_extension_encrypted_server_name =
+  Bind ((Obj.magic be_u16), (fun ciphersuite -> Bind ((Obj.magic be_u16),
+    (fun group -> Bind ((Obj.magic length_data be_u16), (fun key_share ->
+    Bind ((Obj.magic length_data be_u16), (fun record_digest -> Bind
+    ((Obj.magic length_data be_u16), (fun encrypted_sni -> Ret
+    (EEncryptedServerName ((Obj.magic ciphersuite), (Obj.magic group),
+    (Obj.magic key_share), (Obj.magic record_digest),
+    (Obj.magic encrypted_sni)))))))))))))
+
+(** val parse_tls_oid_filter : (slice * slice) p **)
+
+let parse_tls_oid_filter =
+  Bind ((Obj.magic length_data be_u8), (fun oid -> Bind
+    ((Obj.magic length_data be_u16), (fun val0 -> Ret ((Obj.magic oid),
+    (Obj.magic val0))))))
+
+(** val parse_tls_extension_oid_filters : tlsExtension p **)
+
+let parse_tls_extension_oid_filters =
+  Bind
+    ((map_parser (length_data be_u16) (Many0 (Cmpl
+       (Obj.magic parse_tls_oid_filter)))), (fun v -> Ret (EOidFilters
+    (Obj.magic v))))
+
+(** val parse_tls_extension_unknown : tlsExtension p **)
+
+let parse_tls_extension_unknown =
+  Bind ((Obj.magic be_u16), (fun ext_type -> Bind
+    ((Obj.magic length_data be_u16), (fun ext_data -> Ret (EUnknown
+    ((Obj.magic ext_type), (Obj.magic ext_data)))))))
+
+(** val ext_content : ext_content_id -> n -> tlsExtension p **)
+
+let ext_content c0 ext_len =
+  match c0 with
+  | XC_sni -> parse_tls_extension_sni_content
+  | XC_max_fragment_length -> parse_tls_extension_max_fragment_length_content
+  | XC_status_request -> parse_tls_extension_status_request_content ext_len
+  | XC_elliptic_curves -> parse_tls_extension_elliptic_curves_content
+  | XC_ec_point_formats -> parse_tls_extension_ec_point_formats_content
+  | XC_signature_algorithms ->
+    parse_tls_extension_signature_algorithms_content
+  | XC_heartbeat -> parse_tls_extension_heartbeat_content
+  | XC_alpn -> parse_tls_extension_alpn_content
+  | XC_signed_certificate_timestamp ->
+    parse_tls_extension_signed_certificate_timestamp_content
+  | XC_padding -> parse_tls_extension_padding_content ext_len
+  | XC_encrypt_then_mac ->
+    parse_tls_extension_encrypt_then_mac_content ext_len
+  | XC_extended_master_secret ->
+    parse_tls_extension_extended_master_secret_content ext_len
+  | XC_record_size_limit -> parse_tls_extension_record_size_limit
+  | XC_session_ticket -> parse_tls_extension_session_ticket_content ext_len
+  | XC_key_share_old -> parse_tls_extension_key_share_old_content ext_len
+  | XC_pre_shared_key -> parse_tls_extension_pre_shared_key_content ext_len
+  | XC_early_data -> parse_tls_extension_early_data_content ext_len
+  | XC_supported_versions ->
+    parse_tls_extension_supported_versions_content ext_len
+  | XC_cookie -> parse_tls_extension_cookie_content ext_len
+  | XC_psk_key_exchange_modes ->
+    parse_tls_extension_psk_key_exchange_modes_content
+  | XC_oid_filters -> parse_tls_extension_oid_filters
+  | XC_post_handshake_auth ->
+    parse_tls_extension_post_handshake_auth_content ext_len
+  | XC_key_share -> parse_tls_extension_key_share_content ext_len
+  | XC_npn -> parse_tls_extension_npn_content ext_len
+  | XC_renegotiation_info -> parse_tls_extension_renegotiation_info_content
+  | XC_encrypted_server_name -> parse_tls_extension_encrypted_server_name
+
+(** val dispatch_ext : (n * ext_content_id) list -> tlsExtension p **)
+
+let dispatch_ext tbl =
+  Bind ((Obj.magic be_u16), (fun ext_type -> Bind
+    ((Obj.magic length_data be_u16), (fun ext_data ->
+    if N.eqb (N.coq_land (Obj.magic ext_type) grease_mask) grease_val
+    then Ret (EGrease ((Obj.magic ext_type), (Obj.magic ext_data)))
+    else let ext_len =
+           N.modulo (slen (Obj.magic ext_data)) (Npos (XO (XO (XO (XO (XO (XO
+             (XO (XO (XO (XO (XO (XO (XO (XO (XO (XO XH)))))))))))))))))
+         in
+         (match assoc_N (Obj.magic ext_type) tbl with
+          | Some c0 -> On ((Obj.magic ext_data), (ext_content c0 ext_len))
+          | None ->
+            Ret (EUnknown ((Obj.magic ext_type), (Obj.magic ext_data))))))))
+
+(** val parse_tls_extension : tlsExtension p **)
+
+let parse_tls_extension =
+  dispatch_ext generic_table
+
+(** val parse_tls_client_hello_extension : tlsExtension p **)
+
+let parse_tls_client_hello_extension =
+  dispatch_ext client_table
+
+(** val parse_tls_server_hello_extension : tlsExtension p **)
+
+let parse_tls_server_hello_extension =
+  dispatch_ext server_table
+
+(** val parse_tls_extensions : tlsExtension list p **)
+
+let parse_tls_extensions =
+  Many0 (Cmpl (Obj.magic parse_tls_extension))
+
+(** val parse_tls_client_hello_extensions : tlsExtension list p **)
+
+let parse_tls_client_hello_extensions =
+  Many0 (Cmpl (Obj.magic parse_tls_client_hello_extension))
+
+(** val parse_tls_server_hello_extensions : tlsExtension list p **)
+
+let parse_tls_server_hello_extensions =
+  Many0 (Cmpl (Obj.magic parse_tls_server_hello_extension))
+
+(** val tagged : n -> 'a1 p -> 'a1 p **)
+
+let tagged t p0 =
+  Bind ((TagB (u16 t)), (fun _ -> p0))
+
+(** val with_len : (n -> tlsExtension p) -> tlsExtension p **)
+
+let with_len f =
+  Bind ((Obj.magic be_u16), (fun ext_len ->
+    map_parser (Take (Obj.magic ext_len)) (Obj.magic f ext_len)))
+
+(** val parse_tls_extension_sni : tlsExtension p **)
+
+let parse_tls_extension_sni =
+  tagged tag_sni
+    (map_parser (length_data be_u16) parse_tls_extension_sni_content)
+
+(** val parse_tls_extension_max_fragment_length : tlsExtension p **)
+
+let parse_tls_extension_max_fragment_length =
+  tagged tag_max_fragment_length
+    (map_parser (length_data be_u16)
+      parse_tls_extension_max_fragment_length_content)
+
+(** val parse_tls_extension_status_request : tlsExtension p **)
+
+let parse_tls_extension_status_request =
+  tagged tag_status_request
+    (with_len parse_tls_extension_status_request_content)
+
+(** val parse_tls_extension_elliptic_curves : tlsExtension p **)
+
+let parse_tls_extension_elliptic_curves =
+  tagged tag_elliptic_curves
+    (map_parser (length_data be_u16)
+      parse_tls_extension_elliptic_curves_content)
+
+(** val parse_tls_extension_ec_point_formats : tlsExtension p **)
+
+let parse_tls_extension_ec_point_formats =
+  tagged tag_ec_point_formats
+    (map_parser (length_data be_u16)
+      parse_tls_extension_ec_point_formats_content)
+
+(** val parse_tls_extension_signature_algorithms : tlsExtension p **)
+
+let parse_tls_extension_signature_algorithms =
+  tagged tag_signature_algorithms
+    (map_parser (length_data be_u16)
+      parse_tls_extension_signature_algorithms_content)
+
+(** val parse_tls_extension_heartbeat : tlsExtension p **)
+
+let parse_tls_extension_heartbeat =
+  tagged tag_heartbeat (Bind ((Vrfy ((Obj.magic be_u16), (fun n0 ->
+    N.eqb (Obj.magic n0) (Npos XH)))), (fun ext_len ->
+    map_parser (Take (Obj.magic ext_len))
+      parse_tls_extension_heartbeat_content)))
+
+(** val parse_tls_extension_encrypt_then_mac : tlsExtension p **)
+
+let parse_tls_extension_encrypt_then_mac =
+  tagged tag_encrypt_then_mac
+    (with_len parse_tls_extension_encrypt_then_mac_content)
+
+(** val parse_tls_extension_extended_master_secret : tlsExtension p **)
+
+let parse_tls_extension_extended_master_secret =
+  tagged tag_extended_master_secret
+    (with_len parse_tls_extension_extended_master_secret_content)
+
+(** val parse_tls_extension_session_ticket : tlsExtension p **)
+
+let parse_tls_extension_session_ticket =
+  tagged tag_session_ticket
+    (with_len parse_tls_extension_session_ticket_content)
+
+(** val parse_tls_extension_key_share : tlsExtension p **)
+
+let parse_tls_extension_key_share =
+  tagged tag_key_share (with_len parse_tls_extension_key_share_content)
+
+(** val parse_tls_extension_pre_shared_key : tlsExtension p **)
+
+let parse_tls_extension_pre_shared_key =
+  tagged tag_pre_shared_key
+    (with_len parse_tls_extension_pre_shared_key_content)
+
+(** val parse_tls_extension_early_data : tlsExtension p **)
+
+let parse_tls_extension_early_data =
+  tagged tag_early_data (with_len parse_tls_extension_early_data_content)
+
+(** val parse_tls_extension_supported_versions : tlsExtension p **)
+
+let parse_tls_extension_supported_versions =
+  tagged tag_supported_versions
+    (with_len parse_tls_extension_supported_versions_content)
+
+(** val parse_tls_extension_cookie : tlsExtension p **)
+
+let parse_tls_extension_cookie =
+  tagged tag_cookie (with_len parse_tls_extension_cookie_content)
+
+(** val parse_tls_extension_psk_key_exchange_modes : tlsExtension p **)
+
+let parse_tls_extension_psk_key_exchange_modes =
+  tagged tag_psk_key_exchange_modes
+    (with_len (fun _ -> parse_tls_extension_psk_key_exchange_modes_content))
+
+(** val parse_dh_params : serverDHParams p **)
+
+let parse_dh_params =
+  Bind ((Obj.magic length_data be_u16), (fun p0 -> Bind
+    ((Obj.magic length_data be_u16), (fun g0 -> Bind
+    ((Obj.magic length_data be_u16), (fun ys -> Ret { dh_p = (Obj.magic p0);
+    dh_g = (Obj.magic g0); dh_ys = (Obj.magic ys) }))))))
+
+(** val parse_ec_point : slice p **)
+
+let parse_ec_point =
+  length_data be_u8
+
+(** val parse_ec_curve : (slice * slice) p **)
+
+let parse_ec_curve =
+  Bind ((Obj.magic length_data be_u8), (fun a -> Bind
+    ((Obj.magic length_data be_u8), (fun b -> Ret ((Obj.magic a),
+    (Obj.magic b))))))
+
+(** val parse_explicit_prime : explicitPrimeC p **)
+
+let parse_explicit_prime =
+  Bind ((Obj.magic length_data be_u8), (fun prime_p -> Bind
+    ((Obj.magic parse_ec_curve), (fun ab -> Bind ((Obj.magic parse_ec_point),
+    (fun base -> Bind ((Obj.magic length_data be_u8), (fun order -> Bind
+    ((Obj.magic length_data be_u8), (fun cofactor -> Ret { ep_prime_p =
+    (Obj.magic prime_p); ep_a = (fst (Obj.magic ab)); ep_b =
+    (snd (Obj.magic ab)); ep_base = (Obj.magic base); ep_order =
+    (Obj.magic order); ep_cofactor = (Obj.magic cofactor) }))))))))))
+
+(** val parse_ec_parameters_content : n -> eCParametersContent p **)
+
+let parse_ec_parameters_content curve_type =
+  if N.eqb curve_type (Npos XH)
+  then pmap parse_explicit_prime (fun x -> EcExplicitPrime x)
+  else if N.eqb curve_type (Npos (XI XH))
+       then pmap be_u16 (fun x -> EcNamedGroup x)
+       else ErrK KSwitch
+
+(** val parse_ec_parameters : eCParameters p **)
+
+let parse_ec_parameters =
+  Bind ((Obj.magic be_u8), (fun curve_type -> Bind
+    ((Obj.magic parse_ec_parameters_content curve_type), (fun content -> Ret
+    { ec_curve_type = (Obj.magic curve_type); ec_content =
+    (Obj.magic content) }))))
+
+(** val parse_ecdh_params : serverECDHParams p **)
+
+let parse_ecdh_params =
+  Bind ((Obj.magic parse_ec_parameters), (fun params -> Bind
+    ((Obj.magic parse_ec_point), (fun public -> Ret { ecdh_params =
+    (Obj.magic params); ecdh_public = (Obj.magic public) }))))
+
+(** val parse_digitally_signed_old : digitallySigned p **)
+
+let parse_digitally_signed_old =
+  pmap (length_data be_u16) (fun d -> { ds_alg = None; ds_data = d })
+
+(** val parse_digitally_signed : digitallySigned p **)
+
+let parse_digitally_signed =
+  Bind ((Obj.magic be_u8), (fun hash -> Bind ((Obj.magic be_u8), (fun sign ->
+    Bind ((Obj.magic length_data be_u16), (fun data -> Ret { ds_alg = (Some
+    ((Obj.magic hash), (Obj.magic sign))); ds_data = (Obj.magic data) }))))))
+
+(** val parse_content_and_signature :
+    'a1 p -> bool -> ('a1 * digitallySigned) p **)
+
+let parse_content_and_signature fun_ = function
+| true ->
+  Bind ((Obj.magic fun_), (fun c0 -> Bind
+    ((Obj.magic parse_digitally_signed), (fun s -> Ret ((Obj.magic c0),
+    (Obj.magic s))))))
+| false ->
+  Bind ((Obj.magic fun_), (fun c0 -> Bind
+    ((Obj.magic parse_digitally_signed_old), (fun s -> Ret ((Obj.magic c0),
+    (Obj.magic s))))))
+
+(** val parse_log_id : slice p **)
+
+let parse_log_id =
+  Bind ((Take (Npos (XO (XO (XO (XO (XO XH))))))), (fun key_id ->
+    if N.eqb (slen (Obj.magic key_id)) (Npos (XO (XO (XO (XO (XO XH))))))
+    then Ret (Obj.magic key_id)
+    else PanicP))
+
+(** val parse_ct_extensions : slice p **)
+
+let parse_ct_extensions =
+  Bind ((Obj.magic be_u16), (fun ext_len -> Take (Obj.magic ext_len)))
+
+(** val parse_ct_signed_certificate_timestamp_content : sCT p **)
+
+let parse_ct_signed_certificate_timestamp_content =
+  Bind ((Obj.magic be_u8), (fun version -> Bind ((Obj.magic parse_log_id),
+    (fun id -> Bind ((Obj.magic be_u64), (fun timestamp -> Bind
+    ((Obj.magic parse_ct_extensions), (fun extensions -> Bind
+    ((Obj.magic parse_digitally_signed), (fun signature -> Ret
+    { sct_version = (Obj.magic version); sct_id = (Obj.magic id);
+    sct_timestamp = (Obj.magic timestamp); sct_ext = (Obj.magic extensions);
+    sct_sig = (Obj.magic signature) }))))))))))
+
+(** val parse_ct_signed_certificate_timestamp : sCT p **)
+
+let parse_ct_signed_certificate_timestamp =
+  map_parser (length_data be_u16)
+    parse_ct_signed_certificate_timestamp_content
+
+(** val parse_ct_signed_certificate_timestamp_list : sCT list p **)
+
+let parse_ct_signed_certificate_timestamp_list =
+  Bind ((Obj.magic be_u16), (fun sct_len ->
+    map_parser (Take (Obj.magic sct_len)) (Many0 (Cmpl
+      (Obj.magic parse_ct_signed_certificate_timestamp)))))
+
+(** val parse_dtls_record_header : dTLSRecordHeader p **)
+
+let parse_dtls_record_header =
+  Bind ((Obj.magic be_u8), (fun content_type -> Bind ((Obj.magic be_u16),
+    (fun version -> Bind ((Obj.magic be_u64), (fun int0 ->
+    let epoch =
+      N.modulo (N.shiftr (Obj.magic int0) (Npos (XO (XO (XO (XO (XI XH)))))))
+        (Npos (XO (XO (XO (XO (XO (XO (XO (XO (XO (XO (XO (XO (XO (XO (XO (XO
+        XH)))))))))))))))))
+    in
+    let sequence_number =
+      N.coq_land (Obj.magic int0) (Npos (XI (XI (XI (XI (XI (XI (XI (XI (XI
+        (XI (XI (XI (XI (XI (XI (XI (XI (XI (XI (XI (XI (XI (XI (XI (XI (XI
+        (XI (XI (XI (XI (XI (XI (XI (XI (XI (XI (XI (XI (XI (XI (XI (XI (XI
+        (XI (XI (XI (XI XH))))))))))))))))))))))))))))))))))))))))))))))))
+    in
+    Bind ((Obj.magic be_u16), (fun length -> Ret { d_type =
+    (Obj.magic content_type); d_version = (Obj.magic version); d_epoch =
+    epoch; d_seq = sequence_number; d_len = (Obj.magic length) }))))))))
+
+(** val parse_dtls_fragment : dTLSBody p **)
+
+let parse_dtls_fragment =
+  Bind (GetI, (fun i -> Bind ((Take (slen (Obj.magic i))), (fun s -> Ret
+    (DFragment (Obj.magic s))))))
+
+(** val parse_dtls_client_hello : dTLSBody p **)
+
+let parse_dtls_client_hello =
+  Bind ((Obj.magic be_u16), (fun version -> Bind ((Take (Npos (XO (XO (XO (XO
+    (XO XH))))))), (fun random -> Bind ((Vrfy ((Obj.magic be_u8), (fun n0 ->
+    N.leb (Obj.magic n0) (Npos (XO (XO (XO (XO (XO XH))))))))),
+    (fun sidlen -> Bind
+    ((Obj.magic cond (N.ltb N0 (Obj.magic sidlen)) (Take (Obj.magic sidlen))),
+    (fun sid -> Bind ((Obj.magic length_data be_u8), (fun cookie -> Bind
+    ((Obj.magic be_u16), (fun ciphers_len -> Bind
+    ((Obj.magic parse_cipher_suites ciphers_len), (fun ciphers -> Bind
+    ((Obj.magic be_u8), (fun comp_len -> Bind
+    ((Obj.magic parse_compressions_algs comp_len), (fun comp -> Bind
+    ((Obj.magic opt_ext), (fun ext -> Ret (DClientHello { dch_version =
+    (Obj.magic version); dch_random = (Obj.magic random); dch_sid =
+    (Obj.magic sid); dch_cookie = (Obj.magic cookie); dch_ciphers =
+    (Obj.magic ciphers); dch_comp = (Obj.magic comp); dch_ext =
+    (Obj.magic ext) })))))))))))))))))))))
+
+(** val parse_dtls_hello_verify_request : dTLSBody p **)
+
+let parse_dtls_hello_verify_request =
+  Bind ((Obj.magic be_u16), (fun server_version -> Bind
+    ((Obj.magic length_data be_u8), (fun cookie -> Ret (DHelloVerifyRequest
+    ((Obj.magic server_version), (Obj.magic cookie)))))))
+
+(** val dtls_hs_body : dtls_hs_body_id -> n -> dTLSBody p **)
+
+let dtls_hs_body b length =
+  match b with
+  | DHB_client_hello -> parse_dtls_client_hello
+  | DHB_hello_verify_request -> parse_dtls_hello_verify_request
+  | DHB_server_hello ->
+    pmap (parse_tls_server_hello_tlsv12 true) (fun x -> DServerHello x)
+  | DHB_serverdone -> pmap (Take length) (fun x -> DServerDone x)
+  | DHB_clientkeyexchange ->
+    pmap (parse_tls_clientkeyexchange length) (fun x -> DClientKeyExchange x)
+  | DHB_certificate -> pmap parse_tls_certificate (fun x -> DCertificate x)
+
+(** val parse_dtls_message_handshake : dTLSMessage p **)
+
+let parse_dtls_message_handshake =
+  Bind ((Obj.magic be_u8), (fun msg_type -> Bind ((Obj.magic be_u24),
+    (fun length -> Bind ((Obj.magic be_u16), (fun message_seq -> Bind
+    ((Obj.magic be_u24), (fun fragment_offset -> Bind ((Obj.magic be_u24),
+    (fun fragment_length -> Bind ((Take (Obj.magic fragment_length)),
+    (fun raw_msg ->
+    let is_fragment =
+      (||) (N.ltb N0 (Obj.magic fragment_offset))
+        (N.ltb (Obj.magic fragment_length) (Obj.magic length))
+    in
+    Bind
+    ((if is_fragment
+      then On ((Obj.magic raw_msg), (Obj.magic parse_dtls_fragment))
+      else (match assoc_N (Obj.magic msg_type) dtls_hs_table with
+            | Some b ->
+              On ((Obj.magic raw_msg), (Obj.magic dtls_hs_body b length))
+            | None -> ErrK KSwitch)), (fun body -> Ret (DMHandshake
+    { dhs_type = (Obj.magic msg_type); dhs_length = (Obj.magic length);
+    dhs_seq = (Obj.magic message_seq); dhs_frag_off =
+    (Obj.magic fragment_offset); dhs_frag_len = (Obj.magic fragment_length);
+    dhs_body = (Obj.magic body) })))))))))))))))
+
+(** val parse_dtls_message_changecipherspec : dTLSMessage p **)
+
+let parse_dtls_message_changecipherspec =
+  Bind ((Vrfy ((Obj.magic be_u8), (fun t -> N.eqb (Obj.magic t) (Npos XH)))),
+    (fun _ -> Ret DMChangeCipherSpec))
+
+(** val parse_dtls_message_alert : dTLSMessage p **)
+
+let parse_dtls_message_alert =
+  Bind ((Obj.magic be_u8), (fun severity -> Bind ((Obj.magic be_u8),
+    (fun code -> Ret (DMAlert ((Obj.magic severity), (Obj.magic code)))))))
+
+(** val dtls_rec_body : dtls_rec_body_id -> dTLSMessage list p **)
+
+let dtls_rec_body = function
+| DRB_many1_ccs ->
+  Many1 (Cmpl (Obj.magic parse_dtls_message_changecipherspec))
+| DRB_many1_alert -> Many1 (Cmpl (Obj.magic parse_dtls_message_alert))
+| DRB_many1_handshake -> Many1 (Cmpl (Obj.magic parse_dtls_message_handshake))
+
+(** val parse_dtls_record_with_header :
+    dTLSRecordHeader -> dTLSMessage list p **)
+
+let parse_dtls_record_with_header hdr =
+  match assoc_N hdr.d_type dtls_rec_table with
+  | Some b -> dtls_rec_body b
+  | None -> ErrK KSwitch
+
+(** val parse_dtls_plaintext_record : dTLSPlaintext p **)
+
+let parse_dtls_plaintext_record =
+  Bind ((Obj.magic parse_dtls_record_header), (fun header ->
+    if N.ltb mAX_RECORD_LEN (Obj.magic header).d_len
+    then ErrK KTooLarge
+    else Bind
+           ((map_parser (Take (Obj.magic header).d_len)
+              (Obj.magic parse_dtls_record_with_header header)),
+           (fun messages -> Ret { dp_hdr = (Obj.magic header); dp_msgs =
+           (Obj.magic messages) }))))
+
+(** val parse_dtls_plaintext_records : dTLSPlaintext list p **)
+
+let parse_dtls_plaintext_records =
+  Many1 (Cmpl (Obj.magic parse_dtls_plaintext_record))
+
 (** val beq_bytes : byte list -> byte list -> bool **)
 
 let rec beq_bytes a b =
@@ -4228,6 +6109,16 @@ let e p0 f _ b =
 
 let e1 p0 f a b =
   show_res f (run (p0 (arg a O)) { off = N0; bytes = b })
+
+(** val sx_pair_ns : (n * slice) -> sx **)
+
+let sx_pair_ns p0 =
+  c EmptyString ((SN (fst p0)) :: ((SS (snd p0)) :: []))
+
+(** val sx_pair_ss : (slice * slice) -> sx **)
+
+let sx_pair_ss p0 =
+  c EmptyString ((SS (fst p0)) :: ((SS (snd p0)) :: []))
 
 (** val entries_tls : (string * entry_fn) list **)
 
@@ -5355,6 +7246,1930 @@ let entries_tls =
     EmptyString)))))))))))))))))))))))))))))))))))))))))))))))))))))))))))))))))))),
     (e parse_tls_handshake_msg_key_update sx_hs)) :: [])))))))))))))))))))))))))))))))
 
+(** val e3d : (dTLSRecordHeader -> 'a1 p) -> ('a1 -> sx) -> entry_fn **)
+
+let e3d p0 f a b =
+  show_res f
+    (run
+      (p0 { d_type = (arg a O); d_version = (arg a (S O)); d_epoch =
+        (arg a (S (S O))); d_seq = (arg a (S (S (S O)))); d_len =
+        (arg a (S (S (S (S O))))) }) { off = N0; bytes = b })
+
+(** val eb : (bool -> 'a1 p) -> ('a1 -> sx) -> entry_fn **)
+
+let eb p0 f a b =
+  show_res f (run (p0 (negb (N.eqb (arg a O) N0))) { off = N0; bytes = b })
+
+(** val entries_ext : (string * entry_fn) list **)
+
+let entries_ext =
+  ((String ((Ascii (false, false, false, false, true, true, true, false)),
+    (String ((Ascii (true, false, false, false, false, true, true, false)),
+    (String ((Ascii (false, true, false, false, true, true, true, false)),
+    (String ((Ascii (true, true, false, false, true, true, true, false)),
+    (String ((Ascii (true, false, true, false, false, true, true, false)),
+    (String ((Ascii (true, true, true, true, true, false, true, false)),
+    (String ((Ascii (false, false, true, false, true, true, true, false)),
+    (String ((Ascii (false, false, true, true, false, true, true, false)),
+    (String ((Ascii (true, true, false, false, true, true, true, false)),
+    (String ((Ascii (true, true, true, true, true, false, true, false)),
+    (String ((Ascii (true, false, true, false, false, true, true, false)),
+    (String ((Ascii (false, false, false, true, true, true, true, false)),
+    (String ((Ascii (false, false, true, false, true, true, true, false)),
+    (String ((Ascii (true, false, true, false, false, true, true, false)),
+    (String ((Ascii (false, true, true, true, false, true, true, false)),
+    (String ((Ascii (true, true, false, false, true, true, true, false)),
+    (String ((Ascii (true, false, false, true, false, true, true, false)),
+    (String ((Ascii (true, true, true, true, false, true, true, false)),
+    (String ((Ascii (false, true, true, true, false, true, true, false)),
+    EmptyString)))))))))))))))))))))))))))))))))))))),
+    (e parse_tls_extension sx_ext)) :: (((String ((Ascii (false, false,
+    false, false, true, true, true, false)), (String ((Ascii (true, false,
+    false, false, false, true, true, false)), (String ((Ascii (false, true,
+    false, false, true, true, true, false)), (String ((Ascii (true, true,
+    false, false, true, true, true, false)), (String ((Ascii (true, false,
+    true, false, false, true, true, false)), (String ((Ascii (true, true,
+    true, true, true, false, true, false)), (String ((Ascii (false, false,
+    true, false, true, true, true, false)), (String ((Ascii (false, false,
+    true, true, false, true, true, false)), (String ((Ascii (true, true,
+    false, false, true, true, true, false)), (String ((Ascii (true, true,
+    true, true, true, false, true, false)), (String ((Ascii (true, true,
+    false, false, false, true, true, false)), (String ((Ascii (false, false,
+    true, true, false, true, true, false)), (String ((Ascii (true, false,
+    false, true, false, true, true, false)), (String ((Ascii (true, false,
+    true, false, false, true, true, false)), (String ((Ascii (false, true,
+    true, true, false, true, true, false)), (String ((Ascii (false, false,
+    true, false, true, true, true, false)), (String ((Ascii (true, true,
+    true, true, true, false, true, false)), (String ((Ascii (false, false,
+    false, true, false, true, true, false)), (String ((Ascii (true, false,
+    true, false, false, true, true, false)), (String ((Ascii (false, false,
+    true, true, false, true, true, false)), (String ((Ascii (false, false,
+    true, true, false, true, true, false)), (String ((Ascii (true, true,
+    true, true, false, true, true, false)), (String ((Ascii (true, true,
+    true, true, true, false, true, false)), (String ((Ascii (true, false,
+    true, false, false, true, true, false)), (String ((Ascii (false, false,
+    false, true, true, true, true, false)), (String ((Ascii (false, false,
+    true, false, true, true, true, false)), (String ((Ascii (true, false,
+    true, false, false, true, true, false)), (String ((Ascii (false, true,
+    true, true, false, true, true, false)), (String ((Ascii (true, true,
+    false, false, true, true, true, false)), (String ((Ascii (true, false,
+    false, true, false, true, true, false)), (String ((Ascii (true, true,
+    true, true, false, true, true, false)), (String ((Ascii (false, true,
+    true, true, false, true, true, false)),
+    EmptyString)))))))))))))))))))))))))))))))))))))))))))))))))))))))))))))))),
+    (e parse_tls_client_hello_extension sx_ext)) :: (((String ((Ascii (false,
+    false, false, false, true, true, true, false)), (String ((Ascii (true,
+    false, false, false, false, true, true, false)), (String ((Ascii (false,
+    true, false, false, true, true, true, false)), (String ((Ascii (true,
+    true, false, false, true, true, true, false)), (String ((Ascii (true,
+    false, true, false, false, true, true, false)), (String ((Ascii (true,
+    true, true, true, true, false, true, false)), (String ((Ascii (false,
+    false, true, false, true, true, true, false)), (String ((Ascii (false,
+    false, true, true, false, true, true, false)), (String ((Ascii (true,
+    true, false, false, true, true, true, false)), (String ((Ascii (true,
+    true, true, true, true, false, true, false)), (String ((Ascii (true,
+    true, false, false, true, true, true, false)), (String ((Ascii (true,
+    false, true, false, false, true, true, false)), (String ((Ascii (false,
+    true, false, false, true, true, true, false)), (String ((Ascii (false,
+    true, true, false, true, true, true, false)), (String ((Ascii (true,
+    false, true, false, false, true, true, false)), (String ((Ascii (false,
+    true, false, false, true, true, true, false)), (String ((Ascii (true,
+    true, true, true, true, false, true, false)), (String ((Ascii (false,
+    false, false, true, false, true, true, false)), (String ((Ascii (true,
+    false, true, false, false, true, true, false)), (String ((Ascii (false,
+    false, true, true, false, true, true, false)), (String ((Ascii (false,
+    false, true, true, false, true, true, false)), (String ((Ascii (true,
+    true, true, true, false, true, true, false)), (String ((Ascii (true,
+    true, true, true, true, false, true, false)), (String ((Ascii (true,
+    false, true, false, false, true, true, false)), (String ((Ascii (false,
+    false, false, true, true, true, true, false)), (String ((Ascii (false,
+    false, true, false, true, true, true, false)), (String ((Ascii (true,
+    false, true, false, false, true, true, false)), (String ((Ascii (false,
+    true, true, true, false, true, true, false)), (String ((Ascii (true,
+    true, false, false, true, true, true, false)), (String ((Ascii (true,
+    false, false, true, false, true, true, false)), (String ((Ascii (true,
+    true, true, true, false, true, true, false)), (String ((Ascii (false,
+    true, true, true, false, true, true, false)),
+    EmptyString)))))))))))))))))))))))))))))))))))))))))))))))))))))))))))))))),
+    (e parse_tls_server_hello_extension sx_ext)) :: (((String ((Ascii (false,
+    false, false, false, true, true, true, false)), (String ((Ascii (true,
+    false, false, false, false, true, true, false)), (String ((Ascii (false,
+    true, false, false, true, true, true, false)), (String ((Ascii (true,
+    true, false, false, true, true, true, false)), (String ((Ascii (true,
+    false, true, false, false, true, true, false)), (String ((Ascii (true,
+    true, true, true, true, false, true, false)), (String ((Ascii (false,
+    false, true, false, true, true, true, false)), (String ((Ascii (false,
+    false, true, true, false, true, true, false)), (String ((Ascii (true,
+    true, false, false, true, true, true, false)), (String ((Ascii (true,
+    true, true, true, true, false, true, false)), (String ((Ascii (true,
+    false, true, false, false, true, true, false)), (String ((Ascii (false,
+    false, false, true, true, true, true, false)), (String ((Ascii (false,
+    false, true, false, true, true, true, false)), (String ((Ascii (true,
+    false, true, false, false, true, true, false)), (String ((Ascii (false,
+    true, true, true, false, true, true, false)), (String ((Ascii (true,
+    true, false, false, true, true, true, false)), (String ((Ascii (true,
+    false, false, true, false, true, true, false)), (String ((Ascii (true,
+    true, true, true, false, true, true, false)), (String ((Ascii (false,
+    true, true, true, false, true, true, false)), (String ((Ascii (true,
+    true, false, false, true, true, true, false)),
+    EmptyString)))))))))))))))))))))))))))))))))))))))),
+    (e parse_tls_extensions (slist sx_ext))) :: (((String ((Ascii (false,
+    false, false, false, true, true, true, false)), (String ((Ascii (true,
+    false, false, false, false, true, true, false)), (String ((Ascii (false,
+    true, false, false, true, true, true, false)), (String ((Ascii (true,
+    true, false, false, true, true, true, false)), (String ((Ascii (true,
+    false, true, false, false, true, true, false)), (String ((Ascii (true,
+    true, true, true, true, false, true, false)), (String ((Ascii (false,
+    false, true, false, true, true, true, false)), (String ((Ascii (false,
+    false, true, true, false, true, true, false)), (String ((Ascii (true,
+    true, false, false, true, true, true, false)), (String ((Ascii (true,
+    true, true, true, true, false, true, false)), (String ((Ascii (true,
+    true, false, false, false, true, true, false)), (String ((Ascii (false,
+    false, true, true, false, true, true, false)), (String ((Ascii (true,
+    false, false, true, false, true, true, false)), (String ((Ascii (true,
+    false, true, false, false, true, true, false)), (String ((Ascii (false,
+    true, true, true, false, true, true, false)), (String ((Ascii (false,
+    false, true, false, true, true, true, false)), (String ((Ascii (true,
+    true, true, true, true, false, true, false)), (String ((Ascii (false,
+    false, false, true, false, true, true, false)), (String ((Ascii (true,
+    false, true, false, false, true, true, false)), (String ((Ascii (false,
+    false, true, true, false, true, true, false)), (String ((Ascii (false,
+    false, true, true, false, true, true, false)), (String ((Ascii (true,
+    true, true, true, false, true, true, false)), (String ((Ascii (true,
+    true, true, true, true, false, true, false)), (String ((Ascii (true,
+    false, true, false, false, true, true, false)), (String ((Ascii (false,
+    false, false, true, true, true, true, false)), (String ((Ascii (false,
+    false, true, false, true, true, true, false)), (String ((Ascii (true,
+    false, true, false, false, true, true, false)), (String ((Ascii (false,
+    true, true, true, false, true, true, false)), (String ((Ascii (true,
+    true, false, false, true, true, true, false)), (String ((Ascii (true,
+    false, false, true, false, true, true, false)), (String ((Ascii (true,
+    true, true, true, false, true, true, false)), (String ((Ascii (false,
+    true, true, true, false, true, true, false)), (String ((Ascii (true,
+    true, false, false, true, true, true, false)),
+    EmptyString)))))))))))))))))))))))))))))))))))))))))))))))))))))))))))))))))),
+    (e parse_tls_client_hello_extensions (slist sx_ext))) :: (((String
+    ((Ascii (false, false, false, false, true, true, true, false)), (String
+    ((Ascii (true, false, false, false, false, true, true, false)), (String
+    ((Ascii (false, true, false, false, true, true, true, false)), (String
+    ((Ascii (true, true, false, false, true, true, true, false)), (String
+    ((Ascii (true, false, true, false, false, true, true, false)), (String
+    ((Ascii (true, true, true, true, true, false, true, false)), (String
+    ((Ascii (false, false, true, false, true, true, true, false)), (String
+    ((Ascii (false, false, true, true, false, true, true, false)), (String
+    ((Ascii (true, true, false, false, true, true, true, false)), (String
+    ((Ascii (true, true, true, true, true, false, true, false)), (String
+    ((Ascii (true, true, false, false, true, true, true, false)), (String
+    ((Ascii (true, false, true, false, false, true, true, false)), (String
+    ((Ascii (false, true, false, false, true, true, true, false)), (String
+    ((Ascii (false, true, true, false, true, true, true, false)), (String
+    ((Ascii (true, false, true, false, false, true, true, false)), (String
+    ((Ascii (false, true, false, false, true, true, true, false)), (String
+    ((Ascii (true, true, true, true, true, false, true, false)), (String
+    ((Ascii (false, false, false, true, false, true, true, false)), (String
+    ((Ascii (true, false, true, false, false, true, true, false)), (String
+    ((Ascii (false, false, true, true, false, true, true, false)), (String
+    ((Ascii (false, false, true, true, false, true, true, false)), (String
+    ((Ascii (true, true, true, true, false, true, true, false)), (String
+    ((Ascii (true, true, true, true, true, false, true, false)), (String
+    ((Ascii (true, false, true, false, false, true, true, false)), (String
+    ((Ascii (false, false, false, true, true, true, true, false)), (String
+    ((Ascii (false, false, true, false, true, true, true, false)), (String
+    ((Ascii (true, false, true, false, false, true, true, false)), (String
+    ((Ascii (false, true, true, true, false, true, true, false)), (String
+    ((Ascii (true, true, false, false, true, true, true, false)), (String
+    ((Ascii (true, false, false, true, false, true, true, false)), (String
+    ((Ascii (true, true, true, true, false, true, true, false)), (String
+    ((Ascii (false, true, true, true, false, true, true, false)), (String
+    ((Ascii (true, true, false, false, true, true, true, false)),
+    EmptyString)))))))))))))))))))))))))))))))))))))))))))))))))))))))))))))))))),
+    (e parse_tls_server_hello_extensions (slist sx_ext))) :: (((String
+    ((Ascii (false, false, false, false, true, true, true, false)), (String
+    ((Ascii (true, false, false, false, false, true, true, false)), (String
+    ((Ascii (false, true, false, false, true, true, true, false)), (String
+    ((Ascii (true, true, false, false, true, true, true, false)), (String
+    ((Ascii (true, false, true, false, false, true, true, false)), (String
+    ((Ascii (true, true, true, true, true, false, true, false)), (String
+    ((Ascii (false, false, true, false, true, true, true, false)), (String
+    ((Ascii (false, false, true, true, false, true, true, false)), (String
+    ((Ascii (true, true, false, false, true, true, true, false)), (String
+    ((Ascii (true, true, true, true, true, false, true, false)), (String
+    ((Ascii (true, false, true, false, false, true, true, false)), (String
+    ((Ascii (false, false, false, true, true, true, true, false)), (String
+    ((Ascii (false, false, true, false, true, true, true, false)), (String
+    ((Ascii (true, false, true, false, false, true, true, false)), (String
+    ((Ascii (false, true, true, true, false, true, true, false)), (String
+    ((Ascii (true, true, false, false, true, true, true, false)), (String
+    ((Ascii (true, false, false, true, false, true, true, false)), (String
+    ((Ascii (true, true, true, true, false, true, true, false)), (String
+    ((Ascii (false, true, true, true, false, true, true, false)), (String
+    ((Ascii (true, true, true, true, true, false, true, false)), (String
+    ((Ascii (true, false, true, false, true, true, true, false)), (String
+    ((Ascii (false, true, true, true, false, true, true, false)), (String
+    ((Ascii (true, true, false, true, false, true, true, false)), (String
+    ((Ascii (false, true, true, true, false, true, true, false)), (String
+    ((Ascii (true, true, true, true, false, true, true, false)), (String
+    ((Ascii (true, true, true, false, true, true, true, false)), (String
+    ((Ascii (false, true, true, true, false, true, true, false)),
+    EmptyString)))))))))))))))))))))))))))))))))))))))))))))))))))))),
+    (e parse_tls_extension_unknown sx_ext)) :: (((String ((Ascii (false,
+    false, false, false, true, true, true, false)), (String ((Ascii (true,
+    false, false, false, false, true, true, false)), (String ((Ascii (false,
+    true, false, false, true, true, true, false)), (String ((Ascii (true,
+    true, false, false, true, true, true, false)), (String ((Ascii (true,
+    false, true, false, false, true, true, false)), (String ((Ascii (true,
+    true, true, true, true, false, true, false)), (String ((Ascii (false,
+    false, true, false, true, true, true, false)), (String ((Ascii (false,
+    false, true, true, false, true, true, false)), (String ((Ascii (true,
+    true, false, false, true, true, true, false)), (String ((Ascii (true,
+    true, true, true, true, false, true, false)), (String ((Ascii (true,
+    false, true, false, false, true, true, false)), (String ((Ascii (false,
+    false, false, true, true, true, true, false)), (String ((Ascii (false,
+    false, true, false, true, true, true, false)), (String ((Ascii (true,
+    false, true, false, false, true, true, false)), (String ((Ascii (false,
+    true, true, true, false, true, true, false)), (String ((Ascii (true,
+    true, false, false, true, true, true, false)), (String ((Ascii (true,
+    false, false, true, false, true, true, false)), (String ((Ascii (true,
+    true, true, true, false, true, true, false)), (String ((Ascii (false,
+    true, true, true, false, true, true, false)), (String ((Ascii (true,
+    true, true, true, true, false, true, false)), (String ((Ascii (true,
+    true, false, false, true, true, true, false)), (String ((Ascii (false,
+    true, true, true, false, true, true, false)), (String ((Ascii (true,
+    false, false, true, false, true, true, false)), (String ((Ascii (true,
+    true, true, true, true, false, true, false)), (String ((Ascii (false,
+    false, false, true, false, true, true, false)), (String ((Ascii (true,
+    true, true, true, false, true, true, false)), (String ((Ascii (true,
+    true, false, false, true, true, true, false)), (String ((Ascii (false,
+    false, true, false, true, true, true, false)), (String ((Ascii (false,
+    true, true, true, false, true, true, false)), (String ((Ascii (true,
+    false, false, false, false, true, true, false)), (String ((Ascii (true,
+    false, true, true, false, true, true, false)), (String ((Ascii (true,
+    false, true, false, false, true, true, false)),
+    EmptyString)))))))))))))))))))))))))))))))))))))))))))))))))))))))))))))))),
+    (e parse_tls_extension_sni_hostname sx_pair_ns)) :: (((String ((Ascii
+    (false, false, false, false, true, true, true, false)), (String ((Ascii
+    (true, false, false, false, false, true, true, false)), (String ((Ascii
+    (false, true, false, false, true, true, true, false)), (String ((Ascii
+    (true, true, false, false, true, true, true, false)), (String ((Ascii
+    (true, false, true, false, false, true, true, false)), (String ((Ascii
+    (true, true, true, true, true, false, true, false)), (String ((Ascii
+    (false, false, true, false, true, true, true, false)), (String ((Ascii
+    (false, false, true, true, false, true, true, false)), (String ((Ascii
+    (true, true, false, false, true, true, true, false)), (String ((Ascii
+    (true, true, true, true, true, false, true, false)), (String ((Ascii
+    (true, false, true, false, false, true, true, false)), (String ((Ascii
+    (false, false, false, true, true, true, true, false)), (String ((Ascii
+    (false, false, true, false, true, true, true, false)), (String ((Ascii
+    (true, false, true, false, false, true, true, false)), (String ((Ascii
+    (false, true, true, true, false, true, true, false)), (String ((Ascii
+    (true, true, false, false, true, true, true, false)), (String ((Ascii
+    (true, false, false, true, false, true, true, false)), (String ((Ascii
+    (true, true, true, true, false, true, true, false)), (String ((Ascii
+    (false, true, true, true, false, true, true, false)), (String ((Ascii
+    (true, true, true, true, true, false, true, false)), (String ((Ascii
+    (true, true, false, false, true, true, true, false)), (String ((Ascii
+    (false, true, true, true, false, true, true, false)), (String ((Ascii
+    (true, false, false, true, false, true, true, false)), (String ((Ascii
+    (true, true, true, true, true, false, true, false)), (String ((Ascii
+    (true, true, false, false, false, true, true, false)), (String ((Ascii
+    (true, true, true, true, false, true, true, false)), (String ((Ascii
+    (false, true, true, true, false, true, true, false)), (String ((Ascii
+    (false, false, true, false, true, true, true, false)), (String ((Ascii
+    (true, false, true, false, false, true, true, false)), (String ((Ascii
+    (false, true, true, true, false, true, true, false)), (String ((Ascii
+    (false, false, true, false, true, true, true, false)),
+    EmptyString)))))))))))))))))))))))))))))))))))))))))))))))))))))))))))))),
+    (e parse_tls_extension_sni_content sx_ext)) :: (((String ((Ascii (false,
+    false, false, false, true, true, true, false)), (String ((Ascii (true,
+    false, false, false, false, true, true, false)), (String ((Ascii (false,
+    true, false, false, true, true, true, false)), (String ((Ascii (true,
+    true, false, false, true, true, true, false)), (String ((Ascii (true,
+    false, true, false, false, true, true, false)), (String ((Ascii (true,
+    true, true, true, true, false, true, false)), (String ((Ascii (false,
+    false, true, false, true, true, true, false)), (String ((Ascii (false,
+    false, true, true, false, true, true, false)), (String ((Ascii (true,
+    true, false, false, true, true, true, false)), (String ((Ascii (true,
+    true, true, true, true, false, true, false)), (String ((Ascii (true,
+    false, true, false, false, true, true, false)), (String ((Ascii (false,
+    false, false, true, true, true, true, false)), (String ((Ascii (false,
+    false, true, false, true, true, true, false)), (String ((Ascii (true,
+    false, true, false, false, true, true, false)), (String ((Ascii (false,
+    true, true, true, false, true, true, false)), (String ((Ascii (true,
+    true, false, false, true, true, true, false)), (String ((Ascii (true,
+    false, false, true, false, true, true, false)), (String ((Ascii (true,
+    true, true, true, false, true, true, false)), (String ((Ascii (false,
+    true, true, true, false, true, true, false)), (String ((Ascii (true,
+    true, true, true, true, false, true, false)), (String ((Ascii (true,
+    false, true, true, false, true, true, false)), (String ((Ascii (true,
+    false, false, false, false, true, true, false)), (String ((Ascii (false,
+    false, false, true, true, true, true, false)), (String ((Ascii (true,
+    true, true, true, true, false, true, false)), (String ((Ascii (false,
+    true, true, false, false, true, true, false)), (String ((Ascii (false,
+    true, false, false, true, true, true, false)), (String ((Ascii (true,
+    false, false, false, false, true, true, false)), (String ((Ascii (true,
+    true, true, false, false, true, true, false)), (String ((Ascii (true,
+    false, true, true, false, true, true, false)), (String ((Ascii (true,
+    false, true, false, false, true, true, false)), (String ((Ascii (false,
+    true, true, true, false, true, true, false)), (String ((Ascii (false,
+    false, true, false, true, true, true, false)), (String ((Ascii (true,
+    true, true, true, true, false, true, false)), (String ((Ascii (false,
+    false, true, true, false, true, true, false)), (String ((Ascii (true,
+    false, true, false, false, true, true, false)), (String ((Ascii (false,
+    true, true, true, false, true, true, false)), (String ((Ascii (true,
+    true, true, false, false, true, true, false)), (String ((Ascii (false,
+    false, true, false, true, true, true, false)), (String ((Ascii (false,
+    false, false, true, false, true, true, false)), (String ((Ascii (true,
+    true, true, true, true, false, true, false)), (String ((Ascii (true,
+    true, false, false, false, true, true, false)), (String ((Ascii (true,
+    true, true, true, false, true, true, false)), (String ((Ascii (false,
+    true, true, true, false, true, true, false)), (String ((Ascii (false,
+    false, true, false, true, true, true, false)), (String ((Ascii (true,
+    false, true, false, false, true, true, false)), (String ((Ascii (false,
+    true, true, true, false, true, true, false)), (String ((Ascii (false,
+    false, true, false, true, true, true, false)),
+    EmptyString)))))))))))))))))))))))))))))))))))))))))))))))))))))))))))))))))))))))))))))))))))))))))))))),
+    (e parse_tls_extension_max_fragment_length_content sx_ext)) :: (((String
+    ((Ascii (false, false, false, false, true, true, true, false)), (String
+    ((Ascii (true, false, false, false, false, true, true, false)), (String
+    ((Ascii (false, true, false, false, true, true, true, false)), (String
+    ((Ascii (true, true, false, false, true, true, true, false)), (String
+    ((Ascii (true, false, true, false, false, true, true, false)), (String
+    ((Ascii (true, true, true, true, true, false, true, false)), (String
+    ((Ascii (false, false, true, false, true, true, true, false)), (String
+    ((Ascii (false, false, true, true, false, true, true, false)), (String
+    ((Ascii (true, true, false, false, true, true, true, false)), (String
+    ((Ascii (true, true, true, true, true, false, true, false)), (String
+    ((Ascii (true, false, true, false, false, true, true, false)), (String
+    ((Ascii (false, false, false, true, true, true, true, false)), (String
+    ((Ascii (false, false, true, false, true, true, true, false)), (String
+    ((Ascii (true, false, true, false, false, true, true, false)), (String
+    ((Ascii (false, true, true, true, false, true, true, false)), (String
+    ((Ascii (true, true, false, false, true, true, true, false)), (String
+    ((Ascii (true, false, false, true, false, true, true, false)), (String
+    ((Ascii (true, true, true, true, false, true, true, false)), (String
+    ((Ascii (false, true, true, true, false, true, true, false)), (String
+    ((Ascii (true, true, true, true, true, false, true, false)), (String
+    ((Ascii (true, false, true, false, false, true, true, false)), (String
+    ((Ascii (false, false, true, true, false, true, true, false)), (String
+    ((Ascii (false, false, true, true, false, true, true, false)), (String
+    ((Ascii (true, false, false, true, false, true, true, false)), (String
+    ((Ascii (false, false, false, false, true, true, true, false)), (String
+    ((Ascii (false, false, true, false, true, true, true, false)), (String
+    ((Ascii (true, false, false, true, false, true, true, false)), (String
+    ((Ascii (true, true, false, false, false, true, true, false)), (String
+    ((Ascii (true, true, true, true, true, false, true, false)), (String
+    ((Ascii (true, true, false, false, false, true, true, false)), (String
+    ((Ascii (true, false, true, false, true, true, true, false)), (String
+    ((Ascii (false, true, false, false, true, true, true, false)), (String
+    ((Ascii (false, true, true, false, true, true, true, false)), (String
+    ((Ascii (true, false, true, false, false, true, true, false)), (String
+    ((Ascii (true, true, false, false, true, true, true, false)), (String
+    ((Ascii (true, true, true, true, true, false, true, false)), (String
+    ((Ascii (true, true, false, false, false, true, true, false)), (String
+    ((Ascii (true, true, true, true, false, true, true, false)), (String
+    ((Ascii (false, true, true, true, false, true, true, false)), (String
+    ((Ascii (false, false, true, false, true, true, true, false)), (String
+    ((Ascii (true, false, true, false, false, true, true, false)), (String
+    ((Ascii (false, true, true, true, false, true, true, false)), (String
+    ((Ascii (false, false, true, false, true, true, true, false)),
+    EmptyString)))))))))))))))))))))))))))))))))))))))))))))))))))))))))))))))))))))))))))))))))))))),
+    (e parse_tls_extension_elliptic_curves_content sx_ext)) :: (((String
+    ((Ascii (false, false, false, false, true, true, true, false)), (String
+    ((Ascii (true, false, false, false, false, true, true, false)), (String
+    ((Ascii (false, true, false, false, true, true, true, false)), (String
+    ((Ascii (true, true, false, false, true, true, true, false)), (String
+    ((Ascii (true, false, true, false, false, true, true, false)), (String
+    ((Ascii (true, true, true, true, true, false, true, false)), (String
+    ((Ascii (false, false, true, false, true, true, true, false)), (String
+    ((Ascii (false, false, true, true, false, true, true, false)), (String
+    ((Ascii (true, true, false, false, true, true, true, false)), (String
+    ((Ascii (true, true, true, true, true, false, true, false)), (String
+    ((Ascii (true, false, true, false, false, true, true, false)), (String
+    ((Ascii (false, false, false, true, true, true, true, false)), (String
+    ((Ascii (false, false, true, false, true, true, true, false)), (String
+    ((Ascii (true, false, true, false, false, true, true, false)), (String
+    ((Ascii (false, true, true, true, false, true, true, false)), (String
+    ((Ascii (true, true, false, false, true, true, true, false)), (String
+    ((Ascii (true, false, false, true, false, true, true, false)), (String
+    ((Ascii (true, true, true, true, false, true, true, false)), (String
+    ((Ascii (false, true, true, true, false, true, true, false)), (String
+    ((Ascii (true, true, true, true, true, false, true, false)), (String
+    ((Ascii (true, false, true, false, false, true, true, false)), (String
+    ((Ascii (true, true, false, false, false, true, true, false)), (String
+    ((Ascii (true, true, true, true, true, false, true, false)), (String
+    ((Ascii (false, false, false, false, true, true, true, false)), (String
+    ((Ascii (true, true, true, true, false, true, true, false)), (String
+    ((Ascii (true, false, false, true, false, true, true, false)), (String
+    ((Ascii (false, true, true, true, false, true, true, false)), (String
+    ((Ascii (false, false, true, false, true, true, true, false)), (String
+    ((Ascii (true, true, true, true, true, false, true, false)), (String
+    ((Ascii (false, true, true, false, false, true, true, false)), (String
+    ((Ascii (true, true, true, true, false, true, true, false)), (String
+    ((Ascii (false, true, false, false, true, true, true, false)), (String
+    ((Ascii (true, false, true, true, false, true, true, false)), (String
+    ((Ascii (true, false, false, false, false, true, true, false)), (String
+    ((Ascii (false, false, true, false, true, true, true, false)), (String
+    ((Ascii (true, true, false, false, true, true, true, false)), (String
+    ((Ascii (true, true, true, true, true, false, true, false)), (String
+    ((Ascii (true, true, false, false, false, true, true, false)), (String
+    ((Ascii (true, true, true, true, false, true, true, false)), (String
+    ((Ascii (false, true, true, true, false, true, true, false)), (String
+    ((Ascii (false, false, true, false, true, true, true, false)), (String
+    ((Ascii (true, false, true, false, false, true, true, false)), (String
+    ((Ascii (false, true, true, true, false, true, true, false)), (String
+    ((Ascii (false, false, true, false, true, true, true, false)),
+    EmptyString)))))))))))))))))))))))))))))))))))))))))))))))))))))))))))))))))))))))))))))))))))))))),
+    (e parse_tls_extension_ec_point_formats_content sx_ext)) :: (((String
+    ((Ascii (false, false, false, false, true, true, true, false)), (String
+    ((Ascii (true, false, false, false, false, true, true, false)), (String
+    ((Ascii (false, true, false, false, true, true, true, false)), (String
+    ((Ascii (true, true, false, false, true, true, true, false)), (String
+    ((Ascii (true, false, true, false, false, true, true, false)), (String
+    ((Ascii (true, true, true, true, true, false, true, false)), (String
+    ((Ascii (false, false, true, false, true, true, true, false)), (String
+    ((Ascii (false, false, true, true, false, true, true, false)), (String
+    ((Ascii (true, true, false, false, true, true, true, false)), (String
+    ((Ascii (true, true, true, true, true, false, true, false)), (String
+    ((Ascii (true, false, true, false, false, true, true, false)), (String
+    ((Ascii (false, false, false, true, true, true, true, false)), (String
+    ((Ascii (false, false, true, false, true, true, true, false)), (String
+    ((Ascii (true, false, true, false, false, true, true, false)), (String
+    ((Ascii (false, true, true, true, false, true, true, false)), (String
+    ((Ascii (true, true, false, false, true, true, true, false)), (String
+    ((Ascii (true, false, false, true, false, true, true, false)), (String
+    ((Ascii (true, true, true, true, false, true, true, false)), (String
+    ((Ascii (false, true, true, true, false, true, true, false)), (String
+    ((Ascii (true, true, true, true, true, false, true, false)), (String
+    ((Ascii (true, true, false, false, true, true, true, false)), (String
+    ((Ascii (true, false, false, true, false, true, true, false)), (String
+    ((Ascii (true, true, true, false, false, true, true, false)), (String
+    ((Ascii (false, true, true, true, false, true, true, false)), (String
+    ((Ascii (true, false, false, false, false, true, true, false)), (String
+    ((Ascii (false, false, true, false, true, true, true, false)), (String
+    ((Ascii (true, false, true, false, true, true, true, false)), (String
+    ((Ascii (false, true, false, false, true, true, true, false)), (String
+    ((Ascii (true, false, true, false, false, true, true, false)), (String
+    ((Ascii (true, true, true, true, true, false, true, false)), (String
+    ((Ascii (true, false, false, false, false, true, true, false)), (String
+    ((Ascii (false, false, true, true, false, true, true, false)), (String
+    ((Ascii (true, true, true, false, false, true, true, false)), (String
+    ((Ascii (true, true, true, true, false, true, true, false)), (String
+    ((Ascii (false, true, false, false, true, true, true, false)), (String
+    ((Ascii (true, false, false, true, false, true, true, false)), (String
+    ((Ascii (false, false, true, false, true, true, true, false)), (String
+    ((Ascii (false, false, false, true, false, true, true, false)), (String
+    ((Ascii (true, false, true, true, false, true, true, false)), (String
+    ((Ascii (true, true, false, false, true, true, true, false)), (String
+    ((Ascii (true, true, true, true, true, false, true, false)), (String
+    ((Ascii (true, true, false, false, false, true, true, false)), (String
+    ((Ascii (true, true, true, true, false, true, true, false)), (String
+    ((Ascii (false, true, true, true, false, true, true, false)), (String
+    ((Ascii (false, false, true, false, true, true, true, false)), (String
+    ((Ascii (true, false, true, false, false, true, true, false)), (String
+    ((Ascii (false, true, true, true, false, true, true, false)), (String
+    ((Ascii (false, false, true, false, true, true, true, false)),
+    EmptyString)))))))))))))))))))))))))))))))))))))))))))))))))))))))))))))))))))))))))))))))))))))))))))))))),
+    (e parse_tls_extension_signature_algorithms_content sx_ext)) :: (((String
+    ((Ascii (false, false, false, false, true, true, true, false)), (String
+    ((Ascii (true, false, false, false, false, true, true, false)), (String
+    ((Ascii (false, true, false, false, true, true, true, false)), (String
+    ((Ascii (true, true, false, false, true, true, true, false)), (String
+    ((Ascii (true, false, true, false, false, true, true, false)), (String
+    ((Ascii (true, true, true, true, true, false, true, false)), (String
+    ((Ascii (false, false, true, false, true, true, true, false)), (String
+    ((Ascii (false, false, true, true, false, true, true, false)), (String
+    ((Ascii (true, true, false, false, true, true, true, false)), (String
+    ((Ascii (true, true, true, true, true, false, true, false)), (String
+    ((Ascii (true, false, true, false, false, true, true, false)), (String
+    ((Ascii (false, false, false, true, true, true, true, false)), (String
+    ((Ascii (false, false, true, false, true, true, true, false)), (String
+    ((Ascii (true, false, true, false, false, true, true, false)), (String
+    ((Ascii (false, true, true, true, false, true, true, false)), (String
+    ((Ascii (true, true, false, false, true, true, true, false)), (String
+    ((Ascii (true, false, false, true, false, true, true, false)), (String
+    ((Ascii (true, true, true, true, false, true, true, false)), (String
+    ((Ascii (false, true, true, true, false, true, true, false)), (String
+    ((Ascii (true, true, true, true, true, false, true, false)), (String
+    ((Ascii (false, false, false, true, false, true, true, false)), (String
+    ((Ascii (true, false, true, false, false, true, true, false)), (String
+    ((Ascii (true, false, false, false, false, true, true, false)), (String
+    ((Ascii (false, true, false, false, true, true, true, false)), (String
+    ((Ascii (false, false, true, false, true, true, true, false)), (String
+    ((Ascii (false, true, false, false, false, true, true, false)), (String
+    ((Ascii (true, false, true, false, false, true, true, false)), (String
+    ((Ascii (true, false, false, false, false, true, true, false)), (String
+    ((Ascii (false, false, true, false, true, true, true, false)), (String
+    ((Ascii (true, true, true, true, true, false, true, false)), (String
+    ((Ascii (true, true, false, false, false, true, true, false)), (String
+    ((Ascii (true, true, true, true, false, true, true, false)), (String
+    ((Ascii (false, true, true, true, false, true, true, false)), (String
+    ((Ascii (false, false, true, false, true, true, true, false)), (String
+    ((Ascii (true, false, true, false, false, true, true, false)), (String
+    ((Ascii (false, true, true, true, false, true, true, false)), (String
+    ((Ascii (false, false, true, false, true, true, true, false)),
+    EmptyString)))))))))))))))))))))))))))))))))))))))))))))))))))))))))))))))))))))))))),
+    (e parse_tls_extension_heartbeat_content sx_ext)) :: (((String ((Ascii
+    (false, false, false, false, true, true, true, false)), (String ((Ascii
+    (true, false, false, false, false, true, true, false)), (String ((Ascii
+    (false, true, false, false, true, true, true, false)), (String ((Ascii
+    (true, true, false, false, true, true, true, false)), (String ((Ascii
+    (true, false, true, false, false, true, true, false)), (String ((Ascii
+    (true, true, true, true, true, false, true, false)), (String ((Ascii
+    (false, false, true, false, true, true, true, false)), (String ((Ascii
+    (false, false, true, true, false, true, true, false)), (String ((Ascii
+    (true, true, false, false, true, true, true, false)), (String ((Ascii
+    (true, true, true, true, true, false, true, false)), (String ((Ascii
+    (true, false, true, false, false, true, true, false)), (String ((Ascii
+    (false, false, false, true, true, true, true, false)), (String ((Ascii
+    (false, false, true, false, true, true, true, false)), (String ((Ascii
+    (true, false, true, false, false, true, true, false)), (String ((Ascii
+    (false, true, true, true, false, true, true, false)), (String ((Ascii
+    (true, true, false, false, true, true, true, false)), (String ((Ascii
+    (true, false, false, true, false, true, true, false)), (String ((Ascii
+    (true, true, true, true, false, true, true, false)), (String ((Ascii
+    (false, true, true, true, false, true, true, false)), (String ((Ascii
+    (true, true, true, true, true, false, true, false)), (String ((Ascii
+    (true, false, false, false, false, true, true, false)), (String ((Ascii
+    (false, false, true, true, false, true, true, false)), (String ((Ascii
+    (false, false, false, false, true, true, true, false)), (String ((Ascii
+    (false, true, true, true, false, true, true, false)), (String ((Ascii
+    (true, true, true, true, true, false, true, false)), (String ((Ascii
+    (true, true, false, false, false, true, true, false)), (String ((Ascii
+    (true, true, true, true, false, true, true, false)), (String ((Ascii
+    (false, true, true, true, false, true, true, false)), (String ((Ascii
+    (false, false, true, false, true, true, true, false)), (String ((Ascii
+    (true, false, true, false, false, true, true, false)), (String ((Ascii
+    (false, true, true, true, false, true, true, false)), (String ((Ascii
+    (false, false, true, false, true, true, true, false)),
+    EmptyString)))))))))))))))))))))))))))))))))))))))))))))))))))))))))))))))),
+    (e parse_tls_extension_alpn_content sx_ext)) :: (((String ((Ascii (false,
+    false, false, false, true, true, true, false)), (String ((Ascii (true,
+    false, false, false, false, true, true, false)), (String ((Ascii (false,
+    true, false, false, true, true, true, false)), (String ((Ascii (true,
+    true, false, false, true, true, true, false)), (String ((Ascii (true,
+    false, true, false, false, true, true, false)), (String ((Ascii (true,
+    true, true, true, true, false, true, false)), (String ((Ascii (false,
+    false, true, false, true, true, true, false)), (String ((Ascii (false,
+    false, true, true, false, true, true, false)), (String ((Ascii (true,
+    true, false, false, true, true, true, false)), (String ((Ascii (true,
+    true, true, true, true, false, true, false)), (String ((Ascii (true,
+    false, true, false, false, true, true, false)), (String ((Ascii (false,
+    false, false, true, true, true, true, false)), (String ((Ascii (false,
+    false, true, false, true, true, true, false)), (String ((Ascii (true,
+    false, true, false, false, true, true, false)), (String ((Ascii (false,
+    true, true, true, false, true, true, false)), (String ((Ascii (true,
+    true, false, false, true, true, true, false)), (String ((Ascii (true,
+    false, false, true, false, true, true, false)), (String ((Ascii (true,
+    true, true, true, false, true, true, false)), (String ((Ascii (false,
+    true, true, true, false, true, true, false)), (String ((Ascii (true,
+    true, true, true, true, false, true, false)), (String ((Ascii (true,
+    true, false, false, true, true, true, false)), (String ((Ascii (true,
+    false, false, true, false, true, true, false)), (String ((Ascii (true,
+    true, true, false, false, true, true, false)), (String ((Ascii (false,
+    true, true, true, false, true, true, false)), (String ((Ascii (true,
+    false, true, false, false, true, true, false)), (String ((Ascii (false,
+    false, true, false, false, true, true, false)), (String ((Ascii (true,
+    true, true, true, true, false, true, false)), (String ((Ascii (true,
+    true, false, false, false, true, true, false)), (String ((Ascii (true,
+    false, true, false, false, true, true, false)), (String ((Ascii (false,
+    true, false, false, true, true, true, false)), (String ((Ascii (false,
+    false, true, false, true, true, true, false)), (String ((Ascii (true,
+    false, false, true, false, true, true, false)), (String ((Ascii (false,
+    true, true, false, false, true, true, false)), (String ((Ascii (true,
+    false, false, true, false, true, true, false)), (String ((Ascii (true,
+    true, false, false, false, true, true, false)), (String ((Ascii (true,
+    false, false, false, false, true, true, false)), (String ((Ascii (false,
+    false, true, false, true, true, true, false)), (String ((Ascii (true,
+    false, true, false, false, true, true, false)), (String ((Ascii (true,
+    true, true, true, true, false, true, false)), (String ((Ascii (false,
+    false, true, false, true, true, true, false)), (String ((Ascii (true,
+    false, false, true, false, true, true, false)), (String ((Ascii (true,
+    false, true, true, false, true, true, false)), (String ((Ascii (true,
+    false, true, false, false, true, true, false)), (String ((Ascii (true,
+    true, false, false, true, true, true, false)), (String ((Ascii (false,
+    false, true, false, true, true, true, false)), (String ((Ascii (true,
+    false, false, false, false, true, true, false)), (String ((Ascii (true,
+    false, true, true, false, true, true, false)), (String ((Ascii (false,
+    false, false, false, true, true, true, false)), (String ((Ascii (true,
+    true, true, true, true, false, true, false)), (String ((Ascii (true,
+    true, false, false, false, true, true, false)), (String ((Ascii (true,
+    true, true, true, false, true, true, false)), (String ((Ascii (false,
+    true, true, true, false, true, true, false)), (String ((Ascii (false,
+    false, true, false, true, true, true, false)), (String ((Ascii (true,
+    false, true, false, false, true, true, false)), (String ((Ascii (false,
+    true, true, true, false, true, true, false)), (String ((Ascii (false,
+    false, true, false, true, true, true, false)),
+    EmptyString)))))))))))))))))))))))))))))))))))))))))))))))))))))))))))))))))))))))))))))))))))))))))))))))))))))))))))))))),
+    (e parse_tls_extension_signed_certificate_timestamp_content sx_ext)) :: (((String
+    ((Ascii (false, false, false, false, true, true, true, false)), (String
+    ((Ascii (true, false, false, false, false, true, true, false)), (String
+    ((Ascii (false, true, false, false, true, true, true, false)), (String
+    ((Ascii (true, true, false, false, true, true, true, false)), (String
+    ((Ascii (true, false, true, false, false, true, true, false)), (String
+    ((Ascii (true, true, true, true, true, false, true, false)), (String
+    ((Ascii (false, false, true, false, true, true, true, false)), (String
+    ((Ascii (false, false, true, true, false, true, true, false)), (String
+    ((Ascii (true, true, false, false, true, true, true, false)), (String
+    ((Ascii (true, true, true, true, true, false, true, false)), (String
+    ((Ascii (true, false, true, false, false, true, true, false)), (String
+    ((Ascii (false, false, false, true, true, true, true, false)), (String
+    ((Ascii (false, false, true, false, true, true, true, false)), (String
+    ((Ascii (true, false, true, false, false, true, true, false)), (String
+    ((Ascii (false, true, true, true, false, true, true, false)), (String
+    ((Ascii (true, true, false, false, true, true, true, false)), (String
+    ((Ascii (true, false, false, true, false, true, true, false)), (String
+    ((Ascii (true, true, true, true, false, true, true, false)), (String
+    ((Ascii (false, true, true, true, false, true, true, false)), (String
+    ((Ascii (true, true, true, true, true, false, true, false)), (String
+    ((Ascii (false, false, false, false, true, true, true, false)), (String
+    ((Ascii (true, true, false, false, true, true, true, false)), (String
+    ((Ascii (true, true, false, true, false, true, true, false)), (String
+    ((Ascii (true, true, true, true, true, false, true, false)), (String
+    ((Ascii (true, true, false, true, false, true, true, false)), (String
+    ((Ascii (true, false, true, false, false, true, true, false)), (String
+    ((Ascii (true, false, false, true, true, true, true, false)), (String
+    ((Ascii (true, true, true, true, true, false, true, false)), (String
+    ((Ascii (true, false, true, false, false, true, true, false)), (String
+    ((Ascii (false, false, false, true, true, true, true, false)), (String
+    ((Ascii (true, true, false, false, false, true, true, false)), (String
+    ((Ascii (false, false, false, true, false, true, true, false)), (String
+    ((Ascii (true, false, false, false, false, true, true, false)), (String
+    ((Ascii (false, true, true, true, false, true, true, false)), (String
+    ((Ascii (true, true, true, false, false, true, true, false)), (String
+    ((Ascii (true, false, true, false, false, true, true, false)), (String
+    ((Ascii (true, true, true, true, true, false, true, false)), (String
+    ((Ascii (true, false, true, true, false, true, true, false)), (String
+    ((Ascii (true, true, true, true, false, true, true, false)), (String
+    ((Ascii (false, false, true, false, false, true, true, false)), (String
+    ((Ascii (true, false, true, false, false, true, true, false)), (String
+    ((Ascii (true, true, false, false, true, true, true, false)), (String
+    ((Ascii (true, true, true, true, true, false, true, false)), (String
+    ((Ascii (true, true, false, false, false, true, true, false)), (String
+    ((Ascii (true, true, true, true, false, true, true, false)), (String
+    ((Ascii (false, true, true, true, false, true, true, false)), (String
+    ((Ascii (false, false, true, false, true, true, true, false)), (String
+    ((Ascii (true, false, true, false, false, true, true, false)), (String
+    ((Ascii (false, true, true, true, false, true, true, false)), (String
+    ((Ascii (false, false, true, false, true, true, true, false)),
+    EmptyString)))))))))))))))))))))))))))))))))))))))))))))))))))))))))))))))))))))))))))))))))))))))))))))))))))),
+    (e parse_tls_extension_psk_key_exchange_modes_content sx_ext)) :: (((String
+    ((Ascii (false, false, false, false, true, true, true, false)), (String
+    ((Ascii (true, false, false, false, false, true, true, false)), (String
+    ((Ascii (false, true, false, false, true, true, true, false)), (String
+    ((Ascii (true, true, false, false, true, true, true, false)), (String
+    ((Ascii (true, false, true, false, false, true, true, false)), (String
+    ((Ascii (true, true, true, true, true, false, true, false)), (String
+    ((Ascii (false, false, true, false, true, true, true, false)), (String
+    ((Ascii (false, false, true, true, false, true, true, false)), (String
+    ((Ascii (true, true, false, false, true, true, true, false)), (String
+    ((Ascii (true, true, true, true, true, false, true, false)), (String
+    ((Ascii (true, false, true, false, false, true, true, false)), (String
+    ((Ascii (false, false, false, true, true, true, true, false)), (String
+    ((Ascii (false, false, true, false, true, true, true, false)), (String
+    ((Ascii (true, false, true, false, false, true, true, false)), (String
+    ((Ascii (false, true, true, true, false, true, true, false)), (String
+    ((Ascii (true, true, false, false, true, true, true, false)), (String
+    ((Ascii (true, false, false, true, false, true, true, false)), (String
+    ((Ascii (true, true, true, true, false, true, true, false)), (String
+    ((Ascii (false, true, true, true, false, true, true, false)), (String
+    ((Ascii (true, true, true, true, true, false, true, false)), (String
+    ((Ascii (false, true, false, false, true, true, true, false)), (String
+    ((Ascii (true, false, true, false, false, true, true, false)), (String
+    ((Ascii (false, true, true, true, false, true, true, false)), (String
+    ((Ascii (true, false, true, false, false, true, true, false)), (String
+    ((Ascii (true, true, true, false, false, true, true, false)), (String
+    ((Ascii (true, true, true, true, false, true, true, false)), (String
+    ((Ascii (false, false, true, false, true, true, true, false)), (String
+    ((Ascii (true, false, false, true, false, true, true, false)), (String
+    ((Ascii (true, false, false, false, false, true, true, false)), (String
+    ((Ascii (false, false, true, false, true, true, true, false)), (String
+    ((Ascii (true, false, false, true, false, true, true, false)), (String
+    ((Ascii (true, true, true, true, false, true, true, false)), (String
+    ((Ascii (false, true, true, true, false, true, true, false)), (String
+    ((Ascii (true, true, true, true, true, false, true, false)), (String
+    ((Ascii (true, false, false, true, false, true, true, false)), (String
+    ((Ascii (false, true, true, true, false, true, true, false)), (String
+    ((Ascii (false, true, true, false, false, true, true, false)), (String
+    ((Ascii (true, true, true, true, false, true, true, false)), (String
+    ((Ascii (true, true, true, true, true, false, true, false)), (String
+    ((Ascii (true, true, false, false, false, true, true, false)), (String
+    ((Ascii (true, true, true, true, false, true, true, false)), (String
+    ((Ascii (false, true, true, true, false, true, true, false)), (String
+    ((Ascii (false, false, true, false, true, true, true, false)), (String
+    ((Ascii (true, false, true, false, false, true, true, false)), (String
+    ((Ascii (false, true, true, true, false, true, true, false)), (String
+    ((Ascii (false, false, true, false, true, true, true, false)),
+    EmptyString)))))))))))))))))))))))))))))))))))))))))))))))))))))))))))))))))))))))))))))))))))))))))))),
+    (e parse_tls_extension_renegotiation_info_content sx_ext)) :: (((String
+    ((Ascii (false, false, false, false, true, true, true, false)), (String
+    ((Ascii (true, false, false, false, false, true, true, false)), (String
+    ((Ascii (false, true, false, false, true, true, true, false)), (String
+    ((Ascii (true, true, false, false, true, true, true, false)), (String
+    ((Ascii (true, false, true, false, false, true, true, false)), (String
+    ((Ascii (true, true, true, true, true, false, true, false)), (String
+    ((Ascii (false, false, true, false, true, true, true, false)), (String
+    ((Ascii (false, false, true, true, false, true, true, false)), (String
+    ((Ascii (true, true, false, false, true, true, true, false)), (String
+    ((Ascii (true, true, true, true, true, false, true, false)), (String
+    ((Ascii (true, false, true, false, false, true, true, false)), (String
+    ((Ascii (false, false, false, true, true, true, true, false)), (String
+    ((Ascii (false, false, true, false, true, true, true, false)), (String
+    ((Ascii (true, false, true, false, false, true, true, false)), (String
+    ((Ascii (false, true, true, true, false, true, true, false)), (String
+    ((Ascii (true, true, false, false, true, true, true, false)), (String
+    ((Ascii (true, false, false, true, false, true, true, false)), (String
+    ((Ascii (true, true, true, true, false, true, true, false)), (String
+    ((Ascii (false, true, true, true, false, true, true, false)), (String
+    ((Ascii (true, true, true, true, true, false, true, false)), (String
+    ((Ascii (true, false, true, false, false, true, true, false)), (String
+    ((Ascii (false, true, true, true, false, true, true, false)), (String
+    ((Ascii (true, true, false, false, false, true, true, false)), (String
+    ((Ascii (false, true, false, false, true, true, true, false)), (String
+    ((Ascii (true, false, false, true, true, true, true, false)), (String
+    ((Ascii (false, false, false, false, true, true, true, false)), (String
+    ((Ascii (false, false, true, false, true, true, true, false)), (String
+    ((Ascii (true, false, true, false, false, true, true, false)), (String
+    ((Ascii (false, false, true, false, false, true, true, false)), (String
+    ((Ascii (true, true, true, true, true, false, true, false)), (String
+    ((Ascii (true, true, false, false, true, true, true, false)), (String
+    ((Ascii (true, false, true, false, false, true, true, false)), (String
+    ((Ascii (false, true, false, false, true, true, true, false)), (String
+    ((Ascii (false, true, true, false, true, true, true, false)), (String
+    ((Ascii (true, false, true, false, false, true, true, false)), (String
+    ((Ascii (false, true, false, false, true, true, true, false)), (String
+    ((Ascii (true, true, true, true, true, false, true, false)), (String
+    ((Ascii (false, true, true, true, false, true, true, false)), (String
+    ((Ascii (true, false, false, false, false, true, true, false)), (String
+    ((Ascii (true, false, true, true, false, true, true, false)), (String
+    ((Ascii (true, false, true, false, false, true, true, false)),
+    EmptyString)))))))))))))))))))))))))))))))))))))))))))))))))))))))))))))))))))))))))))))))))),
+    (e parse_tls_extension_encrypted_server_name sx_ext)) :: (((String
+    ((Ascii (false, false, false, false, true, true, true, false)), (String
+    ((Ascii (true, false, false, false, false, true, true, false)), (String
+    ((Ascii (false, true, false, false, true, true, true, false)), (String
+    ((Ascii (true, true, false, false, true, true, true, false)), (String
+    ((Ascii (true, false, true, false, false, true, true, false)), (String
+    ((Ascii (true, true, true, true, true, false, true, false)), (String
+    ((Ascii (false, false, true, false, true, true, true, false)), (String
+    ((Ascii (false, false, true, true, false, true, true, false)), (String
+    ((Ascii (true, true, false, false, true, true, true, false)), (String
+    ((Ascii (true, true, true, true, true, false, true, false)), (String
+    ((Ascii (true, false, true, false, false, true, true, false)), (String
+    ((Ascii (false, false, false, true, true, true, true, false)), (String
+    ((Ascii (false, false, true, false, true, true, true, false)), (String
+    ((Ascii (true, false, true, false, false, true, true, false)), (String
+    ((Ascii (false, true, true, true, false, true, true, false)), (String
+    ((Ascii (true, true, false, false, true, true, true, false)), (String
+    ((Ascii (true, false, false, true, false, true, true, false)), (String
+    ((Ascii (true, true, true, true, false, true, true, false)), (String
+    ((Ascii (false, true, true, true, false, true, true, false)), (String
+    ((Ascii (true, true, true, true, true, false, true, false)), (String
+    ((Ascii (true, true, false, false, true, true, true, false)), (String
+    ((Ascii (false, true, true, true, false, true, true, false)), (String
+    ((Ascii (true, false, false, true, false, true, true, false)),
+    EmptyString)))))))))))))))))))))))))))))))))))))))))))))),
+    (e parse_tls_extension_sni sx_ext)) :: (((String ((Ascii (false, false,
+    false, false, true, true, true, false)), (String ((Ascii (true, false,
+    false, false, false, true, true, false)), (String ((Ascii (false, true,
+    false, false, true, true, true, false)), (String ((Ascii (true, true,
+    false, false, true, true, true, false)), (String ((Ascii (true, false,
+    true, false, false, true, true, false)), (String ((Ascii (true, true,
+    true, true, true, false, true, false)), (String ((Ascii (false, false,
+    true, false, true, true, true, false)), (String ((Ascii (false, false,
+    true, true, false, true, true, false)), (String ((Ascii (true, true,
+    false, false, true, true, true, false)), (String ((Ascii (true, true,
+    true, true, true, false, true, false)), (String ((Ascii (true, false,
+    true, false, false, true, true, false)), (String ((Ascii (false, false,
+    false, true, true, true, true, false)), (String ((Ascii (false, false,
+    true, false, true, true, true, false)), (String ((Ascii (true, false,
+    true, false, false, true, true, false)), (String ((Ascii (false, true,
+    true, true, false, true, true, false)), (String ((Ascii (true, true,
+    false, false, true, true, true, false)), (String ((Ascii (true, false,
+    false, true, false, true, true, false)), (String ((Ascii (true, true,
+    true, true, false, true, true, false)), (String ((Ascii (false, true,
+    true, true, false, true, true, false)), (String ((Ascii (true, true,
+    true, true, true, false, true, false)), (String ((Ascii (true, false,
+    true, true, false, true, true, false)), (String ((Ascii (true, false,
+    false, false, false, true, true, false)), (String ((Ascii (false, false,
+    false, true, true, true, true, false)), (String ((Ascii (true, true,
+    true, true, true, false, true, false)), (String ((Ascii (false, true,
+    true, false, false, true, true, false)), (String ((Ascii (false, true,
+    false, false, true, true, true, false)), (String ((Ascii (true, false,
+    false, false, false, true, true, false)), (String ((Ascii (true, true,
+    true, false, false, true, true, false)), (String ((Ascii (true, false,
+    true, true, false, true, true, false)), (String ((Ascii (true, false,
+    true, false, false, true, true, false)), (String ((Ascii (false, true,
+    true, true, false, true, true, false)), (String ((Ascii (false, false,
+    true, false, true, true, true, false)), (String ((Ascii (true, true,
+    true, true, true, false, true, false)), (String ((Ascii (false, false,
+    true, true, false, true, true, false)), (String ((Ascii (true, false,
+    true, false, false, true, true, false)), (String ((Ascii (false, true,
+    true, true, false, true, true, false)), (String ((Ascii (true, true,
+    true, false, false, true, true, false)), (String ((Ascii (false, false,
+    true, false, true, true, true, false)), (String ((Ascii (false, false,
+    false, true, false, true, true, false)),
+    EmptyString)))))))))))))))))))))))))))))))))))))))))))))))))))))))))))))))))))))))))))))),
+    (e parse_tls_extension_max_fragment_length sx_ext)) :: (((String ((Ascii
+    (false, false, false, false, true, true, true, false)), (String ((Ascii
+    (true, false, false, false, false, true, true, false)), (String ((Ascii
+    (false, true, false, false, true, true, true, false)), (String ((Ascii
+    (true, true, false, false, true, true, true, false)), (String ((Ascii
+    (true, false, true, false, false, true, true, false)), (String ((Ascii
+    (true, true, true, true, true, false, true, false)), (String ((Ascii
+    (false, false, true, false, true, true, true, false)), (String ((Ascii
+    (false, false, true, true, false, true, true, false)), (String ((Ascii
+    (true, true, false, false, true, true, true, false)), (String ((Ascii
+    (true, true, true, true, true, false, true, false)), (String ((Ascii
+    (true, false, true, false, false, true, true, false)), (String ((Ascii
+    (false, false, false, true, true, true, true, false)), (String ((Ascii
+    (false, false, true, false, true, true, true, false)), (String ((Ascii
+    (true, false, true, false, false, true, true, false)), (String ((Ascii
+    (false, true, true, true, false, true, true, false)), (String ((Ascii
+    (true, true, false, false, true, true, true, false)), (String ((Ascii
+    (true, false, false, true, false, true, true, false)), (String ((Ascii
+    (true, true, true, true, false, true, true, false)), (String ((Ascii
+    (false, true, true, true, false, true, true, false)), (String ((Ascii
+    (true, true, true, true, true, false, true, false)), (String ((Ascii
+    (true, true, false, false, true, true, true, false)), (String ((Ascii
+    (false, false, true, false, true, true, true, false)), (String ((Ascii
+    (true, false, false, false, false, true, true, false)), (String ((Ascii
+    (false, false, true, false, true, true, true, false)), (String ((Ascii
+    (true, false, true, false, true, true, true, false)), (String ((Ascii
+    (true, true, false, false, true, true, true, false)), (String ((Ascii
+    (true, true, true, true, true, false, true, false)), (String ((Ascii
+    (false, true, false, false, true, true, true, false)), (String ((Ascii
+    (true, false, true, false, false, true, true, false)), (String ((Ascii
+    (true, false, false, false, true, true, true, false)), (String ((Ascii
+    (true, false, true, false, true, true, true, false)), (String ((Ascii
+    (true, false, true, false, false, true, true, false)), (String ((Ascii
+    (true, true, false, false, true, true, true, false)), (String ((Ascii
+    (false, false, true, false, true, true, true, false)),
+    EmptyString)))))))))))))))))))))))))))))))))))))))))))))))))))))))))))))))))))),
+    (e parse_tls_extension_status_request sx_ext)) :: (((String ((Ascii
+    (false, false, false, false, true, true, true, false)), (String ((Ascii
+    (true, false, false, false, false, true, true, false)), (String ((Ascii
+    (false, true, false, false, true, true, true, false)), (String ((Ascii
+    (true, true, false, false, true, true, true, false)), (String ((Ascii
+    (true, false, true, false, false, true, true, false)), (String ((Ascii
+    (true, true, true, true, true, false, true, false)), (String ((Ascii
+    (false, false, true, false, true, true, true, false)), (String ((Ascii
+    (false, false, true, true, false, true, true, false)), (String ((Ascii
+    (true, true, false, false, true, true, true, false)), (String ((Ascii
+    (true, true, true, true, true, false, true, false)), (String ((Ascii
+    (true, false, true, false, false, true, true, false)), (String ((Ascii
+    (false, false, false, true, true, true, true, false)), (String ((Ascii
+    (false, false, true, false, true, true, true, false)), (String ((Ascii
+    (true, false, true, false, false, true, true, false)), (String ((Ascii
+    (false, true, true, true, false, true, true, false)), (String ((Ascii
+    (true, true, false, false, true, true, true, false)), (String ((Ascii
+    (true, false, false, true, false, true, true, false)), (String ((Ascii
+    (true, true, true, true, false, true, true, false)), (String ((Ascii
+    (false, true, true, true, false, true, true, false)), (String ((Ascii
+    (true, true, true, true, true, false, true, false)), (String ((Ascii
+    (true, false, true, false, false, true, true, false)), (String ((Ascii
+    (false, false, true, true, false, true, true, false)), (String ((Ascii
+    (false, false, true, true, false, true, true, false)), (String ((Ascii
+    (true, false, false, true, false, true, true, false)), (String ((Ascii
+    (false, false, false, false, true, true, true, false)), (String ((Ascii
+    (false, false, true, false, true, true, true, false)), (String ((Ascii
+    (true, false, false, true, false, true, true, false)), (String ((Ascii
+    (true, true, false, false, false, true, true, false)), (String ((Ascii
+    (true, true, true, true, true, false, true, false)), (String ((Ascii
+    (true, true, false, false, false, true, true, false)), (String ((Ascii
+    (true, false, true, false, true, true, true, false)), (String ((Ascii
+    (false, true, false, false, true, true, true, false)), (String ((Ascii
+    (false, true, true, false, true, true, true, false)), (String ((Ascii
+    (true, false, true, false, false, true, true, false)), (String ((Ascii
+    (true, true, false, false, true, true, true, false)),
+    EmptyString)))))))))))))))))))))))))))))))))))))))))))))))))))))))))))))))))))))),
+    (e parse_tls_extension_elliptic_curves sx_ext)) :: (((String ((Ascii
+    (false, false, false, false, true, true, true, false)), (String ((Ascii
+    (true, false, false, false, false, true, true, false)), (String ((Ascii
+    (false, true, false, false, true, true, true, false)), (String ((Ascii
+    (true, true, false, false, true, true, true, false)), (String ((Ascii
+    (true, false, true, false, false, true, true, false)), (String ((Ascii
+    (true, true, true, true, true, false, true, false)), (String ((Ascii
+    (false, false, true, false, true, true, true, false)), (String ((Ascii
+    (false, false, true, true, false, true, true, false)), (String ((Ascii
+    (true, true, false, false, true, true, true, false)), (String ((Ascii
+    (true, true, true, true, true, false, true, false)), (String ((Ascii
+    (true, false, true, false, false, true, true, false)), (String ((Ascii
+    (false, false, false, true, true, true, true, false)), (String ((Ascii
+    (false, false, true, false, true, true, true, false)), (String ((Ascii
+    (true, false, true, false, false, true, true, false)), (String ((Ascii
+    (false, true, true, true, false, true, true, false)), (String ((Ascii
+    (true, true, false, false, true, true, true, false)), (String ((Ascii
+    (true, false, false, true, false, true, true, false)), (String ((Ascii
+    (true, true, true, true, false, true, true, false)), (String ((Ascii
+    (false, true, true, true, false, true, true, false)), (String ((Ascii
+    (true, true, true, true, true, false, true, false)), (String ((Ascii
+    (true, false, true, false, false, true, true, false)), (String ((Ascii
+    (true, true, false, false, false, true, true, false)), (String ((Ascii
+    (true, true, true, true, true, false, true, false)), (String ((Ascii
+    (false, false, false, false, true, true, true, false)), (String ((Ascii
+    (true, true, true, true, false, true, true, false)), (String ((Ascii
+    (true, false, false, true, false, true, true, false)), (String ((Ascii
+    (false, true, true, true, false, true, true, false)), (String ((Ascii
+    (false, false, true, false, true, true, true, false)), (String ((Ascii
+    (true, true, true, true, true, false, true, false)), (String ((Ascii
+    (false, true, true, false, false, true, true, false)), (String ((Ascii
+    (true, true, true, true, false, true, true, false)), (String ((Ascii
+    (false, true, false, false, true, true, true, false)), (String ((Ascii
+    (true, false, true, true, false, true, true, false)), (String ((Ascii
+    (true, false, false, false, false, true, true, false)), (String ((Ascii
+    (false, false, true, false, true, true, true, false)), (String ((Ascii
+    (true, true, false, false, true, true, true, false)),
+    EmptyString)))))))))))))))))))))))))))))))))))))))))))))))))))))))))))))))))))))))),
+    (e parse_tls_extension_ec_point_formats sx_ext)) :: (((String ((Ascii
+    (false, false, false, false, true, true, true, false)), (String ((Ascii
+    (true, false, false, false, false, true, true, false)), (String ((Ascii
+    (false, true, false, false, true, true, true, false)), (String ((Ascii
+    (true, true, false, false, true, true, true, false)), (String ((Ascii
+    (true, false, true, false, false, true, true, false)), (String ((Ascii
+    (true, true, true, true, true, false, true, false)), (String ((Ascii
+    (false, false, true, false, true, true, true, false)), (String ((Ascii
+    (false, false, true, true, false, true, true, false)), (String ((Ascii
+    (true, true, false, false, true, true, true, false)), (String ((Ascii
+    (true, true, true, true, true, false, true, false)), (String ((Ascii
+    (true, false, true, false, false, true, true, false)), (String ((Ascii
+    (false, false, false, true, true, true, true, false)), (String ((Ascii
+    (false, false, true, false, true, true, true, false)), (String ((Ascii
+    (true, false, true, false, false, true, true, false)), (String ((Ascii
+    (false, true, true, true, false, true, true, false)), (String ((Ascii
+    (true, true, false, false, true, true, true, false)), (String ((Ascii
+    (true, false, false, true, false, true, true, false)), (String ((Ascii
+    (true, true, true, true, false, true, true, false)), (String ((Ascii
+    (false, true, true, true, false, true, true, false)), (String ((Ascii
+    (true, true, true, true, true, false, true, false)), (String ((Ascii
+    (true, true, false, false, true, true, true, false)), (String ((Ascii
+    (true, false, false, true, false, true, true, false)), (String ((Ascii
+    (true, true, true, false, false, true, true, false)), (String ((Ascii
+    (false, true, true, true, false, true, true, false)), (String ((Ascii
+    (true, false, false, false, false, true, true, false)), (String ((Ascii
+    (false, false, true, false, true, true, true, false)), (String ((Ascii
+    (true, false, true, false, true, true, true, false)), (String ((Ascii
+    (false, true, false, false, true, true, true, false)), (String ((Ascii
+    (true, false, true, false, false, true, true, false)), (String ((Ascii
+    (true, true, true, true, true, false, true, false)), (String ((Ascii
+    (true, false, false, false, false, true, true, false)), (String ((Ascii
+    (false, false, true, true, false, true, true, false)), (String ((Ascii
+    (true, true, true, false, false, true, true, false)), (String ((Ascii
+    (true, true, true, true, false, true, true, false)), (String ((Ascii
+    (false, true, false, false, true, true, true, false)), (String ((Ascii
+    (true, false, false, true, false, true, true, false)), (String ((Ascii
+    (false, false, true, false, true, true, true, false)), (String ((Ascii
+    (false, false, false, true, false, true, true, false)), (String ((Ascii
+    (true, false, true, true, false, true, true, false)), (String ((Ascii
+    (true, true, false, false, true, true, true, false)),
+    EmptyString)))))))))))))))))))))))))))))))))))))))))))))))))))))))))))))))))))))))))))))))),
+    (e parse_tls_extension_signature_algorithms sx_ext)) :: (((String ((Ascii
+    (false, false, false, false, true, true, true, false)), (String ((Ascii
+    (true, false, false, false, false, true, true, false)), (String ((Ascii
+    (false, true, false, false, true, true, true, false)), (String ((Ascii
+    (true, true, false, false, true, true, true, false)), (String ((Ascii
+    (true, false, true, false, false, true, true, false)), (String ((Ascii
+    (true, true, true, true, true, false, true, false)), (String ((Ascii
+    (false, false, true, false, true, true, true, false)), (String ((Ascii
+    (false, false, true, true, false, true, true, false)), (String ((Ascii
+    (true, true, false, false, true, true, true, false)), (String ((Ascii
+    (true, true, true, true, true, false, true, false)), (String ((Ascii
+    (true, false, true, false, false, true, true, false)), (String ((Ascii
+    (false, false, false, true, true, true, true, false)), (String ((Ascii
+    (false, false, true, false, true, true, true, false)), (String ((Ascii
+    (true, false, true, false, false, true, true, false)), (String ((Ascii
+    (false, true, true, true, false, true, true, false)), (String ((Ascii
+    (true, true, false, false, true, true, true, false)), (String ((Ascii
+    (true, false, false, true, false, true, true, false)), (String ((Ascii
+    (true, true, true, true, false, true, true, false)), (String ((Ascii
+    (false, true, true, true, false, true, true, false)), (String ((Ascii
+    (true, true, true, true, true, false, true, false)), (String ((Ascii
+    (false, false, false, true, false, true, true, false)), (String ((Ascii
+    (true, false, true, false, false, true, true, false)), (String ((Ascii
+    (true, false, false, false, false, true, true, false)), (String ((Ascii
+    (false, true, false, false, true, true, true, false)), (String ((Ascii
+    (false, false, true, false, true, true, true, false)), (String ((Ascii
+    (false, true, false, false, false, true, true, false)), (String ((Ascii
+    (true, false, true, false, false, true, true, false)), (String ((Ascii
+    (true, false, false, false, false, true, true, false)), (String ((Ascii
+    (false, false, true, false, true, true, true, false)),
+    EmptyString)))))))))))))))))))))))))))))))))))))))))))))))))))))))))),
+    (e parse_tls_extension_heartbeat sx_ext)) :: (((String ((Ascii (false,
+    false, false, false, true, true, true, false)), (String ((Ascii (true,
+    false, false, false, false, true, true, false)), (String ((Ascii (false,
+    true, false, false, true, true, true, false)), (String ((Ascii (true,
+    true, false, false, true, true, true, false)), (String ((Ascii (true,
+    false, true, false, false, true, true, false)), (String ((Ascii (true,
+    true, true, true, true, false, true, false)), (String ((Ascii (false,
+    false, true, false, true, true, true, false)), (String ((Ascii (false,
+    false, true, true, false, true, true, false)), (String ((Ascii (true,
+    true, false, false, true, true, true, false)), (String ((Ascii (true,
+    true, true, true, true, false, true, false)), (String ((Ascii (true,
+    false, true, false, false, true, true, false)), (String ((Ascii (false,
+    false, false, true, true, true, true, false)), (String ((Ascii (false,
+    false, true, false, true, true, true, false)), (String ((Ascii (true,
+    false, true, false, false, true, true, false)), (String ((Ascii (false,
+    true, true, true, false, true, true, false)), (String ((Ascii (true,
+    true, false, false, true, true, true, false)), (String ((Ascii (true,
+    false, false, true, false, true, true, false)), (String ((Ascii (true,
+    true, true, true, false, true, true, false)), (String ((Ascii (false,
+    true, true, true, false, true, true, false)), (String ((Ascii (true,
+    true, true, true, true, false, true, false)), (String ((Ascii (true,
+    false, true, false, false, true, true, false)), (String ((Ascii (false,
+    true, true, true, false, true, true, false)), (String ((Ascii (true,
+    true, false, false, false, true, true, false)), (String ((Ascii (false,
+    true, false, false, true, true, true, false)), (String ((Ascii (true,
+    false, false, true, true, true, true, false)), (String ((Ascii (false,
+    false, false, false, true, true, true, false)), (String ((Ascii (false,
+    false, true, false, true, true, true, false)), (String ((Ascii (true,
+    true, true, true, true, false, true, false)), (String ((Ascii (false,
+    false, true, false, true, true, true, false)), (String ((Ascii (false,
+    false, false, true, false, true, true, false)), (String ((Ascii (true,
+    false, true, false, false, true, true, false)), (String ((Ascii (false,
+    true, true, true, false, true, true, false)), (String ((Ascii (true,
+    true, true, true, true, false, true, false)), (String ((Ascii (true,
+    false, true, true, false, true, true, false)), (String ((Ascii (true,
+    false, false, false, false, true, true, false)), (String ((Ascii (true,
+    true, false, false, false, true, true, false)),
+    EmptyString)))))))))))))))))))))))))))))))))))))))))))))))))))))))))))))))))))))))),
+    (e parse_tls_extension_encrypt_then_mac sx_ext)) :: (((String ((Ascii
+    (false, false, false, false, true, true, true, false)), (String ((Ascii
+    (true, false, false, false, false, true, true, false)), (String ((Ascii
+    (false, true, false, false, true, true, true, false)), (String ((Ascii
+    (true, true, false, false, true, true, true, false)), (String ((Ascii
+    (true, false, true, false, false, true, true, false)), (String ((Ascii
+    (true, true, true, true, true, false, true, false)), (String ((Ascii
+    (false, false, true, false, true, true, true, false)), (String ((Ascii
+    (false, false, true, true, false, true, true, false)), (String ((Ascii
+    (true, true, false, false, true, true, true, false)), (String ((Ascii
+    (true, true, true, true, true, false, true, false)), (String ((Ascii
+    (true, false, true, false, false, true, true, false)), (String ((Ascii
+    (false, false, false, true, true, true, true, false)), (String ((Ascii
+    (false, false, true, false, true, true, true, false)), (String ((Ascii
+    (true, false, true, false, false, true, true, false)), (String ((Ascii
+    (false, true, true, true, false, true, true, false)), (String ((Ascii
+    (true, true, false, false, true, true, true, false)), (String ((Ascii
+    (true, false, false, true, false, true, true, false)), (String ((Ascii
+    (true, true, true, true, false, true, true, false)), (String ((Ascii
+    (false, true, true, true, false, true, true, false)), (String ((Ascii
+    (true, true, true, true, true, false, true, false)), (String ((Ascii
+    (true, false, true, false, false, true, true, false)), (String ((Ascii
+    (false, false, false, true, true, true, true, false)), (String ((Ascii
+    (false, false, true, false, true, true, true, false)), (String ((Ascii
+    (true, false, true, false, false, true, true, false)), (String ((Ascii
+    (false, true, true, true, false, true, true, false)), (String ((Ascii
+    (false, false, true, false, false, true, true, false)), (String ((Ascii
+    (true, false, true, false, false, true, true, false)), (String ((Ascii
+    (false, false, true, false, false, true, true, false)), (String ((Ascii
+    (true, true, true, true, true, false, true, false)), (String ((Ascii
+    (true, false, true, true, false, true, true, false)), (String ((Ascii
+    (true, false, false, false, false, true, true, false)), (String ((Ascii
+    (true, true, false, false, true, true, true, false)), (String ((Ascii
+    (false, false, true, false, true, true, true, false)), (String ((Ascii
+    (true, false, true, false, false, true, true, false)), (String ((Ascii
+    (false, true, false, false, true, true, true, false)), (String ((Ascii
+    (true, true, true, true, true, false, true, false)), (String ((Ascii
+    (true, true, false, false, true, true, true, false)), (String ((Ascii
+    (true, false, true, false, false, true, true, false)), (String ((Ascii
+    (true, true, false, false, false, true, true, false)), (String ((Ascii
+    (false, true, false, false, true, true, true, false)), (String ((Ascii
+    (true, false, true, false, false, true, true, false)), (String ((Ascii
+    (false, false, true, false, true, true, true, false)),
+    EmptyString)))))))))))))))))))))))))))))))))))))))))))))))))))))))))))))))))))))))))))))))))))),
+    (e parse_tls_extension_extended_master_secret sx_ext)) :: (((String
+    ((Ascii (false, false, false, false, true, true, true, false)), (String
+    ((Ascii (true, false, false, false, false, true, true, false)), (String
+    ((Ascii (false, true, false, false, true, true, true, false)), (String
+    ((Ascii (true, true, false, false, true, true, true, false)), (String
+    ((Ascii (true, false, true, false, false, true, true, false)), (String
+    ((Ascii (true, true, true, true, true, false, true, false)), (String
+    ((Ascii (false, false, true, false, true, true, true, false)), (String
+    ((Ascii (false, false, true, true, false, true, true, false)), (String
+    ((Ascii (true, true, false, false, true, true, true, false)), (String
+    ((Ascii (true, true, true, true, true, false, true, false)), (String
+    ((Ascii (true, false, true, false, false, true, true, false)), (String
+    ((Ascii (false, false, false, true, true, true, true, false)), (String
+    ((Ascii (false, false, true, false, true, true, true, false)), (String
+    ((Ascii (true, false, true, false, false, true, true, false)), (String
+    ((Ascii (false, true, true, true, false, true, true, false)), (String
+    ((Ascii (true, true, false, false, true, true, true, false)), (String
+    ((Ascii (true, false, false, true, false, true, true, false)), (String
+    ((Ascii (true, true, true, true, false, true, true, false)), (String
+    ((Ascii (false, true, true, true, false, true, true, false)), (String
+    ((Ascii (true, true, true, true, true, false, true, false)), (String
+    ((Ascii (true, true, false, false, true, true, true, false)), (String
+    ((Ascii (true, false, true, false, false, true, true, false)), (String
+    ((Ascii (true, true, false, false, true, true, true, false)), (String
+    ((Ascii (true, true, false, false, true, true, true, false)), (String
+    ((Ascii (true, false, false, true, false, true, true, false)), (String
+    ((Ascii (true, true, true, true, false, true, true, false)), (String
+    ((Ascii (false, true, true, true, false, true, true, false)), (String
+    ((Ascii (true, true, true, true, true, false, true, false)), (String
+    ((Ascii (false, false, true, false, true, true, true, false)), (String
+    ((Ascii (true, false, false, true, false, true, true, false)), (String
+    ((Ascii (true, true, false, false, false, true, true, false)), (String
+    ((Ascii (true, true, false, true, false, true, true, false)), (String
+    ((Ascii (true, false, true, false, false, true, true, false)), (String
+    ((Ascii (false, false, true, false, true, true, true, false)),
+    EmptyString)))))))))))))))))))))))))))))))))))))))))))))))))))))))))))))))))))),
+    (e parse_tls_extension_session_ticket sx_ext)) :: (((String ((Ascii
+    (false, false, false, false, true, true, true, false)), (String ((Ascii
+    (true, false, false, false, false, true, true, false)), (String ((Ascii
+    (false, true, false, false, true, true, true, false)), (String ((Ascii
+    (true, true, false, false, true, true, true, false)), (String ((Ascii
+    (true, false, true, false, false, true, true, false)), (String ((Ascii
+    (true, true, true, true, true, false, true, false)), (String ((Ascii
+    (false, false, true, false, true, true, true, false)), (String ((Ascii
+    (false, false, true, true, false, true, true, false)), (String ((Ascii
+    (true, true, false, false, true, true, true, false)), (String ((Ascii
+    (true, true, true, true, true, false, true, false)), (String ((Ascii
+    (true, false, true, false, false, true, true, false)), (String ((Ascii
+    (false, false, false, true, true, true, true, false)), (String ((Ascii
+    (false, false, true, false, true, true, true, false)), (String ((Ascii
+    (true, false, true, false, false, true, true, false)), (String ((Ascii
+    (false, true, true, true, false, true, true, false)), (String ((Ascii
+    (true, true, false, false, true, true, true, false)), (String ((Ascii
+    (true, false, false, true, false, true, true, false)), (String ((Ascii
+    (true, true, true, true, false, true, true, false)), (String ((Ascii
+    (false, true, true, true, false, true, true, false)), (String ((Ascii
+    (true, true, true, true, true, false, true, false)), (String ((Ascii
+    (true, true, false, true, false, true, true, false)), (String ((Ascii
+    (true, false, true, false, false, true, true, false)), (String ((Ascii
+    (true, false, false, true, true, true, true, false)), (String ((Ascii
+    (true, true, true, true, true, false, true, false)), (String ((Ascii
+    (true, true, false, false, true, true, true, false)), (String ((Ascii
+    (false, false, false, true, false, true, true, false)), (String ((Ascii
+    (true, false, false, false, false, true, true, false)), (String ((Ascii
+    (false, true, false, false, true, true, true, false)), (String ((Ascii
+    (true, false, true, false, false, true, true, false)),
+    EmptyString)))))))))))))))))))))))))))))))))))))))))))))))))))))))))),
+    (e parse_tls_extension_key_share sx_ext)) :: (((String ((Ascii (false,
+    false, false, false, true, true, true, false)), (String ((Ascii (true,
+    false, false, false, false, true, true, false)), (String ((Ascii (false,
+    true, false, false, true, true, true, false)), (String ((Ascii (true,
+    true, false, false, true, true, true, false)), (String ((Ascii (true,
+    false, true, false, false, true, true, false)), (String ((Ascii (true,
+    true, true, true, true, false, true, false)), (String ((Ascii (false,
+    false, true, false, true, true, true, false)), (String ((Ascii (false,
+    false, true, true, false, true, true, false)), (String ((Ascii (true,
+    true, false, false, true, true, true, false)), (String ((Ascii (true,
+    true, true, true, true, false, true, false)), (String ((Ascii (true,
+    false, true, false, false, true, true, false)), (String ((Ascii (false,
+    false, false, true, true, true, true, false)), (String ((Ascii (false,
+    false, true, false, true, true, true, false)), (String ((Ascii (true,
+    false, true, false, false, true, true, false)), (String ((Ascii (false,
+    true, true, true, false, true, true, false)), (String ((Ascii (true,
+    true, false, false, true, true, true, false)), (String ((Ascii (true,
+    false, false, true, false, true, true, false)), (String ((Ascii (true,
+    true, true, true, false, true, true, false)), (String ((Ascii (false,
+    true, true, true, false, true, true, false)), (String ((Ascii (true,
+    true, true, true, true, false, true, false)), (String ((Ascii (false,
+    false, false, false, true, true, true, false)), (String ((Ascii (false,
+    true, false, false, true, true, true, false)), (String ((Ascii (true,
+    false, true, false, false, true, true, false)), (String ((Ascii (true,
+    true, true, true, true, false, true, false)), (String ((Ascii (true,
+    true, false, false, true, true, true, false)), (String ((Ascii (false,
+    false, false, true, false, true, true, false)), (String ((Ascii (true,
+    false, false, false, false, true, true, false)), (String ((Ascii (false,
+    true, false, false, true, true, true, false)), (String ((Ascii (true,
+    false, true, false, false, true, true, false)), (String ((Ascii (false,
+    false, true, false, false, true, true, false)), (String ((Ascii (true,
+    true, true, true, true, false, true, false)), (String ((Ascii (true,
+    true, false, true, false, true, true, false)), (String ((Ascii (true,
+    false, true, false, false, true, true, false)), (String ((Ascii (true,
+    false, false, true, true, true, true, false)),
+    EmptyString)))))))))))))))))))))))))))))))))))))))))))))))))))))))))))))))))))),
+    (e parse_tls_extension_pre_shared_key sx_ext)) :: (((String ((Ascii
+    (false, false, false, false, true, true, true, false)), (String ((Ascii
+    (true, false, false, false, false, true, true, false)), (String ((Ascii
+    (false, true, false, false, true, true, true, false)), (String ((Ascii
+    (true, true, false, false, true, true, true, false)), (String ((Ascii
+    (true, false, true, false, false, true, true, false)), (String ((Ascii
+    (true, true, true, true, true, false, true, false)), (String ((Ascii
+    (false, false, true, false, true, true, true, false)), (String ((Ascii
+    (false, false, true, true, false, true, true, false)), (String ((Ascii
+    (true, true, false, false, true, true, true, false)), (String ((Ascii
+    (true, true, true, true, true, false, true, false)), (String ((Ascii
+    (true, false, true, false, false, true, true, false)), (String ((Ascii
+    (false, false, false, true, true, true, true, false)), (String ((Ascii
+    (false, false, true, false, true, true, true, false)), (String ((Ascii
+    (true, false, true, false, false, true, true, false)), (String ((Ascii
+    (false, true, true, true, false, true, true, false)), (String ((Ascii
+    (true, true, false, false, true, true, true, false)), (String ((Ascii
+    (true, false, false, true, false, true, true, false)), (String ((Ascii
+    (true, true, true, true, false, true, true, false)), (String ((Ascii
+    (false, true, true, true, false, true, true, false)), (String ((Ascii
+    (true, true, true, true, true, false, true, false)), (String ((Ascii
+    (true, false, true, false, false, true, true, false)), (String ((Ascii
+    (true, false, false, false, false, true, true, false)), (String ((Ascii
+    (false, true, false, false, true, true, true, false)), (String ((Ascii
+    (false, false, true, true, false, true, true, false)), (String ((Ascii
+    (true, false, false, true, true, true, true, false)), (String ((Ascii
+    (true, true, true, true, true, false, true, false)), (String ((Ascii
+    (false, false, true, false, false, true, true, false)), (String ((Ascii
+    (true, false, false, false, false, true, true, false)), (String ((Ascii
+    (false, false, true, false, true, true, true, false)), (String ((Ascii
+    (true, false, false, false, false, true, true, false)),
+    EmptyString)))))))))))))))))))))))))))))))))))))))))))))))))))))))))))),
+    (e parse_tls_extension_early_data sx_ext)) :: (((String ((Ascii (false,
+    false, false, false, true, true, true, false)), (String ((Ascii (true,
+    false, false, false, false, true, true, false)), (String ((Ascii (false,
+    true, false, false, true, true, true, false)), (String ((Ascii (true,
+    true, false, false, true, true, true, false)), (String ((Ascii (true,
+    false, true, false, false, true, true, false)), (String ((Ascii (true,
+    true, true, true, true, false, true, false)), (String ((Ascii (false,
+    false, true, false, true, true, true, false)), (String ((Ascii (false,
+    false, true, true, false, true, true, false)), (String ((Ascii (true,
+    true, false, false, true, true, true, false)), (String ((Ascii (true,
+    true, true, true, true, false, true, false)), (String ((Ascii (true,
+    false, true, false, false, true, true, false)), (String ((Ascii (false,
+    false, false, true, true, true, true, false)), (String ((Ascii (false,
+    false, true, false, true, true, true, false)), (String ((Ascii (true,
+    false, true, false, false, true, true, false)), (String ((Ascii (false,
+    true, true, true, false, true, true, false)), (String ((Ascii (true,
+    true, false, false, true, true, true, false)), (String ((Ascii (true,
+    false, false, true, false, true, true, false)), (String ((Ascii (true,
+    true, true, true, false, true, true, false)), (String ((Ascii (false,
+    true, true, true, false, true, true, false)), (String ((Ascii (true,
+    true, true, true, true, false, true, false)), (String ((Ascii (true,
+    true, false, false, true, true, true, false)), (String ((Ascii (true,
+    false, true, false, true, true, true, false)), (String ((Ascii (false,
+    false, false, false, true, true, true, false)), (String ((Ascii (false,
+    false, false, false, true, true, true, false)), (String ((Ascii (true,
+    true, true, true, false, true, true, false)), (String ((Ascii (false,
+    true, false, false, true, true, true, false)), (String ((Ascii (false,
+    false, true, false, true, true, true, false)), (String ((Ascii (true,
+    false, true, false, false, true, true, false)), (String ((Ascii (false,
+    false, true, false, false, true, true, false)), (String ((Ascii (true,
+    true, true, true, true, false, true, false)), (String ((Ascii (false,
+    true, true, false, true, true, true, false)), (String ((Ascii (true,
+    false, true, false, false, true, true, false)), (String ((Ascii (false,
+    true, false, false, true, true, true, false)), (String ((Ascii (true,
+    true, false, false, true, true, true, false)), (String ((Ascii (true,
+    false, false, true, false, true, true, false)), (String ((Ascii (true,
+    true, true, true, false, true, true, false)), (String ((Ascii (false,
+    true, true, true, false, true, true, false)), (String ((Ascii (true,
+    true, false, false, true, true, true, false)),
+    EmptyString)))))))))))))))))))))))))))))))))))))))))))))))))))))))))))))))))))))))))))),
+    (e parse_tls_extension_supported_versions sx_ext)) :: (((String ((Ascii
+    (false, false, false, false, true, true, true, false)), (String ((Ascii
+    (true, false, false, false, false, true, true, false)), (String ((Ascii
+    (false, true, false, false, true, true, true, false)), (String ((Ascii
+    (true, true, false, false, true, true, true, false)), (String ((Ascii
+    (true, false, true, false, false, true, true, false)), (String ((Ascii
+    (true, true, true, true, true, false, true, false)), (String ((Ascii
+    (false, false, true, false, true, true, true, false)), (String ((Ascii
+    (false, false, true, true, false, true, true, false)), (String ((Ascii
+    (true, true, false, false, true, true, true, false)), (String ((Ascii
+    (true, true, true, true, true, false, true, false)), (String ((Ascii
+    (true, false, true, false, false, true, true, false)), (String ((Ascii
+    (false, false, false, true, true, true, true, false)), (String ((Ascii
+    (false, false, true, false, true, true, true, false)), (String ((Ascii
+    (true, false, true, false, false, true, true, false)), (String ((Ascii
+    (false, true, true, true, false, true, true, false)), (String ((Ascii
+    (true, true, false, false, true, true, true, false)), (String ((Ascii
+    (true, false, false, true, false, true, true, false)), (String ((Ascii
+    (true, true, true, true, false, true, true, false)), (String ((Ascii
+    (false, true, true, true, false, true, true, false)), (String ((Ascii
+    (true, true, true, true, true, false, true, false)), (String ((Ascii
+    (true, true, false, false, false, true, true, false)), (String ((Ascii
+    (true, true, true, true, false, true, true, false)), (String ((Ascii
+    (true, true, true, true, false, true, true, false)), (String ((Ascii
+    (true, true, false, true, false, true, true, false)), (String ((Ascii
+    (true, false, false, true, false, true, true, false)), (String ((Ascii
+    (true, false, true, false, false, true, true, false)),
+    EmptyString)))))))))))))))))))))))))))))))))))))))))))))))))))),
+    (e parse_tls_extension_cookie sx_ext)) :: (((String ((Ascii (false,
+    false, false, false, true, true, true, false)), (String ((Ascii (true,
+    false, false, false, false, true, true, false)), (String ((Ascii (false,
+    true, false, false, true, true, true, false)), (String ((Ascii (true,
+    true, false, false, true, true, true, false)), (String ((Ascii (true,
+    false, true, false, false, true, true, false)), (String ((Ascii (true,
+    true, true, true, true, false, true, false)), (String ((Ascii (false,
+    false, true, false, true, true, true, false)), (String ((Ascii (false,
+    false, true, true, false, true, true, false)), (String ((Ascii (true,
+    true, false, false, true, true, true, false)), (String ((Ascii (true,
+    true, true, true, true, false, true, false)), (String ((Ascii (true,
+    false, true, false, false, true, true, false)), (String ((Ascii (false,
+    false, false, true, true, true, true, false)), (String ((Ascii (false,
+    false, true, false, true, true, true, false)), (String ((Ascii (true,
+    false, true, false, false, true, true, false)), (String ((Ascii (false,
+    true, true, true, false, true, true, false)), (String ((Ascii (true,
+    true, false, false, true, true, true, false)), (String ((Ascii (true,
+    false, false, true, false, true, true, false)), (String ((Ascii (true,
+    true, true, true, false, true, true, false)), (String ((Ascii (false,
+    true, true, true, false, true, true, false)), (String ((Ascii (true,
+    true, true, true, true, false, true, false)), (String ((Ascii (false,
+    false, false, false, true, true, true, false)), (String ((Ascii (true,
+    true, false, false, true, true, true, false)), (String ((Ascii (true,
+    true, false, true, false, true, true, false)), (String ((Ascii (true,
+    true, true, true, true, false, true, false)), (String ((Ascii (true,
+    true, false, true, false, true, true, false)), (String ((Ascii (true,
+    false, true, false, false, true, true, false)), (String ((Ascii (true,
+    false, false, true, true, true, true, false)), (String ((Ascii (true,
+    true, true, true, true, false, true, false)), (String ((Ascii (true,
+    false, true, false, false, true, true, false)), (String ((Ascii (false,
+    false, false, true, true, true, true, false)), (String ((Ascii (true,
+    true, false, false, false, true, true, false)), (String ((Ascii (false,
+    false, false, true, false, true, true, false)), (String ((Ascii (true,
+    false, false, false, false, true, true, false)), (String ((Ascii (false,
+    true, true, true, false, true, true, false)), (String ((Ascii (true,
+    true, true, false, false, true, true, false)), (String ((Ascii (true,
+    false, true, false, false, true, true, false)), (String ((Ascii (true,
+    true, true, true, true, false, true, false)), (String ((Ascii (true,
+    false, true, true, false, true, true, false)), (String ((Ascii (true,
+    true, true, true, false, true, true, false)), (String ((Ascii (false,
+    false, true, false, false, true, true, false)), (String ((Ascii (true,
+    false, true, false, false, true, true, false)), (String ((Ascii (true,
+    true, false, false, true, true, true, false)),
+    EmptyString)))))))))))))))))))))))))))))))))))))))))))))))))))))))))))))))))))))))))))))))))))),
+    (e parse_tls_extension_psk_key_exchange_modes sx_ext)) :: (((String
+    ((Ascii (false, false, false, false, true, true, true, false)), (String
+    ((Ascii (true, false, false, false, false, true, true, false)), (String
+    ((Ascii (false, true, false, false, true, true, true, false)), (String
+    ((Ascii (true, true, false, false, true, true, true, false)), (String
+    ((Ascii (true, false, true, false, false, true, true, false)), (String
+    ((Ascii (true, true, true, true, true, false, true, false)), (String
+    ((Ascii (false, true, true, true, false, true, true, false)), (String
+    ((Ascii (true, false, false, false, false, true, true, false)), (String
+    ((Ascii (true, false, true, true, false, true, true, false)), (String
+    ((Ascii (true, false, true, false, false, true, true, false)), (String
+    ((Ascii (false, false, true, false, false, true, true, false)), (String
+    ((Ascii (true, true, true, true, true, false, true, false)), (String
+    ((Ascii (true, true, true, false, false, true, true, false)), (String
+    ((Ascii (false, true, false, false, true, true, true, false)), (String
+    ((Ascii (true, true, true, true, false, true, true, false)), (String
+    ((Ascii (true, false, true, false, true, true, true, false)), (String
+    ((Ascii (false, false, false, false, true, true, true, false)), (String
+    ((Ascii (true, true, false, false, true, true, true, false)),
+    EmptyString)))))))))))))))))))))))))))))))))))),
+    (e parse_named_groups (slist (fun x -> SN x)))) :: [])))))))))))))))))))))))))))))))))))
+
+(** val entries_kx : (string * entry_fn) list **)
+
+let entries_kx =
+  ((String ((Ascii (false, false, false, false, true, true, true, false)),
+    (String ((Ascii (true, false, false, false, false, true, true, false)),
+    (String ((Ascii (false, true, false, false, true, true, true, false)),
+    (String ((Ascii (true, true, false, false, true, true, true, false)),
+    (String ((Ascii (true, false, true, false, false, true, true, false)),
+    (String ((Ascii (true, true, true, true, true, false, true, false)),
+    (String ((Ascii (false, false, true, false, false, true, true, false)),
+    (String ((Ascii (false, false, false, true, false, true, true, false)),
+    (String ((Ascii (true, true, true, true, true, false, true, false)),
+    (String ((Ascii (false, false, false, false, true, true, true, false)),
+    (String ((Ascii (true, false, false, false, false, true, true, false)),
+    (String ((Ascii (false, true, false, false, true, true, true, false)),
+    (String ((Ascii (true, false, false, false, false, true, true, false)),
+    (String ((Ascii (true, false, true, true, false, true, true, false)),
+    (String ((Ascii (true, true, false, false, true, true, true, false)),
+    EmptyString)))))))))))))))))))))))))))))),
+    (e parse_dh_params sx_dh)) :: (((String ((Ascii (false, false, false,
+    false, true, true, true, false)), (String ((Ascii (true, false, false,
+    false, false, true, true, false)), (String ((Ascii (false, true, false,
+    false, true, true, true, false)), (String ((Ascii (true, true, false,
+    false, true, true, true, false)), (String ((Ascii (true, false, true,
+    false, false, true, true, false)), (String ((Ascii (true, true, true,
+    true, true, false, true, false)), (String ((Ascii (true, false, true,
+    false, false, true, true, false)), (String ((Ascii (true, true, false,
+    false, false, true, true, false)), (String ((Ascii (true, true, true,
+    true, true, false, true, false)), (String ((Ascii (false, false, false,
+    false, true, true, true, false)), (String ((Ascii (true, false, false,
+    false, false, true, true, false)), (String ((Ascii (false, true, false,
+    false, true, true, true, false)), (String ((Ascii (true, false, false,
+    false, false, true, true, false)), (String ((Ascii (true, false, true,
+    true, false, true, true, false)), (String ((Ascii (true, false, true,
+    false, false, true, true, false)), (String ((Ascii (false, false, true,
+    false, true, true, true, false)), (String ((Ascii (true, false, true,
+    false, false, true, true, false)), (String ((Ascii (false, true, false,
+    false, true, true, true, false)), (String ((Ascii (true, true, false,
+    false, true, true, true, false)),
+    EmptyString)))))))))))))))))))))))))))))))))))))),
+    (e parse_ec_parameters sx_ecp)) :: (((String ((Ascii (false, false,
+    false, false, true, true, true, false)), (String ((Ascii (true, false,
+    false, false, false, true, true, false)), (String ((Ascii (false, true,
+    false, false, true, true, true, false)), (String ((Ascii (true, true,
+    false, false, true, true, true, false)), (String ((Ascii (true, false,
+    true, false, false, true, true, false)), (String ((Ascii (true, true,
+    true, true, true, false, true, false)), (String ((Ascii (true, false,
+    true, false, false, true, true, false)), (String ((Ascii (true, true,
+    false, false, false, true, true, false)), (String ((Ascii (false, false,
+    true, false, false, true, true, false)), (String ((Ascii (false, false,
+    false, true, false, true, true, false)), (String ((Ascii (true, true,
+    true, true, true, false, true, false)), (String ((Ascii (false, false,
+    false, false, true, true, true, false)), (String ((Ascii (true, false,
+    false, false, false, true, true, false)), (String ((Ascii (false, true,
+    false, false, true, true, true, false)), (String ((Ascii (true, false,
+    false, false, false, true, true, false)), (String ((Ascii (true, false,
+    true, true, false, true, true, false)), (String ((Ascii (true, true,
+    false, false, true, true, true, false)),
+    EmptyString)))))))))))))))))))))))))))))))))),
+    (e parse_ecdh_params sx_ecdh)) :: (((String ((Ascii (false, false, false,
+    false, true, true, true, false)), (String ((Ascii (true, false, false,
+    false, false, true, true, false)), (String ((Ascii (false, true, false,
+    false, true, true, true, false)), (String ((Ascii (true, true, false,
+    false, true, true, true, false)), (String ((Ascii (true, false, true,
+    false, false, true, true, false)), (String ((Ascii (true, true, true,
+    true, true, false, true, false)), (String ((Ascii (false, false, true,
+    false, false, true, true, false)), (String ((Ascii (true, false, false,
+    true, false, true, true, false)), (String ((Ascii (true, true, true,
+    false, false, true, true, false)), (String ((Ascii (true, false, false,
+    true, false, true, true, false)), (String ((Ascii (false, false, true,
+    false, true, true, true, false)), (String ((Ascii (true, false, false,
+    false, false, true, true, false)), (String ((Ascii (false, false, true,
+    true, false, true, true, false)), (String ((Ascii (false, false, true,
+    true, false, true, true, false)), (String ((Ascii (true, false, false,
+    true, true, true, true, false)), (String ((Ascii (true, true, true, true,
+    true, false, true, false)), (String ((Ascii (true, true, false, false,
+    true, true, true, false)), (String ((Ascii (true, false, false, true,
+    false, true, true, false)), (String ((Ascii (true, true, true, false,
+    false, true, true, false)), (String ((Ascii (false, true, true, true,
+    false, true, true, false)), (String ((Ascii (true, false, true, false,
+    false, true, true, false)), (String ((Ascii (false, false, true, false,
+    false, true, true, false)), (String ((Ascii (true, true, true, true,
+    true, false, true, false)), (String ((Ascii (true, true, true, true,
+    false, true, true, false)), (String ((Ascii (false, false, true, true,
+    false, true, true, false)), (String ((Ascii (false, false, true, false,
+    false, true, true, false)),
+    EmptyString)))))))))))))))))))))))))))))))))))))))))))))))))))),
+    (e parse_digitally_signed_old sx_ds)) :: (((String ((Ascii (false, false,
+    false, false, true, true, true, false)), (String ((Ascii (true, false,
+    false, false, false, true, true, false)), (String ((Ascii (false, true,
+    false, false, true, true, true, false)), (String ((Ascii (true, true,
+    false, false, true, true, true, false)), (String ((Ascii (true, false,
+    true, false, false, true, true, false)), (String ((Ascii (true, true,
+    true, true, true, false, true, false)), (String ((Ascii (false, false,
+    true, false, false, true, true, false)), (String ((Ascii (true, false,
+    false, true, false, true, true, false)), (String ((Ascii (true, true,
+    true, false, false, true, true, false)), (String ((Ascii (true, false,
+    false, true, false, true, true, false)), (String ((Ascii (false, false,
+    true, false, true, true, true, false)), (String ((Ascii (true, false,
+    false, false, false, true, true, false)), (String ((Ascii (false, false,
+    true, true, false, true, true, false)), (String ((Ascii (false, false,
+    true, true, false, true, true, false)), (String ((Ascii (true, false,
+    false, true, true, true, true, false)), (String ((Ascii (true, true,
+    true, true, true, false, true, false)), (String ((Ascii (true, true,
+    false, false, true, true, true, false)), (String ((Ascii (true, false,
+    false, true, false, true, true, false)), (String ((Ascii (true, true,
+    true, false, false, true, true, false)), (String ((Ascii (false, true,
+    true, true, false, true, true, false)), (String ((Ascii (true, false,
+    true, false, false, true, true, false)), (String ((Ascii (false, false,
+    true, false, false, true, true, false)),
+    EmptyString)))))))))))))))))))))))))))))))))))))))))))),
+    (e parse_digitally_signed sx_ds)) :: (((String ((Ascii (false, false,
+    false, false, true, true, true, false)), (String ((Ascii (true, false,
+    false, false, false, true, true, false)), (String ((Ascii (false, true,
+    false, false, true, true, true, false)), (String ((Ascii (true, true,
+    false, false, true, true, true, false)), (String ((Ascii (true, false,
+    true, false, false, true, true, false)), (String ((Ascii (true, true,
+    true, true, true, false, true, false)), (String ((Ascii (true, true,
+    false, false, false, true, true, false)), (String ((Ascii (true, true,
+    true, true, false, true, true, false)), (String ((Ascii (false, true,
+    true, true, false, true, true, false)), (String ((Ascii (false, false,
+    true, false, true, true, true, false)), (String ((Ascii (true, false,
+    true, false, false, true, true, false)), (String ((Ascii (false, true,
+    true, true, false, true, true, false)), (String ((Ascii (false, false,
+    true, false, true, true, true, false)), (String ((Ascii (true, true,
+    true, true, true, false, true, false)), (String ((Ascii (true, false,
+    false, false, false, true, true, false)), (String ((Ascii (false, true,
+    true, true, false, true, true, false)), (String ((Ascii (false, false,
+    true, false, false, true, true, false)), (String ((Ascii (true, true,
+    true, true, true, false, true, false)), (String ((Ascii (true, true,
+    false, false, true, true, true, false)), (String ((Ascii (true, false,
+    false, true, false, true, true, false)), (String ((Ascii (true, true,
+    true, false, false, true, true, false)), (String ((Ascii (false, true,
+    true, true, false, true, true, false)), (String ((Ascii (true, false,
+    false, false, false, true, true, false)), (String ((Ascii (false, false,
+    true, false, true, true, true, false)), (String ((Ascii (true, false,
+    true, false, true, true, true, false)), (String ((Ascii (false, true,
+    false, false, true, true, true, false)), (String ((Ascii (true, false,
+    true, false, false, true, true, false)), (String ((Ascii (true, true,
+    true, true, true, false, true, false)), (String ((Ascii (false, false,
+    true, false, false, true, true, false)), (String ((Ascii (false, false,
+    false, true, false, true, true, false)),
+    EmptyString)))))))))))))))))))))))))))))))))))))))))))))))))))))))))))),
+    (eb (parse_content_and_signature parse_dh_params) (fun p0 ->
+      c EmptyString ((sx_dh (fst p0)) :: ((sx_ds (snd p0)) :: []))))) :: (((String
+    ((Ascii (false, false, false, false, true, true, true, false)), (String
+    ((Ascii (true, false, false, false, false, true, true, false)), (String
+    ((Ascii (false, true, false, false, true, true, true, false)), (String
+    ((Ascii (true, true, false, false, true, true, true, false)), (String
+    ((Ascii (true, false, true, false, false, true, true, false)), (String
+    ((Ascii (true, true, true, true, true, false, true, false)), (String
+    ((Ascii (true, true, false, false, false, true, true, false)), (String
+    ((Ascii (true, true, true, true, false, true, true, false)), (String
+    ((Ascii (false, true, true, true, false, true, true, false)), (String
+    ((Ascii (false, false, true, false, true, true, true, false)), (String
+    ((Ascii (true, false, true, false, false, true, true, false)), (String
+    ((Ascii (false, true, true, true, false, true, true, false)), (String
+    ((Ascii (false, false, true, false, true, true, true, false)), (String
+    ((Ascii (true, true, true, true, true, false, true, false)), (String
+    ((Ascii (true, false, false, false, false, true, true, false)), (String
+    ((Ascii (false, true, true, true, false, true, true, false)), (String
+    ((Ascii (false, false, true, false, false, true, true, false)), (String
+    ((Ascii (true, true, true, true, true, false, true, false)), (String
+    ((Ascii (true, true, false, false, true, true, true, false)), (String
+    ((Ascii (true, false, false, true, false, true, true, false)), (String
+    ((Ascii (true, true, true, false, false, true, true, false)), (String
+    ((Ascii (false, true, true, true, false, true, true, false)), (String
+    ((Ascii (true, false, false, false, false, true, true, false)), (String
+    ((Ascii (false, false, true, false, true, true, true, false)), (String
+    ((Ascii (true, false, true, false, true, true, true, false)), (String
+    ((Ascii (false, true, false, false, true, true, true, false)), (String
+    ((Ascii (true, false, true, false, false, true, true, false)), (String
+    ((Ascii (true, true, true, true, true, false, true, false)), (String
+    ((Ascii (true, false, true, false, false, true, true, false)), (String
+    ((Ascii (true, true, false, false, false, true, true, false)), (String
+    ((Ascii (false, false, true, false, false, true, true, false)), (String
+    ((Ascii (false, false, false, true, false, true, true, false)),
+    EmptyString)))))))))))))))))))))))))))))))))))))))))))))))))))))))))))))))),
+    (eb (parse_content_and_signature parse_ecdh_params) (fun p0 ->
+      c EmptyString ((sx_ecdh (fst p0)) :: ((sx_ds (snd p0)) :: []))))) :: (((String
+    ((Ascii (false, false, false, false, true, true, true, false)), (String
+    ((Ascii (true, false, false, false, false, true, true, false)), (String
+    ((Ascii (false, true, false, false, true, true, true, false)), (String
+    ((Ascii (true, true, false, false, true, true, true, false)), (String
+    ((Ascii (true, false, true, false, false, true, true, false)), (String
+    ((Ascii (true, true, true, true, true, false, true, false)), (String
+    ((Ascii (true, true, false, false, false, true, true, false)), (String
+    ((Ascii (false, false, true, false, true, true, true, false)), (String
+    ((Ascii (true, true, true, true, true, false, true, false)), (String
+    ((Ascii (true, true, false, false, true, true, true, false)), (String
+    ((Ascii (true, false, false, true, false, true, true, false)), (String
+    ((Ascii (true, true, true, false, false, true, true, false)), (String
+    ((Ascii (false, true, true, true, false, true, true, false)), (String
+    ((Ascii (true, false, true, false, false, true, true, false)), (String
+    ((Ascii (false, false, true, false, false, true, true, false)), (String
+    ((Ascii (true, true, true, true, true, false, true, false)), (String
+    ((Ascii (true, true, false, false, false, true, true, false)), (String
+    ((Ascii (true, false, true, false, false, true, true, false)), (String
+    ((Ascii (false, true, false, false, true, true, true, false)), (String
+    ((Ascii (false, false, true, false, true, true, true, false)), (String
+    ((Ascii (true, false, false, true, false, true, true, false)), (String
+    ((Ascii (false, true, true, false, false, true, true, false)), (String
+    ((Ascii (true, false, false, true, false, true, true, false)), (String
+    ((Ascii (true, true, false, false, false, true, true, false)), (String
+    ((Ascii (true, false, false, false, false, true, true, false)), (String
+    ((Ascii (false, false, true, false, true, true, true, false)), (String
+    ((Ascii (true, false, true, false, false, true, true, false)), (String
+    ((Ascii (true, true, true, true, true, false, true, false)), (String
+    ((Ascii (false, false, true, false, true, true, true, false)), (String
+    ((Ascii (true, false, false, true, false, true, true, false)), (String
+    ((Ascii (true, false, true, true, false, true, true, false)), (String
+    ((Ascii (true, false, true, false, false, true, true, false)), (String
+    ((Ascii (true, true, false, false, true, true, true, false)), (String
+    ((Ascii (false, false, true, false, true, true, true, false)), (String
+    ((Ascii (true, false, false, false, false, true, true, false)), (String
+    ((Ascii (true, false, true, true, false, true, true, false)), (String
+    ((Ascii (false, false, false, false, true, true, true, false)),
+    EmptyString)))))))))))))))))))))))))))))))))))))))))))))))))))))))))))))))))))))))))),
+    (e parse_ct_signed_certificate_timestamp sx_sct)) :: (((String ((Ascii
+    (false, false, false, false, true, true, true, false)), (String ((Ascii
+    (true, false, false, false, false, true, true, false)), (String ((Ascii
+    (false, true, false, false, true, true, true, false)), (String ((Ascii
+    (true, true, false, false, true, true, true, false)), (String ((Ascii
+    (true, false, true, false, false, true, true, false)), (String ((Ascii
+    (true, true, true, true, true, false, true, false)), (String ((Ascii
+    (true, true, false, false, false, true, true, false)), (String ((Ascii
+    (false, false, true, false, true, true, true, false)), (String ((Ascii
+    (true, true, true, true, true, false, true, false)), (String ((Ascii
+    (true, true, false, false, true, true, true, false)), (String ((Ascii
+    (true, false, false, true, false, true, true, false)), (String ((Ascii
+    (true, true, true, false, false, true, true, false)), (String ((Ascii
+    (false, true, true, true, false, true, true, false)), (String ((Ascii
+    (true, false, true, false, false, true, true, false)), (String ((Ascii
+    (false, false, true, false, false, true, true, false)), (String ((Ascii
+    (true, true, true, true, true, false, true, false)), (String ((Ascii
+    (true, true, false, false, false, true, true, false)), (String ((Ascii
+    (true, false, true, false, false, true, true, false)), (String ((Ascii
+    (false, true, false, false, true, true, true, false)), (String ((Ascii
+    (false, false, true, false, true, true, true, false)), (String ((Ascii
+    (true, false, false, true, false, true, true, false)), (String ((Ascii
+    (false, true, true, false, false, true, true, false)), (String ((Ascii
+    (true, false, false, true, false, true, true, false)), (String ((Ascii
+    (true, true, false, false, false, true, true, false)), (String ((Ascii
+    (true, false, false, false, false, true, true, false)), (String ((Ascii
+    (false, false, true, false, true, true, true, false)), (String ((Ascii
+    (true, false, true, false, false, true, true, false)), (String ((Ascii
+    (true, true, true, true, true, false, true, false)), (String ((Ascii
+    (false, false, true, false, true, true, true, false)), (String ((Ascii
+    (true, false, false, true, false, true, true, false)), (String ((Ascii
+    (true, false, true, true, false, true, true, false)), (String ((Ascii
+    (true, false, true, false, false, true, true, false)), (String ((Ascii
+    (true, true, false, false, true, true, true, false)), (String ((Ascii
+    (false, false, true, false, true, true, true, false)), (String ((Ascii
+    (true, false, false, false, false, true, true, false)), (String ((Ascii
+    (true, false, true, true, false, true, true, false)), (String ((Ascii
+    (false, false, false, false, true, true, true, false)), (String ((Ascii
+    (true, true, true, true, true, false, true, false)), (String ((Ascii
+    (false, false, true, true, false, true, true, false)), (String ((Ascii
+    (true, false, false, true, false, true, true, false)), (String ((Ascii
+    (true, true, false, false, true, true, true, false)), (String ((Ascii
+    (false, false, true, false, true, true, true, false)),
+    EmptyString)))))))))))))))))))))))))))))))))))))))))))))))))))))))))))))))))))))))))))))))))))),
+    (e parse_ct_signed_certificate_timestamp_list (slist sx_sct))) :: (((String
+    ((Ascii (true, false, true, false, false, false, true, false)), (String
+    ((Ascii (true, true, false, false, false, false, true, false)), (String
+    ((Ascii (false, false, false, false, true, false, true, false)), (String
+    ((Ascii (true, true, true, true, false, true, true, false)), (String
+    ((Ascii (true, false, false, true, false, true, true, false)), (String
+    ((Ascii (false, true, true, true, false, true, true, false)), (String
+    ((Ascii (false, false, true, false, true, true, true, false)), (String
+    ((Ascii (false, true, false, true, true, true, false, false)), (String
+    ((Ascii (false, true, false, true, true, true, false, false)), (String
+    ((Ascii (false, false, false, false, true, true, true, false)), (String
+    ((Ascii (true, false, false, false, false, true, true, false)), (String
+    ((Ascii (false, true, false, false, true, true, true, false)), (String
+    ((Ascii (true, true, false, false, true, true, true, false)), (String
+    ((Ascii (true, false, true, false, false, true, true, false)),
+    EmptyString)))))))))))))))))))))))))))),
+    (e parse_ec_point (fun x -> SS x))) :: (((String ((Ascii (true, false,
+    true, false, false, false, true, false)), (String ((Ascii (true, true,
+    false, false, false, false, true, false)), (String ((Ascii (true, true,
+    false, false, false, false, true, false)), (String ((Ascii (true, false,
+    true, false, true, true, true, false)), (String ((Ascii (false, true,
+    false, false, true, true, true, false)), (String ((Ascii (false, true,
+    true, false, true, true, true, false)), (String ((Ascii (true, false,
+    true, false, false, true, true, false)), (String ((Ascii (false, true,
+    false, true, true, true, false, false)), (String ((Ascii (false, true,
+    false, true, true, true, false, false)), (String ((Ascii (false, false,
+    false, false, true, true, true, false)), (String ((Ascii (true, false,
+    false, false, false, true, true, false)), (String ((Ascii (false, true,
+    false, false, true, true, true, false)), (String ((Ascii (true, true,
+    false, false, true, true, true, false)), (String ((Ascii (true, false,
+    true, false, false, true, true, false)),
+    EmptyString)))))))))))))))))))))))))))),
+    (e parse_ec_curve sx_pair_ss)) :: (((String ((Ascii (true, false, true,
+    false, false, false, true, false)), (String ((Ascii (false, false, false,
+    true, true, true, true, false)), (String ((Ascii (false, false, false,
+    false, true, true, true, false)), (String ((Ascii (false, false, true,
+    true, false, true, true, false)), (String ((Ascii (true, false, false,
+    true, false, true, true, false)), (String ((Ascii (true, true, false,
+    false, false, true, true, false)), (String ((Ascii (true, false, false,
+    true, false, true, true, false)), (String ((Ascii (false, false, true,
+    false, true, true, true, false)), (String ((Ascii (false, false, false,
+    false, true, false, true, false)), (String ((Ascii (false, true, false,
+    false, true, true, true, false)), (String ((Ascii (true, false, false,
+    true, false, true, true, false)), (String ((Ascii (true, false, true,
+    true, false, true, true, false)), (String ((Ascii (true, false, true,
+    false, false, true, true, false)), (String ((Ascii (true, true, false,
+    false, false, false, true, false)), (String ((Ascii (true, true, true,
+    true, false, true, true, false)), (String ((Ascii (false, true, true,
+    true, false, true, true, false)), (String ((Ascii (false, false, true,
+    false, true, true, true, false)), (String ((Ascii (true, false, true,
+    false, false, true, true, false)), (String ((Ascii (false, true, true,
+    true, false, true, true, false)), (String ((Ascii (false, false, true,
+    false, true, true, true, false)), (String ((Ascii (false, true, false,
+    true, true, true, false, false)), (String ((Ascii (false, true, false,
+    true, true, true, false, false)), (String ((Ascii (false, false, false,
+    false, true, true, true, false)), (String ((Ascii (true, false, false,
+    false, false, true, true, false)), (String ((Ascii (false, true, false,
+    false, true, true, true, false)), (String ((Ascii (true, true, false,
+    false, true, true, true, false)), (String ((Ascii (true, false, true,
+    false, false, true, true, false)),
+    EmptyString)))))))))))))))))))))))))))))))))))))))))))))))))))))),
+    (e parse_explicit_prime (fun c0 -> sx_ecc (EcExplicitPrime c0)))) :: (((String
+    ((Ascii (true, false, true, false, false, false, true, false)), (String
+    ((Ascii (true, true, false, false, false, false, true, false)), (String
+    ((Ascii (false, false, false, false, true, false, true, false)), (String
+    ((Ascii (true, false, false, false, false, true, true, false)), (String
+    ((Ascii (false, true, false, false, true, true, true, false)), (String
+    ((Ascii (true, false, false, false, false, true, true, false)), (String
+    ((Ascii (true, false, true, true, false, true, true, false)), (String
+    ((Ascii (true, false, true, false, false, true, true, false)), (String
+    ((Ascii (false, false, true, false, true, true, true, false)), (String
+    ((Ascii (true, false, true, false, false, true, true, false)), (String
+    ((Ascii (false, true, false, false, true, true, true, false)), (String
+    ((Ascii (true, true, false, false, true, true, true, false)), (String
+    ((Ascii (true, true, false, false, false, false, true, false)), (String
+    ((Ascii (true, true, true, true, false, true, true, false)), (String
+    ((Ascii (false, true, true, true, false, true, true, false)), (String
+    ((Ascii (false, false, true, false, true, true, true, false)), (String
+    ((Ascii (true, false, true, false, false, true, true, false)), (String
+    ((Ascii (false, true, true, true, false, true, true, false)), (String
+    ((Ascii (false, false, true, false, true, true, true, false)), (String
+    ((Ascii (false, true, false, true, true, true, false, false)), (String
+    ((Ascii (false, true, false, true, true, true, false, false)), (String
+    ((Ascii (false, false, false, false, true, true, true, false)), (String
+    ((Ascii (true, false, false, false, false, true, true, false)), (String
+    ((Ascii (false, true, false, false, true, true, true, false)), (String
+    ((Ascii (true, true, false, false, true, true, true, false)), (String
+    ((Ascii (true, false, true, false, false, true, true, false)),
+    EmptyString)))))))))))))))))))))))))))))))))))))))))))))))))))),
+    (e1 parse_ec_parameters_content sx_ecc)) :: []))))))))))))
+
+(** val entries_dtls : (string * entry_fn) list **)
+
+let entries_dtls =
+  ((String ((Ascii (false, false, false, false, true, true, true, false)),
+    (String ((Ascii (true, false, false, false, false, true, true, false)),
+    (String ((Ascii (false, true, false, false, true, true, true, false)),
+    (String ((Ascii (true, true, false, false, true, true, true, false)),
+    (String ((Ascii (true, false, true, false, false, true, true, false)),
+    (String ((Ascii (true, true, true, true, true, false, true, false)),
+    (String ((Ascii (false, false, true, false, false, true, true, false)),
+    (String ((Ascii (false, false, true, false, true, true, true, false)),
+    (String ((Ascii (false, false, true, true, false, true, true, false)),
+    (String ((Ascii (true, true, false, false, true, true, true, false)),
+    (String ((Ascii (true, true, true, true, true, false, true, false)),
+    (String ((Ascii (false, true, false, false, true, true, true, false)),
+    (String ((Ascii (true, false, true, false, false, true, true, false)),
+    (String ((Ascii (true, true, false, false, false, true, true, false)),
+    (String ((Ascii (true, true, true, true, false, true, true, false)),
+    (String ((Ascii (false, true, false, false, true, true, true, false)),
+    (String ((Ascii (false, false, true, false, false, true, true, false)),
+    (String ((Ascii (true, true, true, true, true, false, true, false)),
+    (String ((Ascii (false, false, false, true, false, true, true, false)),
+    (String ((Ascii (true, false, true, false, false, true, true, false)),
+    (String ((Ascii (true, false, false, false, false, true, true, false)),
+    (String ((Ascii (false, false, true, false, false, true, true, false)),
+    (String ((Ascii (true, false, true, false, false, true, true, false)),
+    (String ((Ascii (false, true, false, false, true, true, true, false)),
+    EmptyString)))))))))))))))))))))))))))))))))))))))))))))))),
+    (e parse_dtls_record_header sx_dhdr)) :: (((String ((Ascii (false, false,
+    false, false, true, true, true, false)), (String ((Ascii (true, false,
+    false, false, false, true, true, false)), (String ((Ascii (false, true,
+    false, false, true, true, true, false)), (String ((Ascii (true, true,
+    false, false, true, true, true, false)), (String ((Ascii (true, false,
+    true, false, false, true, true, false)), (String ((Ascii (true, true,
+    true, true, true, false, true, false)), (String ((Ascii (false, false,
+    true, false, false, true, true, false)), (String ((Ascii (false, false,
+    true, false, true, true, true, false)), (String ((Ascii (false, false,
+    true, true, false, true, true, false)), (String ((Ascii (true, true,
+    false, false, true, true, true, false)), (String ((Ascii (true, true,
+    true, true, true, false, true, false)), (String ((Ascii (true, false,
+    true, true, false, true, true, false)), (String ((Ascii (true, false,
+    true, false, false, true, true, false)), (String ((Ascii (true, true,
+    false, false, true, true, true, false)), (String ((Ascii (true, true,
+    false, false, true, true, true, false)), (String ((Ascii (true, false,
+    false, false, false, true, true, false)), (String ((Ascii (true, true,
+    true, false, false, true, true, false)), (String ((Ascii (true, false,
+    true, false, false, true, true, false)), (String ((Ascii (true, true,
+    true, true, true, false, true, false)), (String ((Ascii (false, false,
+    false, true, false, true, true, false)), (String ((Ascii (true, false,
+    false, false, false, true, true, false)), (String ((Ascii (false, true,
+    true, true, false, true, true, false)), (String ((Ascii (false, false,
+    true, false, false, true, true, false)), (String ((Ascii (true, true,
+    false, false, true, true, true, false)), (String ((Ascii (false, false,
+    false, true, false, true, true, false)), (String ((Ascii (true, false,
+    false, false, false, true, true, false)), (String ((Ascii (true, true,
+    false, true, false, true, true, false)), (String ((Ascii (true, false,
+    true, false, false, true, true, false)),
+    EmptyString)))))))))))))))))))))))))))))))))))))))))))))))))))))))),
+    (e parse_dtls_message_handshake sx_dmsg)) :: (((String ((Ascii (false,
+    false, false, false, true, true, true, false)), (String ((Ascii (true,
+    false, false, false, false, true, true, false)), (String ((Ascii (false,
+    true, false, false, true, true, true, false)), (String ((Ascii (true,
+    true, false, false, true, true, true, false)), (String ((Ascii (true,
+    false, true, false, false, true, true, false)), (String ((Ascii (true,
+    true, true, true, true, false, true, false)), (String ((Ascii (false,
+    false, true, false, false, true, true, false)), (String ((Ascii (false,
+    false, true, false, true, true, true, false)), (String ((Ascii (false,
+    false, true, true, false, true, true, false)), (String ((Ascii (true,
+    true, false, false, true, true, true, false)), (String ((Ascii (true,
+    true, true, true, true, false, true, false)), (String ((Ascii (true,
+    false, true, true, false, true, true, false)), (String ((Ascii (true,
+    false, true, false, false, true, true, false)), (String ((Ascii (true,
+    true, false, false, true, true, true, false)), (String ((Ascii (true,
+    true, false, false, true, true, true, false)), (String ((Ascii (true,
+    false, false, false, false, true, true, false)), (String ((Ascii (true,
+    true, true, false, false, true, true, false)), (String ((Ascii (true,
+    false, true, false, false, true, true, false)), (String ((Ascii (true,
+    true, true, true, true, false, true, false)), (String ((Ascii (true,
+    true, false, false, false, true, true, false)), (String ((Ascii (false,
+    false, false, true, false, true, true, false)), (String ((Ascii (true,
+    false, false, false, false, true, true, false)), (String ((Ascii (false,
+    true, true, true, false, true, true, false)), (String ((Ascii (true,
+    true, true, false, false, true, true, false)), (String ((Ascii (true,
+    false, true, false, false, true, true, false)), (String ((Ascii (true,
+    true, false, false, false, true, true, false)), (String ((Ascii (true,
+    false, false, true, false, true, true, false)), (String ((Ascii (false,
+    false, false, false, true, true, true, false)), (String ((Ascii (false,
+    false, false, true, false, true, true, false)), (String ((Ascii (true,
+    false, true, false, false, true, true, false)), (String ((Ascii (false,
+    true, false, false, true, true, true, false)), (String ((Ascii (true,
+    true, false, false, true, true, true, false)), (String ((Ascii (false,
+    false, false, false, true, true, true, false)), (String ((Ascii (true,
+    false, true, false, false, true, true, false)), (String ((Ascii (true,
+    true, false, false, false, true, true, false)),
+    EmptyString)))))))))))))))))))))))))))))))))))))))))))))))))))))))))))))))))))))),
+    (e parse_dtls_message_changecipherspec sx_dmsg)) :: (((String ((Ascii
+    (false, false, false, false, true, true, true, false)), (String ((Ascii
+    (true, false, false, false, false, true, true, false)), (String ((Ascii
+    (false, true, false, false, true, true, true, false)), (String ((Ascii
+    (true, true, false, false, true, true, true, false)), (String ((Ascii
+    (true, false, true, false, false, true, true, false)), (String ((Ascii
+    (true, true, true, true, true, false, true, false)), (String ((Ascii
+    (false, false, true, false, false, true, true, false)), (String ((Ascii
+    (false, false, true, false, true, true, true, false)), (String ((Ascii
+    (false, false, true, true, false, true, true, false)), (String ((Ascii
+    (true, true, false, false, true, true, true, false)), (String ((Ascii
+    (true, true, true, true, true, false, true, false)), (String ((Ascii
+    (true, false, true, true, false, true, true, false)), (String ((Ascii
+    (true, false, true, false, false, true, true, false)), (String ((Ascii
+    (true, true, false, false, true, true, true, false)), (String ((Ascii
+    (true, true, false, false, true, true, true, false)), (String ((Ascii
+    (true, false, false, false, false, true, true, false)), (String ((Ascii
+    (true, true, true, false, false, true, true, false)), (String ((Ascii
+    (true, false, true, false, false, true, true, false)), (String ((Ascii
+    (true, true, true, true, true, false, true, false)), (String ((Ascii
+    (true, false, false, false, false, true, true, false)), (String ((Ascii
+    (false, false, true, true, false, true, true, false)), (String ((Ascii
+    (true, false, true, false, false, true, true, false)), (String ((Ascii
+    (false, true, false, false, true, true, true, false)), (String ((Ascii
+    (false, false, true, false, true, true, true, false)),
+    EmptyString)))))))))))))))))))))))))))))))))))))))))))))))),
+    (e parse_dtls_message_alert sx_dmsg)) :: (((String ((Ascii (false, false,
+    false, false, true, true, true, false)), (String ((Ascii (true, false,
+    false, false, false, true, true, false)), (String ((Ascii (false, true,
+    false, false, true, true, true, false)), (String ((Ascii (true, true,
+    false, false, true, true, true, false)), (String ((Ascii (true, false,
+    true, false, false, true, true, false)), (String ((Ascii (true, true,
+    true, true, true, false, true, false)), (String ((Ascii (false, false,
+    true, false, false, true, true, false)), (String ((Ascii (false, false,
+    true, false, true, true, true, false)), (String ((Ascii (false, false,
+    true, true, false, true, true, false)), (String ((Ascii (true, true,
+    false, false, true, true, true, false)), (String ((Ascii (true, true,
+    true, true, true, false, true, false)), (String ((Ascii (false, true,
+    false, false, true, true, true, false)), (String ((Ascii (true, false,
+    true, false, false, true, true, false)), (String ((Ascii (true, true,
+    false, false, false, true, true, false)), (String ((Ascii (true, true,
+    true, true, false, true, true, false)), (String ((Ascii (false, true,
+    false, false, true, true, true, false)), (String ((Ascii (false, false,
+    true, false, false, true, true, false)), (String ((Ascii (true, true,
+    true, true, true, false, true, false)), (String ((Ascii (true, true,
+    true, false, true, true, true, false)), (String ((Ascii (true, false,
+    false, true, false, true, true, false)), (String ((Ascii (false, false,
+    true, false, true, true, true, false)), (String ((Ascii (false, false,
+    false, true, false, true, true, false)), (String ((Ascii (true, true,
+    true, true, true, false, true, false)), (String ((Ascii (false, false,
+    false, true, false, true, true, false)), (String ((Ascii (true, false,
+    true, false, false, true, true, false)), (String ((Ascii (true, false,
+    false, false, false, true, true, false)), (String ((Ascii (false, false,
+    true, false, false, true, true, false)), (String ((Ascii (true, false,
+    true, false, false, true, true, false)), (String ((Ascii (false, true,
+    false, false, true, true, true, false)),
+    EmptyString)))))))))))))))))))))))))))))))))))))))))))))))))))))))))),
+    (e3d parse_dtls_record_with_header (slist sx_dmsg))) :: (((String ((Ascii
+    (false, false, false, false, true, true, true, false)), (String ((Ascii
+    (true, false, false, false, false, true, true, false)), (String ((Ascii
+    (false, true, false, false, true, true, true, false)), (String ((Ascii
+    (true, true, false, false, true, true, true, false)), (String ((Ascii
+    (true, false, true, false, false, true, true, false)), (String ((Ascii
+    (true, true, true, true, true, false, true, false)), (String ((Ascii
+    (false, false, true, false, false, true, true, false)), (String ((Ascii
+    (false, false, true, false, true, true, true, false)), (String ((Ascii
+    (false, false, true, true, false, true, true, false)), (String ((Ascii
+    (true, true, false, false, true, true, true, false)), (String ((Ascii
+    (true, true, true, true, true, false, true, false)), (String ((Ascii
+    (false, false, false, false, true, true, true, false)), (String ((Ascii
+    (false, false, true, true, false, true, true, false)), (String ((Ascii
+    (true, false, false, false, false, true, true, false)), (String ((Ascii
+    (true, false, false, true, false, true, true, false)), (String ((Ascii
+    (false, true, true, true, false, true, true, false)), (String ((Ascii
+    (false, false, true, false, true, true, true, false)), (String ((Ascii
+    (true, false, true, false, false, true, true, false)), (String ((Ascii
+    (false, false, false, true, true, true, true, false)), (String ((Ascii
+    (false, false, true, false, true, true, true, false)), (String ((Ascii
+    (true, true, true, true, true, false, true, false)), (String ((Ascii
+    (false, true, false, false, true, true, true, false)), (String ((Ascii
+    (true, false, true, false, false, true, true, false)), (String ((Ascii
+    (true, true, false, false, false, true, true, false)), (String ((Ascii
+    (true, true, true, true, false, true, true, false)), (String ((Ascii
+    (false, true, false, false, true, true, true, false)), (String ((Ascii
+    (false, false, true, false, false, true, true, false)),
+    EmptyString)))))))))))))))))))))))))))))))))))))))))))))))))))))),
+    (e parse_dtls_plaintext_record sx_dplain)) :: (((String ((Ascii (false,
+    false, false, false, true, true, true, false)), (String ((Ascii (true,
+    false, false, false, false, true, true, false)), (String ((Ascii (false,
+    true, false, false, true, true, true, false)), (String ((Ascii (true,
+    true, false, false, true, true, true, false)), (String ((Ascii (true,
+    false, true, false, false, true, true, false)), (String ((Ascii (true,
+    true, true, true, true, false, true, false)), (String ((Ascii (false,
+    false, true, false, false, true, true, false)), (String ((Ascii (false,
+    false, true, false, true, true, true, false)), (String ((Ascii (false,
+    false, true, true, false, true, true, false)), (String ((Ascii (true,
+    true, false, false, true, true, true, false)), (String ((Ascii (true,
+    true, true, true, true, false, true, false)), (String ((Ascii (false,
+    false, false, false, true, true, true, false)), (String ((Ascii (false,
+    false, true, true, false, true, true, false)), (String ((Ascii (true,
+    false, false, false, false, true, true, false)), (String ((Ascii (true,
+    false, false, true, false, true, true, false)), (String ((Ascii (false,
+    true, true, true, false, true, true, false)), (String ((Ascii (false,
+    false, true, false, true, true, true, false)), (String ((Ascii (true,
+    false, true, false, false, true, true, false)), (String ((Ascii (false,
+    false, false, true, true, true, true, false)), (String ((Ascii (false,
+    false, true, false, true, true, true, false)), (String ((Ascii (true,
+    true, true, true, true, false, true, false)), (String ((Ascii (false,
+    true, false, false, true, true, true, false)), (String ((Ascii (true,
+    false, true, false, false, true, true, false)), (String ((Ascii (true,
+    true, false, false, false, true, true, false)), (String ((Ascii (true,
+    true, true, true, false, true, true, false)), (String ((Ascii (false,
+    true, false, false, true, true, true, false)), (String ((Ascii (false,
+    false, true, false, false, true, true, false)), (String ((Ascii (true,
+    true, false, false, true, true, true, false)),
+    EmptyString)))))))))))))))))))))))))))))))))))))))))))))))))))))))),
+    (e parse_dtls_plaintext_records (slist sx_dplain))) :: []))))))
+
 (** val rECORD_CAP : n **)
 
 let rECORD_CAP =
@@ -5556,7 +9371,8 @@ let spec_entries_tls =
 (** val all_entries : (string * entry_fn) list **)
 
 let all_entries =
-  app entries_tls spec_entries_tls
+  app entries_tls
+    (app entries_ext (app entries_kx (app entries_dtls spec_entries_tls)))
 
 (** val find_entry :
     byte list -> (string * entry_fn) list -> entry_fn option **)
